@@ -34,7 +34,7 @@ let rec length = function
 let rec app l m =
   match l with
   | [] -> m
-  | a :: l1 -> a :: (app l1 m)
+  | a0 :: l1 -> a0 :: (app l1 m)
 
 type comparison =
 | Eq
@@ -352,47 +352,47 @@ module Coq_Pos =
   (** val ggcdn :
       nat -> positive -> positive -> positive * (positive * positive) **)
 
-  let rec ggcdn n0 a b =
+  let rec ggcdn n0 a0 b =
     match n0 with
-    | O -> (XH, (a, b))
+    | O -> (XH, (a0, b))
     | S n1 ->
-      (match a with
+      (match a0 with
        | XI a' ->
          (match b with
           | XI b' ->
             (match compare a' b' with
-             | Eq -> (a, (XH, XH))
+             | Eq -> (a0, (XH, XH))
              | Lt ->
-               let (g, p) = ggcdn n1 (sub b' a') a in
+               let (g, p) = ggcdn n1 (sub b' a') a0 in
                let (ba, aa) = p in (g, (aa, (add aa (XO ba))))
              | Gt ->
                let (g, p) = ggcdn n1 (sub a' b') b in
                let (ab, bb) = p in (g, ((add bb (XO ab)), bb)))
           | XO b0 ->
-            let (g, p) = ggcdn n1 a b0 in
+            let (g, p) = ggcdn n1 a0 b0 in
             let (aa, bb) = p in (g, (aa, (XO bb)))
-          | XH -> (XH, (a, XH)))
-       | XO a0 ->
+          | XH -> (XH, (a0, XH)))
+       | XO a1 ->
          (match b with
           | XI _ ->
-            let (g, p) = ggcdn n1 a0 b in
+            let (g, p) = ggcdn n1 a1 b in
             let (aa, bb) = p in (g, ((XO aa), bb))
-          | XO b0 -> let (g, p) = ggcdn n1 a0 b0 in ((XO g), p)
-          | XH -> (XH, (a, XH)))
+          | XO b0 -> let (g, p) = ggcdn n1 a1 b0 in ((XO g), p)
+          | XH -> (XH, (a0, XH)))
        | XH -> (XH, (XH, b)))
 
   (** val ggcd : positive -> positive -> positive * (positive * positive) **)
 
-  let ggcd a b =
-    ggcdn (Coq__1.add (size_nat a) (size_nat b)) a b
+  let ggcd a0 b =
+    ggcdn (Coq__1.add (size_nat a0) (size_nat b)) a0 b
 
   (** val iter_op : ('a1 -> 'a1 -> 'a1) -> positive -> 'a1 -> 'a1 **)
 
-  let rec iter_op op p a =
+  let rec iter_op op0 p a0 =
     match p with
-    | XI p0 -> op a (iter_op op p0 (op a a))
-    | XO p0 -> iter_op op p0 (op a a)
-    | XH -> a
+    | XI p0 -> op0 a0 (iter_op op0 p0 (op0 a0 a0))
+    | XO p0 -> iter_op op0 p0 (op0 a0 a0)
+    | XH -> a0
 
   (** val to_nat : positive -> nat **)
 
@@ -589,6 +589,13 @@ module Z =
                  | Zneg q0 -> Coq_Pos.eqb p q0
                  | _ -> false)
 
+  (** val min : z -> z -> z **)
+
+  let min n0 m =
+    match compare n0 m with
+    | Gt -> m
+    | _ -> n0
+
   (** val abs : z -> z **)
 
   let abs = function
@@ -615,8 +622,8 @@ module Z =
 
   (** val pos_div_eucl : positive -> z -> z * z **)
 
-  let rec pos_div_eucl a b =
-    match a with
+  let rec pos_div_eucl a0 b =
+    match a0 with
     | XI a' ->
       let (q0, r) = pos_div_eucl a' b in
       let r' = add (mul (Zpos (XO XH)) r) (Zpos XH) in
@@ -633,12 +640,12 @@ module Z =
 
   (** val div_eucl : z -> z -> z * z **)
 
-  let div_eucl a b =
-    match a with
+  let div_eucl a0 b =
+    match a0 with
     | Z0 -> (Z0, Z0)
     | Zpos a' ->
       (match b with
-       | Z0 -> (Z0, a)
+       | Z0 -> (Z0, a0)
        | Zpos _ -> pos_div_eucl a' b
        | Zneg b' ->
          let (q0, r) = pos_div_eucl a' (Zpos b') in
@@ -647,7 +654,7 @@ module Z =
           | _ -> ((opp (add q0 (Zpos XH))), (add b r))))
     | Zneg a' ->
       (match b with
-       | Z0 -> (Z0, a)
+       | Z0 -> (Z0, a0)
        | Zpos _ ->
          let (q0, r) = pos_div_eucl a' b in
          (match r with
@@ -657,13 +664,13 @@ module Z =
 
   (** val div : z -> z -> z **)
 
-  let div a b =
-    let (q0, _) = div_eucl a b in q0
+  let div a0 b =
+    let (q0, _) = div_eucl a0 b in q0
 
   (** val modulo : z -> z -> z **)
 
-  let modulo a b =
-    let (_, r) = div_eucl a b in r
+  let modulo a0 b =
+    let (_, r) = div_eucl a0 b in r
 
   (** val even : z -> bool **)
 
@@ -688,26 +695,26 @@ module Z =
 
   (** val ggcd : z -> z -> z * (z * z) **)
 
-  let ggcd a b =
-    match a with
+  let ggcd a0 b =
+    match a0 with
     | Z0 -> ((abs b), (Z0, (sgn b)))
-    | Zpos a0 ->
+    | Zpos a1 ->
       (match b with
-       | Z0 -> ((abs a), ((sgn a), Z0))
+       | Z0 -> ((abs a0), ((sgn a0), Z0))
        | Zpos b0 ->
-         let (g, p) = Coq_Pos.ggcd a0 b0 in
+         let (g, p) = Coq_Pos.ggcd a1 b0 in
          let (aa, bb) = p in ((Zpos g), ((Zpos aa), (Zpos bb)))
        | Zneg b0 ->
-         let (g, p) = Coq_Pos.ggcd a0 b0 in
+         let (g, p) = Coq_Pos.ggcd a1 b0 in
          let (aa, bb) = p in ((Zpos g), ((Zpos aa), (Zneg bb))))
-    | Zneg a0 ->
+    | Zneg a1 ->
       (match b with
-       | Z0 -> ((abs a), ((sgn a), Z0))
+       | Z0 -> ((abs a0), ((sgn a0), Z0))
        | Zpos b0 ->
-         let (g, p) = Coq_Pos.ggcd a0 b0 in
+         let (g, p) = Coq_Pos.ggcd a1 b0 in
          let (aa, bb) = p in ((Zpos g), ((Zneg aa), (Zpos bb)))
        | Zneg b0 ->
-         let (g, p) = Coq_Pos.ggcd a0 b0 in
+         let (g, p) = Coq_Pos.ggcd a1 b0 in
          let (aa, bb) = p in ((Zpos g), ((Zneg aa), (Zneg bb))))
  end
 
@@ -717,6 +724,12 @@ let zeq_bool x y =
   match Z.compare x y with
   | Eq -> true
   | _ -> false
+
+(** val hd : 'a1 -> 'a1 list -> 'a1 **)
+
+let hd default = function
+| [] -> default
+| x :: _ -> x
 
 (** val nth : nat -> 'a1 list -> 'a1 -> 'a1 **)
 
@@ -729,17 +742,46 @@ let rec nth n0 l default =
             | [] -> default
             | _ :: t -> nth m t default)
 
+(** val nth_error : 'a1 list -> nat -> 'a1 option **)
+
+let rec nth_error l = function
+| O -> (match l with
+        | [] -> None
+        | x :: _ -> Some x)
+| S n1 -> (match l with
+           | [] -> None
+           | _ :: l0 -> nth_error l0 n1)
+
+(** val rev : 'a1 list -> 'a1 list **)
+
+let rec rev = function
+| [] -> []
+| x :: l' -> app (rev l') (x :: [])
+
+(** val concat : 'a1 list list -> 'a1 list **)
+
+let rec concat = function
+| [] -> []
+| x :: l0 -> app x (concat l0)
+
 (** val map : ('a1 -> 'a2) -> 'a1 list -> 'a2 list **)
 
 let rec map f = function
 | [] -> []
-| a :: t -> (f a) :: (map f t)
+| a0 :: t -> (f a0) :: (map f t)
 
 (** val flat_map : ('a1 -> 'a2 list) -> 'a1 list -> 'a2 list **)
 
 let rec flat_map f = function
 | [] -> []
 | x :: t -> app (f x) (flat_map f t)
+
+(** val fold_left : ('a1 -> 'a2 -> 'a1) -> 'a2 list -> 'a1 -> 'a1 **)
+
+let rec fold_left f l a0 =
+  match l with
+  | [] -> a0
+  | b :: t -> fold_left f t (f a0 b)
 
 (** val fold_right : ('a2 -> 'a1 -> 'a1) -> 'a1 -> 'a2 list -> 'a1 **)
 
@@ -751,13 +793,13 @@ let rec fold_right f a0 = function
 
 let rec existsb f = function
 | [] -> false
-| a :: l0 -> (||) (f a) (existsb f l0)
+| a0 :: l0 -> (||) (f a0) (existsb f l0)
 
 (** val forallb : ('a1 -> bool) -> 'a1 list -> bool **)
 
 let rec forallb f = function
 | [] -> true
-| a :: l0 -> (&&) (f a) (forallb f l0)
+| a0 :: l0 -> (&&) (f a0) (forallb f l0)
 
 (** val filter : ('a1 -> bool) -> 'a1 list -> 'a1 list **)
 
@@ -781,11 +823,35 @@ let rec combine l l' =
      | [] -> []
      | y :: tl' -> (x, y) :: (combine tl tl'))
 
+(** val firstn : nat -> 'a1 list -> 'a1 list **)
+
+let rec firstn n0 l =
+  match n0 with
+  | O -> []
+  | S n1 -> (match l with
+             | [] -> []
+             | a0 :: l0 -> a0 :: (firstn n1 l0))
+
+(** val skipn : nat -> 'a1 list -> 'a1 list **)
+
+let rec skipn n0 l =
+  match n0 with
+  | O -> l
+  | S n1 -> (match l with
+             | [] -> []
+             | _ :: l0 -> skipn n1 l0)
+
 (** val seq : nat -> nat -> nat list **)
 
 let rec seq start = function
 | O -> []
 | S len0 -> start :: (seq (S start) len0)
+
+(** val repeat : 'a1 -> nat -> 'a1 list **)
+
+let rec repeat x = function
+| O -> []
+| S k -> x :: (repeat x k)
 
 type ascii =
 | Ascii of bool * bool * bool * bool * bool * bool * bool * bool
@@ -808,8 +874,8 @@ let shift c = function
 
 (** val ascii_dec : ascii -> ascii -> bool **)
 
-let ascii_dec a b =
-  let Ascii (b0, b1, b2, b3, b4, b5, b6, b7) = a in
+let ascii_dec a0 b =
+  let Ascii (b0, b1, b2, b3, b4, b5, b6, b7) = a0 in
   let Ascii (b8, b9, b10, b11, b12, b13, b14, b15) = b in
   if bool_dec b0 b8
   then if bool_dec b1 b9
@@ -829,21 +895,21 @@ let ascii_dec a b =
 
 (** val eqb0 : ascii -> ascii -> bool **)
 
-let eqb0 a b =
-  let Ascii (a0, a1, a2, a3, a4, a5, a6, a7) = a in
+let eqb0 a0 b =
+  let Ascii (a1, a2, a3, a4, a5, a6, a7, a8) = a0 in
   let Ascii (b0, b1, b2, b3, b4, b5, b6, b7) = b in
-  if if if if if if if eqb a0 b0 then eqb a1 b1 else false
-                 then eqb a2 b2
+  if if if if if if if eqb a1 b0 then eqb a2 b1 else false
+                 then eqb a3 b2
                  else false
-              then eqb a3 b3
+              then eqb a4 b3
               else false
-           then eqb a4 b4
+           then eqb a5 b4
            else false
-        then eqb a5 b5
+        then eqb a6 b5
         else false
-     then eqb a6 b6
+     then eqb a7 b6
      else false
-  then eqb a7 b7
+  then eqb a8 b7
   else false
 
 (** val ascii_of_pos : positive -> ascii **)
@@ -867,8 +933,8 @@ let ascii_of_N = function
 
 (** val ascii_of_nat : nat -> ascii **)
 
-let ascii_of_nat a =
-  ascii_of_N (N.of_nat a)
+let ascii_of_nat a0 =
+  ascii_of_N (N.of_nat a0)
 
 (** val n_of_digits : bool list -> n **)
 
@@ -880,14 +946,14 @@ let rec n_of_digits = function
 (** val n_of_ascii : ascii -> n **)
 
 let n_of_ascii = function
-| Ascii (a0, a1, a2, a3, a4, a5, a6, a7) ->
+| Ascii (a1, a2, a3, a4, a5, a6, a7, a8) ->
   n_of_digits
-    (a0 :: (a1 :: (a2 :: (a3 :: (a4 :: (a5 :: (a6 :: (a7 :: []))))))))
+    (a1 :: (a2 :: (a3 :: (a4 :: (a5 :: (a6 :: (a7 :: (a8 :: []))))))))
 
 (** val nat_of_ascii : ascii -> nat **)
 
-let nat_of_ascii a =
-  N.to_nat (n_of_ascii a)
+let nat_of_ascii a0 =
+  N.to_nat (n_of_ascii a0)
 
 type string =
 | EmptyString
@@ -948,10 +1014,10 @@ let rec substring n0 m s =
 let rec prefix s1 s2 =
   match s1 with
   | EmptyString -> true
-  | String (a, s1') ->
+  | String (a0, s1') ->
     (match s2 with
      | EmptyString -> false
-     | String (b, s2') -> if ascii_dec a b then prefix s1' s2' else false)
+     | String (b, s2') -> if ascii_dec a0 b then prefix s1' s2' else false)
 
 type q = { qnum : z; qden : positive }
 
@@ -1099,6 +1165,11 @@ let getQ = function
             | _ -> { qnum = Z0; qden = XH }))
       | _ -> { qnum = Z0; qden = XH }))
 
+(** val nthV : nat -> v -> v **)
+
+let nthV n0 v0 =
+  nth n0 (getL v0) (VZ Z0)
+
 type 'a res =
 | Ok of 'a
 | Err of string
@@ -1107,7 +1178,7 @@ type 'a res =
 
 let bind r f =
   match r with
-  | Ok a -> f a
+  | Ok a0 -> f a0
   | Err e -> Err e
 
 (** val mapM : ('a1 -> 'a2 res) -> 'a1 list -> 'a2 list res **)
@@ -1124,8 +1195,8 @@ let vres = function
 
 (** val qltb : q -> q -> bool **)
 
-let qltb a b =
-  Z.ltb (Z.mul a.qnum (Zpos b.qden)) (Z.mul b.qnum (Zpos a.qden))
+let qltb a0 b =
+  Z.ltb (Z.mul a0.qnum (Zpos b.qden)) (Z.mul b.qnum (Zpos a0.qden))
 
 (** val qleb : q -> q -> bool **)
 
@@ -1139,8 +1210,8 @@ let qeqb =
 
 (** val qsqr : q -> q **)
 
-let qsqr a =
-  qmult a a
+let qsqr a0 =
+  qmult a0 a0
 
 (** val sp : ascii **)
 
@@ -1210,8 +1281,8 @@ let strip s =
 
 (** val slice : nat -> nat -> string -> string **)
 
-let slice a b s =
-  substring a (sub b a) s
+let slice a0 b s =
+  substring a0 (sub b a0) s
 
 (** val char_at : nat -> string -> string **)
 
@@ -1254,11 +1325,11 @@ let str_nonempty = function
 
 (** val is_substring : string -> string -> bool **)
 
-let rec is_substring a b =
-  (||) (prefix a b)
+let rec is_substring a0 b =
+  (||) (prefix a0 b)
     (match b with
      | EmptyString -> false
-     | String (_, t) -> is_substring a t)
+     | String (_, t) -> is_substring a0 t)
 
 (** val upto_nl : string -> string **)
 
@@ -1397,8 +1468,8 @@ let exotic_numeral s =
 
 let split_sign s = match s with
 | EmptyString -> (false, s)
-| String (a, t) ->
-  let Ascii (b, b0, b1, b2, b3, b4, b5, b6) = a in
+| String (a0, t) ->
+  let Ascii (b, b0, b1, b2, b3, b4, b5, b6) = a0 in
   if b
   then if b0
        then if b1
@@ -1441,7 +1512,7 @@ let rec split_dot = function
 | String (c, t) ->
   if eqb0 c (Ascii (false, true, true, true, false, true, false, false))
   then (EmptyString, (Some t))
-  else let (a, b) = split_dot t in ((String (c, a)), b)
+  else let (a0, b) = split_dot t in ((String (c, a0)), b)
 
 (** val qfloor' : q -> z **)
 
@@ -1470,20 +1541,20 @@ let qpow2 = function
 let b64 q0 =
   if qeq_bool q0 { qnum = Z0; qden = XH }
   then { qnum = Z0; qden = XH }
-  else let a = qabs q0 in
+  else let a0 = qabs q0 in
        let e0 =
-         Z.sub (Z.sub (Z.log2 a.qnum) (Z.log2 (Zpos a.qden))) (Zpos (XO (XO
+         Z.sub (Z.sub (Z.log2 a0.qnum) (Z.log2 (Zpos a0.qden))) (Zpos (XO (XO
            (XI (XO (XI XH))))))
        in
        let e =
          if qle_bool
               (inject_Z
                 (Z.pow (Zpos (XO XH)) (Zpos (XO (XO (XI (XO (XI XH))))))))
-              (qmult a (qpow2 (Z.opp e0)))
+              (qmult a0 (qpow2 (Z.opp e0)))
          then e0
          else Z.sub e0 (Zpos XH)
        in
-       let m = round_half_even (qmult a (qpow2 (Z.opp e))) in
+       let m = round_half_even (qmult a0 (qpow2 (Z.opp e))) in
        let v0 = qred (qmult (inject_Z m) (qpow2 e)) in
        if qle_bool { qnum = Z0; qden = XH } q0 then v0 else qred (qopp v0)
 
@@ -1549,6 +1620,44 @@ let round_dec k q0 =
      then Z.opp (round_half_even (qmult (qabs q0) (inject_Z (pow10 k))))
      else round_half_even (qmult q0 (inject_Z (pow10 k)))); qden =
     (Z.to_pos (pow10 k)) }
+
+(** val mem : ('a1 -> 'a1 -> bool) -> 'a1 -> 'a1 list -> bool **)
+
+let mem eqb2 x l =
+  existsb (eqb2 x) l
+
+(** val dedup_aux :
+    ('a1 -> 'a1 -> bool) -> 'a1 list -> 'a1 list -> 'a1 list **)
+
+let rec dedup_aux eqb2 seen = function
+| [] -> []
+| x :: t ->
+  if mem eqb2 x seen
+  then dedup_aux eqb2 seen t
+  else x :: (dedup_aux eqb2 (x :: seen) t)
+
+(** val dedup_keep_first : ('a1 -> 'a1 -> bool) -> 'a1 list -> 'a1 list **)
+
+let dedup_keep_first eqb2 l =
+  dedup_aux eqb2 [] l
+
+(** val insert_sorted :
+    ('a1 -> 'a1 -> bool) -> 'a1 -> 'a1 list -> 'a1 list **)
+
+let rec insert_sorted leb0 x l = match l with
+| [] -> x :: []
+| y :: t -> if leb0 x y then x :: l else y :: (insert_sorted leb0 x t)
+
+(** val sort_by : ('a1 -> 'a1 -> bool) -> 'a1 list -> 'a1 list **)
+
+let sort_by leb0 l =
+  fold_right (insert_sorted leb0) [] l
+
+(** val seqZ : z -> nat -> z list **)
+
+let rec seqZ start = function
+| O -> []
+| S k -> start :: (seqZ (Z.add start (Zpos XH)) k)
 
 (** val repeat_str : string -> nat -> string **)
 
@@ -2211,6 +2320,16 @@ let delimiter_src =
     (S (S (S (S (S (S
     O)))))))))))))))))))))))))))))))))))))))))))))))))))))))))))))))))))))))))))))))) :: []))))))))))))
 
+(** val sql_limit_src : z **)
+
+let sql_limit_src =
+  Zpos (XI (XI (XI (XO (XO (XI (XI (XI (XI XH)))))))))
+
+(** val max_sql_values_src : z **)
+
+let max_sql_values_src =
+  Zpos (XO (XI (XI (XO (XI (XI (XO (XI (XI XH)))))))))
+
 (** val atom_prefix_src : string **)
 
 let atom_prefix_src =
@@ -2520,8 +2639,8 @@ let rec assoc k = function
 let parse_field line colname coltype =
   match assoc colname delimiter_src with
   | Some p ->
-    let (a, b) = p in
-    let data = strip (slice a b line) in
+    let (a0, b) = p in
+    let data = strip (slice a0 b line) in
     bind
       (if str_nonempty data
        then Ok (Inl data)
@@ -2639,24 +2758,24 @@ let rec parse_fields line = function
 
 (** val parse_record : z -> string -> row res **)
 
-let parse_record nmodel line0 =
+let parse_record nmodel0 line0 =
   bind (linelength_src line0) (fun line ->
     bind (parse_fields line col_src) (fun vs -> Ok
-      (app vs ((VInt nmodel) :: []))))
+      (app vs ((VInt nmodel0) :: []))))
 
 (** val parse_lines : string list -> z -> (row list * z) res **)
 
-let rec parse_lines lines nmodel =
+let rec parse_lines lines nmodel0 =
   match lines with
-  | [] -> Ok ([], nmodel)
+  | [] -> Ok ([], nmodel0)
   | l :: t ->
     if startswith atom_prefix_src l
-    then bind (parse_record nmodel (upto_nl l)) (fun r ->
-           bind (parse_lines t nmodel) (fun rest -> Ok ((r :: (fst rest)),
+    then bind (parse_record nmodel0 (upto_nl l)) (fun r ->
+           bind (parse_lines t nmodel0) (fun rest -> Ok ((r :: (fst rest)),
              (snd rest))))
     else if startswith endmdl_prefix_src l
-         then parse_lines t (Z.add nmodel (Zpos XH))
-         else parse_lines t nmodel
+         then parse_lines t (Z.add nmodel0 (Zpos XH))
+         else parse_lines t nmodel0
 
 (** val parse : input -> (row list * z) res **)
 
@@ -2822,8 +2941,8 @@ let pad80 line =
 
 (** val columns : nat -> nat -> string -> string **)
 
-let columns a b line =
-  substring (sub a (S O)) (add (sub b a) (S O)) (pad80 line)
+let columns a0 b line =
+  substring (sub a0 (S O)) (add (sub b a0) (S O)) (pad80 line)
 
 (** val column : nat -> string -> ascii **)
 
@@ -2878,8 +2997,8 @@ let spec_element line =
 let spec_field line = function
 | (p, ty) ->
   let (name, p0) = p in
-  let (a, b) = p0 in
-  let txt = trim (columns a b line) in
+  let (a0, b) = p0 in
+  let txt = trim (columns a0 b line) in
   (match ty with
    | TInt ->
      (match parse_int txt with
@@ -3219,7 +3338,7 @@ let form_of s =
 
 (** val run_parse : string -> v list -> v option **)
 
-let run_parse cmd a =
+let run_parse cmd a0 =
   if eqb1 cmd (String ((Ascii (false, false, false, false, true, true, true,
        false)), (String ((Ascii (true, false, false, false, false, true,
        true, false)), (String ((Ascii (false, true, false, false, true, true,
@@ -3234,8 +3353,8 @@ let run_parse cmd a =
   then Some
          (vres
            (bind
-             (parse (InText ((form_of (getS (nth O a (VZ Z0)))),
-               (getS (nth (S O) a (VZ Z0)))))) (fun r -> Ok (VL
+             (parse (InText ((form_of (getS (nth O a0 (VZ Z0)))),
+               (getS (nth (S O) a0 (VZ Z0)))))) (fun r -> Ok (VL
              ((vrows (fst r)) :: ((VZ (snd r)) :: []))))))
   else if eqb1 cmd (String ((Ascii (false, false, false, false, true, true,
             true, false)), (String ((Ascii (true, false, false, false, false,
@@ -3253,8 +3372,8 @@ let run_parse cmd a =
        then Some
               (vres
                 (bind
-                  (parse (InLines ((form_of (getS (nth O a (VZ Z0)))),
-                    (map getS (getL (nth (S O) a (VZ Z0))))))) (fun r -> Ok
+                  (parse (InLines ((form_of (getS (nth O a0 (VZ Z0)))),
+                    (map getS (getL (nth (S O) a0 (VZ Z0))))))) (fun r -> Ok
                   (VL ((vrows (fst r)) :: ((VZ (snd r)) :: []))))))
        else if eqb1 cmd (String ((Ascii (true, true, false, false, true,
                  true, true, false)), (String ((Ascii (false, false, false,
@@ -3279,7 +3398,7 @@ let run_parse cmd a =
                  false)), EmptyString))))))))))))))))))))))))))))))))
             then Some
                    (vres
-                     (bind (spec_table (map getS (getL (nth O a (VZ Z0)))))
+                     (bind (spec_table (map getS (getL (nth O a0 (VZ Z0)))))
                        (fun rs -> Ok (vrows rs))))
             else if eqb1 cmd (String ((Ascii (true, true, false, false, true,
                       true, true, false)), (String ((Ascii (false, false,
@@ -3303,8 +3422,8 @@ let run_parse cmd a =
                       EmptyString))))))))))))))))))))))))))))
                  then Some
                         (vres
-                          (bind (spec_row (getS (nth O a (VZ Z0)))) (fun r ->
-                            Ok (vrow r))))
+                          (bind (spec_row (getS (nth O a0 (VZ Z0))))
+                            (fun r -> Ok (vrow r))))
                  else if eqb1 cmd (String ((Ascii (false, false, false,
                            false, true, true, true, false)), (String ((Ascii
                            (true, false, false, false, false, true, true,
@@ -3329,7 +3448,7 @@ let run_parse cmd a =
                       then Some
                              (vres
                                (bind
-                                 (get_element_src (getS (nth O a (VZ Z0))))
+                                 (get_element_src (getS (nth O a0 (VZ Z0))))
                                  (fun s -> Ok (VS s))))
                       else None
 
@@ -3478,8 +3597,8 @@ let export_layout_src =
 
 (** val justify : align -> nat -> string -> string **)
 
-let justify a w s =
-  match a with
+let justify a0 w s =
+  match a0 with
   | ARight -> rjust w s
   | ALeft -> ljust w s
   | ACenter -> center w s
@@ -3553,10 +3672,10 @@ let text_of = function
 
 let render_piece d = function
 | PLit s -> Ok s
-| PField (i, a, w) ->
-  bind (render_plain (nth i d VNull)) (fun s -> Ok (justify a w s))
-| PFixed (i, a, w, pr) ->
-  (match a with
+| PField (i, a0, w) ->
+  bind (render_plain (nth i d VNull)) (fun s -> Ok (justify a0 w s))
+| PFixed (i, a0, w, pr) ->
+  (match a0 with
    | ARight ->
      bind (num_of (nth i d VNull)) (fun q0 -> Ok (fmt_fixed w pr q0))
    | _ ->
@@ -3751,13 +3870,13 @@ let max_fit q0 =
 (** val near_power_of_ten : q -> bool **)
 
 let near_power_of_ten q0 =
-  let a = qabs q0 in
+  let a0 = qabs q0 in
   existsb (fun k ->
     (&&)
       (qleb
         (qminus (inject_Z (Z.pow (Zpos (XO (XI (XO XH)))) k)) { qnum = (Zpos
-          XH); qden = (XO XH) }) a)
-      (qltb a (inject_Z (Z.pow (Zpos (XO (XI (XO XH)))) k)))) ((Zpos (XI
+          XH); qden = (XO XH) }) a0)
+      (qltb a0 (inject_Z (Z.pow (Zpos (XO (XI (XO XH)))) k)))) ((Zpos (XI
     XH)) :: ((Zpos (XO (XO XH))) :: ((Zpos (XI (XO XH))) :: ((Zpos (XO (XI
     XH))) :: ((Zpos (XI (XI XH))) :: ((Zpos (XO (XO (XO XH)))) :: []))))))
 
@@ -3946,8 +4065,8 @@ let line_ok d line =
 
 (** val val_eqb : val0 -> val0 -> bool **)
 
-let val_eqb a b =
-  match a with
+let val_eqb a0 b =
+  match a0 with
   | VInt x -> (match b with
                | VInt y -> Z.eqb x y
                | _ -> false)
@@ -3974,8 +4093,8 @@ let slack x =
 
 (** val within : q -> val0 -> val0 -> bool **)
 
-let within tol a b =
-  match real_of a with
+let within tol a0 b =
+  match real_of a0 with
   | Some x ->
     (match real_of b with
      | Some y -> qleb (qabs (qminus x y)) (qplus tol (slack x))
@@ -4030,7 +4149,7 @@ let row_of_V v0 =
 
 (** val run_export : string -> v list -> v option **)
 
-let run_export cmd a =
+let run_export cmd a0 =
   if eqb1 cmd (String ((Ascii (true, false, true, false, false, true, true,
        false)), (String ((Ascii (false, false, false, true, true, true, true,
        false)), (String ((Ascii (false, false, false, false, true, true,
@@ -4045,7 +4164,7 @@ let run_export cmd a =
        true, true, false)), EmptyString))))))))))))))))))))))
   then Some
          (vres
-           (bind (line_of_row (row_of_V (nth O a (VZ Z0)))) (fun s -> Ok (VS
+           (bind (line_of_row (row_of_V (nth O a0 (VZ Z0)))) (fun s -> Ok (VS
              s))))
   else if eqb1 cmd (String ((Ascii (true, false, true, false, false, true,
             true, false)), (String ((Ascii (false, false, false, true, true,
@@ -4061,7 +4180,7 @@ let run_export cmd a =
             true, false)), EmptyString))))))))))))))))))))
        then Some
               (vres
-                (bind (format_xyz_src (getQ (nth O a (VZ Z0)))) (fun s -> Ok
+                (bind (format_xyz_src (getQ (nth O a0 (VZ Z0)))) (fun s -> Ok
                   (VS s))))
        else if eqb1 cmd (String ((Ascii (true, false, true, false, false,
                  true, true, false)), (String ((Ascii (false, false, false,
@@ -4086,8 +4205,8 @@ let run_export cmd a =
             then Some
                    (vres
                      (bind
-                       (format_atomname_src (getS (nth O a (VZ Z0)))
-                         (getS (nth (S O) a (VZ Z0)))) (fun s -> Ok (VS s))))
+                       (format_atomname_src (getS (nth O a0 (VZ Z0)))
+                         (getS (nth (S O) a0 (VZ Z0)))) (fun s -> Ok (VS s))))
             else if eqb1 cmd (String ((Ascii (true, true, false, false, true,
                       true, true, false)), (String ((Ascii (false, false,
                       false, false, true, true, true, false)), (String
@@ -4111,7 +4230,7 @@ let run_export cmd a =
                       false)), (String ((Ascii (true, true, false, false,
                       true, true, true, false)),
                       EmptyString))))))))))))))))))))))))))))))))
-                 then Some (vB (fits (row_of_V (nth O a (VZ Z0)))))
+                 then Some (vB (fits (row_of_V (nth O a0 (VZ Z0)))))
                  else if eqb1 cmd (String ((Ascii (true, true, false, false,
                            true, true, true, false)), (String ((Ascii (false,
                            false, false, false, true, true, true, false)),
@@ -4143,8 +4262,8 @@ let run_export cmd a =
                            EmptyString))))))))))))))))))))))))))))))))))))))
                       then Some
                              (vB
-                               (line_ok (row_of_V (nth O a (VZ Z0)))
-                                 (getS (nth (S O) a (VZ Z0)))))
+                               (line_ok (row_of_V (nth O a0 (VZ Z0)))
+                                 (getS (nth (S O) a0 (VZ Z0)))))
                       else if eqb1 cmd (String ((Ascii (true, true, false,
                                 false, true, true, true, false)), (String
                                 ((Ascii (false, false, false, false, true,
@@ -4183,8 +4302,8 @@ let run_export cmd a =
                            then Some
                                   (vB
                                     (coord_ok (VReal
-                                      (getQ (nth O a (VZ Z0))))
-                                      (getS (nth (S O) a (VZ Z0)))))
+                                      (getQ (nth O a0 (VZ Z0))))
+                                      (getS (nth (S O) a0 (VZ Z0)))))
                            else if eqb1 cmd (String ((Ascii (true, true,
                                      false, false, true, true, true, false)),
                                      (String ((Ascii (false, false, false,
@@ -4239,7 +4358,7 @@ let run_export cmd a =
                                 then Some
                                        (vB
                                          (coord_in_range (VReal
-                                           (getQ (nth O a (VZ Z0))))))
+                                           (getQ (nth O a0 (VZ Z0))))))
                                 else if eqb1 cmd (String ((Ascii (true, true,
                                           false, false, true, true, true,
                                           false)), (String ((Ascii (false,
@@ -4291,15 +4410,15 @@ let run_export cmd a =
                                      then Some
                                             (vB
                                               (approx_row
-                                                (row_of_V (nth O a (VZ Z0)))
+                                                (row_of_V (nth O a0 (VZ Z0)))
                                                 (row_of_V
-                                                  (nth (S O) a (VZ Z0)))))
+                                                  (nth (S O) a0 (VZ Z0)))))
                                      else None
 
 (** val val_eqb0 : val0 -> val0 -> bool **)
 
-let val_eqb0 a b =
-  match a with
+let val_eqb0 a0 b =
+  match a0 with
   | VInt x ->
     (match b with
      | VInt y -> Z.eqb x y
@@ -4324,8 +4443,8 @@ let key_of idx r =
 
 (** val keys_eqb : val0 list -> val0 list -> bool **)
 
-let rec keys_eqb a b =
-  match a with
+let rec keys_eqb a0 b =
+  match a0 with
   | [] -> (match b with
            | [] -> true
            | _ :: _ -> false)
@@ -4356,10 +4475,10 @@ let project cols r =
 (** val get_intersection :
     nat list -> nat list -> table list -> row list list **)
 
-let get_intersection idx cols tables =
-  let tuples = join idx tables in
+let get_intersection idx cols tables0 =
+  let tuples = join idx tables0 in
   map (fun it -> map (fun tup -> project cols (nth it tup [])) tuples)
-    (seq O (length tables))
+    (seq O (length tables0))
 
 (** val std_cols : string list **)
 
@@ -4473,7 +4592,7 @@ let rec index_of eq x l k =
 (** val col_index_ci : string -> nat option **)
 
 let col_index_ci c =
-  index_of (fun a b -> eqb1 (lower a) (lower b)) c std_cols O
+  index_of (fun a0 b -> eqb1 (lower a0) (lower b)) c std_cols O
 
 (** val find_key : nat list -> row -> table -> row option **)
 
@@ -4505,10 +4624,10 @@ let spec_tuples idx = function
 (** val spec_intersection :
     nat list -> nat list -> table list -> row list list **)
 
-let spec_intersection idx cols tables =
-  let tuples = spec_tuples idx tables in
+let spec_intersection idx cols tables0 =
+  let tuples = spec_tuples idx tables0 in
   map (fun it -> map (fun tup -> project cols (nth it tup [])) tuples)
-    (seq O (length tables))
+    (seq O (length tables0))
 
 (** val unique_keys : nat list -> table -> bool **)
 
@@ -4534,7 +4653,7 @@ let vtables ts =
 
 (** val run_many : string -> v list -> v option **)
 
-let run_many cmd a =
+let run_many cmd a0 =
   if eqb1 cmd (String ((Ascii (true, false, true, true, false, true, true,
        false)), (String ((Ascii (true, false, false, false, false, true,
        true, false)), (String ((Ascii (false, true, true, true, false, true,
@@ -4555,9 +4674,9 @@ let run_many cmd a =
        true, true, false)), EmptyString))))))))))))))))))))))))))))))))))
   then Some
          (vtables
-           (get_intersection (nats_of_V (nth O a (VZ Z0)))
-             (nats_of_V (nth (S O) a (VZ Z0)))
-             (tables_of_V (nth (S (S O)) a (VZ Z0)))))
+           (get_intersection (nats_of_V (nth O a0 (VZ Z0)))
+             (nats_of_V (nth (S O) a0 (VZ Z0)))
+             (tables_of_V (nth (S (S O)) a0 (VZ Z0)))))
   else if eqb1 cmd (String ((Ascii (true, true, false, false, true, true,
             true, false)), (String ((Ascii (false, false, false, false, true,
             true, true, false)), (String ((Ascii (true, false, true, false,
@@ -4586,9 +4705,9 @@ let run_many cmd a =
             EmptyString))))))))))))))))))))))))))))))))))))))))))))
        then Some
               (vtables
-                (spec_intersection (nats_of_V (nth O a (VZ Z0)))
-                  (nats_of_V (nth (S O) a (VZ Z0)))
-                  (tables_of_V (nth (S (S O)) a (VZ Z0)))))
+                (spec_intersection (nats_of_V (nth O a0 (VZ Z0)))
+                  (nats_of_V (nth (S O) a0 (VZ Z0)))
+                  (tables_of_V (nth (S (S O)) a0 (VZ Z0)))))
        else if eqb1 cmd (String ((Ascii (true, true, false, false, true,
                  true, true, false)), (String ((Ascii (false, false, false,
                  false, true, true, true, false)), (String ((Ascii (true,
@@ -4612,8 +4731,8 @@ let run_many cmd a =
                  false)), EmptyString))))))))))))))))))))))))))))))))
             then Some
                    (vB
-                     (forallb (unique_keys (nats_of_V (nth O a (VZ Z0))))
-                       (tables_of_V (nth (S O) a (VZ Z0)))))
+                     (forallb (unique_keys (nats_of_V (nth O a0 (VZ Z0))))
+                       (tables_of_V (nth (S O) a0 (VZ Z0)))))
             else if eqb1 cmd (String ((Ascii (true, false, true, true, false,
                       true, true, false)), (String ((Ascii (true, false,
                       false, false, false, true, true, false)), (String
@@ -4635,7 +4754,7 @@ let run_many cmd a =
                       false, false, true, true, true, true, false)),
                       EmptyString))))))))))))))))))))))))))))
                  then Some
-                        (match col_index_ci (getS (nth O a (VZ Z0))) with
+                        (match col_index_ci (getS (nth O a0 (VZ Z0))) with
                          | Some k -> VZ (Z.of_nat k)
                          | None -> VZ (Zneg XH))
                  else None
@@ -4648,7 +4767,7 @@ let snapshot rows =
 
 (** val run_store : string -> v list -> v option **)
 
-let run_store cmd a =
+let run_store cmd a0 =
   if eqb1 cmd (String ((Ascii (true, true, false, false, true, true, true,
        false)), (String ((Ascii (false, false, true, false, true, true, true,
        false)), (String ((Ascii (true, true, true, true, false, true, true,
@@ -4667,8 +4786,8 @@ let run_store cmd a =
        EmptyString))))))))))))))))))))))))))))
   then Some
          (vres
-           (bind (snapshot (map row_of_V (getL (nth O a (VZ Z0))))) (fun t ->
-             Ok (vrows t))))
+           (bind (snapshot (map row_of_V (getL (nth O a0 (VZ Z0)))))
+             (fun t -> Ok (vrows t))))
   else if eqb1 cmd (String ((Ascii (true, true, false, false, true, true,
             true, false)), (String ((Ascii (false, false, false, false, true,
             true, true, false)), (String ((Ascii (true, false, true, false,
@@ -4696,8 +4815,8 @@ let run_store cmd a =
             true, false, true, true, false)), (String ((Ascii (true, false,
             true, false, false, true, true, false)),
             EmptyString))))))))))))))))))))))))))))))))))))))))))))))
-       then let s = map row_of_V (getL (nth O a (VZ Z0))) in
-            let d = map row_of_V (getL (nth (S O) a (VZ Z0))) in
+       then let s = map row_of_V (getL (nth O a0 (VZ Z0))) in
+            let d = map row_of_V (getL (nth (S O) a0 (VZ Z0))) in
             Some
             (vB
               ((&&) (Nat.eqb (length s) (length d))
@@ -4710,8 +4829,8 @@ type mat = (vec * vec) * vec
 
 (** val vadd : vec -> vec -> vec **)
 
-let vadd a b =
-  let (p, a3) = a in
+let vadd a0 b =
+  let (p, a3) = a0 in
   let (a1, a2) = p in
   let (p0, b3) = b in
   let (b1, b2) = p0 in
@@ -4719,8 +4838,8 @@ let vadd a b =
 
 (** val vsub : vec -> vec -> vec **)
 
-let vsub a b =
-  let (p, a3) = a in
+let vsub a0 b =
+  let (p, a3) = a0 in
   let (a1, a2) = p in
   let (p0, b3) = b in
   let (b1, b2) = p0 in
@@ -4728,8 +4847,8 @@ let vsub a b =
 
 (** val vdot : vec -> vec -> q **)
 
-let vdot a b =
-  let (p, a3) = a in
+let vdot a0 b =
+  let (p, a3) = a0 in
   let (a1, a2) = p in
   let (p0, b3) = b in
   let (b1, b2) = p0 in
@@ -4799,11 +4918,11 @@ let pairs_of_tuples tuples =
 let paired_selections sel_mobile sel_target =
   if Nat.eqb (length sel_mobile) (length sel_target)
   then Ok ((map xyz_of sel_mobile), (map xyz_of sel_target))
-  else bind (snapshot sel_mobile) (fun a ->
+  else bind (snapshot sel_mobile) (fun a0 ->
          bind (snapshot sel_target) (fun b -> Ok
            (pairs_of_tuples
              (join ((S O) :: ((S (S (S O))) :: ((S (S (S (S (S O))))) :: ((S
-               (S (S (S O)))) :: [])))) (a :: (b :: []))))))
+               (S (S (S O)))) :: [])))) (a0 :: (b :: []))))))
 
 (** val set_xyz : row -> vec -> row **)
 
@@ -4857,13 +4976,13 @@ let det = function
 | (p, v0) ->
   let (v1, v2) = p in
   let (p0, c) = v1 in
-  let (a, b) = p0 in
+  let (a0, b) = p0 in
   let (p1, f) = v2 in
   let (d, e) = p1 in
   let (p2, i) = v0 in
   let (g, h) = p2 in
   qplus
-    (qminus (qmult a (qminus (qmult e i) (qmult f h)))
+    (qminus (qmult a0 (qminus (qmult e i) (qmult f h)))
       (qmult b (qminus (qmult d i) (qmult f g))))
     (qmult c (qminus (qmult d h) (qmult e g)))
 
@@ -4876,8 +4995,8 @@ let shared_pairs sel_mobile sel_target =
 
 (** val close_to : q -> q -> q -> bool **)
 
-let close_to eps a b =
-  qleb (qabs (qminus a b)) eps
+let close_to eps a0 b =
+  qleb (qabs (qminus a0 b)) eps
 
 (** val is_rotation_eps : q -> mat -> bool **)
 
@@ -4924,7 +5043,7 @@ let rows_of_V v0 =
 
 (** val run_superpose : string -> v list -> v option **)
 
-let run_superpose cmd a =
+let run_superpose cmd a0 =
   if eqb1 cmd (String ((Ascii (true, true, false, false, true, true, true,
        false)), (String ((Ascii (true, false, true, false, true, true, true,
        false)), (String ((Ascii (false, false, false, false, true, true,
@@ -4944,11 +5063,11 @@ let run_superpose cmd a =
   then Some
          (vres
            (bind
-             (superpose (mat_of_V (nth O a (VZ Z0)))
-               (rows_of_V (nth (S O) a (VZ Z0)))
-               (rows_of_V (nth (S (S O)) a (VZ Z0)))
-               (rows_of_V (nth (S (S (S O))) a (VZ Z0)))) (fun new0 -> Ok (VL
-             (map (fun r -> vvec (xyz_of r)) new0)))))
+             (superpose (mat_of_V (nth O a0 (VZ Z0)))
+               (rows_of_V (nth (S O) a0 (VZ Z0)))
+               (rows_of_V (nth (S (S O)) a0 (VZ Z0)))
+               (rows_of_V (nth (S (S (S O))) a0 (VZ Z0)))) (fun new0 -> Ok
+             (VL (map (fun r -> vvec (xyz_of r)) new0)))))
   else if eqb1 cmd (String ((Ascii (true, true, false, false, true, true,
             true, false)), (String ((Ascii (true, false, true, false, true,
             true, true, false)), (String ((Ascii (false, false, false, false,
@@ -4971,9 +5090,10 @@ let run_superpose cmd a =
        then Some
               (vres
                 (bind
-                  (paired_selections (rows_of_V (nth O a (VZ Z0)))
-                    (rows_of_V (nth (S O) a (VZ Z0)))) (fun pq -> Ok (VL ((VL
-                  (map vvec (fst pq))) :: ((VL (map vvec (snd pq))) :: []))))))
+                  (paired_selections (rows_of_V (nth O a0 (VZ Z0)))
+                    (rows_of_V (nth (S O) a0 (VZ Z0)))) (fun pq -> Ok (VL
+                  ((VL (map vvec (fst pq))) :: ((VL
+                  (map vvec (snd pq))) :: []))))))
        else if eqb1 cmd (String ((Ascii (true, true, false, false, true,
                  true, true, false)), (String ((Ascii (false, false, false,
                  false, true, true, true, false)), (String ((Ascii (true,
@@ -5010,8 +5130,8 @@ let run_superpose cmd a =
                  false, true, true, true, false)),
                  EmptyString))))))))))))))))))))))))))))))))))))))))))))))))))))))
             then let (p, q0) =
-                   shared_pairs (rows_of_V (nth O a (VZ Z0)))
-                     (rows_of_V (nth (S O) a (VZ Z0)))
+                   shared_pairs (rows_of_V (nth O a0 (VZ Z0)))
+                     (rows_of_V (nth (S O) a0 (VZ Z0)))
                  in
                  Some (VL ((VL (map vvec p)) :: ((VL (map vvec q0)) :: [])))
             else if eqb1 cmd (String ((Ascii (true, true, false, false, true,
@@ -5052,9 +5172,5184 @@ let run_superpose cmd a =
                       EmptyString))))))))))))))))))))))))))))))))))))))))))))))))))))
                  then Some
                         (vB
-                          (is_rotation_eps (getQ (nth O a (VZ Z0)))
-                            (mat_of_V (nth (S O) a (VZ Z0)))))
+                          (is_rotation_eps (getQ (nth O a0 (VZ Z0)))
+                            (mat_of_V (nth (S O) a0 (VZ Z0)))))
                  else None
+
+type pv =
+| PInt of z
+| PFloat of q
+| PStr of string
+| PNone
+
+type cval =
+| CScalar of pv
+| CList of pv list
+
+type conds = (string * cval) list
+
+(** val upper_ascii : ascii -> ascii **)
+
+let upper_ascii c =
+  let n0 = nat_of_ascii c in
+  if (&&)
+       (Nat.leb (S (S (S (S (S (S (S (S (S (S (S (S (S (S (S (S (S (S (S (S
+         (S (S (S (S (S (S (S (S (S (S (S (S (S (S (S (S (S (S (S (S (S (S (S
+         (S (S (S (S (S (S (S (S (S (S (S (S (S (S (S (S (S (S (S (S (S (S (S
+         (S (S (S (S (S (S (S (S (S (S (S (S (S (S (S (S (S (S (S (S (S (S (S
+         (S (S (S (S (S (S (S (S
+         O)))))))))))))))))))))))))))))))))))))))))))))))))))))))))))))))))))))))))))))))))))))))))))))))))
+         n0)
+       (Nat.leb n0 (S (S (S (S (S (S (S (S (S (S (S (S (S (S (S (S (S (S (S
+         (S (S (S (S (S (S (S (S (S (S (S (S (S (S (S (S (S (S (S (S (S (S (S
+         (S (S (S (S (S (S (S (S (S (S (S (S (S (S (S (S (S (S (S (S (S (S (S
+         (S (S (S (S (S (S (S (S (S (S (S (S (S (S (S (S (S (S (S (S (S (S (S
+         (S (S (S (S (S (S (S (S (S (S (S (S (S (S (S (S (S (S (S (S (S (S (S
+         (S (S (S (S (S (S (S (S (S (S (S
+         O)))))))))))))))))))))))))))))))))))))))))))))))))))))))))))))))))))))))))))))))))))))))))))))))))))))))))))))))))))))))))))
+  then ascii_of_nat
+         (sub n0 (S (S (S (S (S (S (S (S (S (S (S (S (S (S (S (S (S (S (S (S
+           (S (S (S (S (S (S (S (S (S (S (S (S
+           O)))))))))))))))))))))))))))))))))
+  else c
+
+(** val str_upper : string -> string **)
+
+let rec str_upper = function
+| EmptyString -> EmptyString
+| String (c, t) -> String ((upper_ascii c), (str_upper t))
+
+(** val ci_eqb : string -> string -> bool **)
+
+let ci_eqb a0 b =
+  eqb1 (str_upper a0) (str_upper b)
+
+type aff =
+| AInt
+| AText
+| ABlob
+| AReal
+| ANumeric
+
+(** val affinity_of_decl : string -> aff **)
+
+let affinity_of_decl ty =
+  let u = str_upper ty in
+  if is_substring (String ((Ascii (true, false, false, true, false, false,
+       true, false)), (String ((Ascii (false, true, true, true, false, false,
+       true, false)), (String ((Ascii (false, false, true, false, true,
+       false, true, false)), EmptyString)))))) u
+  then AInt
+  else if (||)
+            ((||)
+              (is_substring (String ((Ascii (true, true, false, false, false,
+                false, true, false)), (String ((Ascii (false, false, false,
+                true, false, false, true, false)), (String ((Ascii (true,
+                false, false, false, false, false, true, false)), (String
+                ((Ascii (false, true, false, false, true, false, true,
+                false)), EmptyString)))))))) u)
+              (is_substring (String ((Ascii (true, true, false, false, false,
+                false, true, false)), (String ((Ascii (false, false, true,
+                true, false, false, true, false)), (String ((Ascii (true,
+                true, true, true, false, false, true, false)), (String
+                ((Ascii (false, true, false, false, false, false, true,
+                false)), EmptyString)))))))) u))
+            (is_substring (String ((Ascii (false, false, true, false, true,
+              false, true, false)), (String ((Ascii (true, false, true,
+              false, false, false, true, false)), (String ((Ascii (false,
+              false, false, true, true, false, true, false)), (String ((Ascii
+              (false, false, true, false, true, false, true, false)),
+              EmptyString)))))))) u)
+       then AText
+       else if (||)
+                 (is_substring (String ((Ascii (false, true, false, false,
+                   false, false, true, false)), (String ((Ascii (false,
+                   false, true, true, false, false, true, false)), (String
+                   ((Ascii (true, true, true, true, false, false, true,
+                   false)), (String ((Ascii (false, true, false, false,
+                   false, false, true, false)), EmptyString)))))))) u)
+                 (eqb1 u EmptyString)
+            then ABlob
+            else if (||)
+                      ((||)
+                        (is_substring (String ((Ascii (false, true, false,
+                          false, true, false, true, false)), (String ((Ascii
+                          (true, false, true, false, false, false, true,
+                          false)), (String ((Ascii (true, false, false,
+                          false, false, false, true, false)), (String ((Ascii
+                          (false, false, true, true, false, false, true,
+                          false)), EmptyString)))))))) u)
+                        (is_substring (String ((Ascii (false, true, true,
+                          false, false, false, true, false)), (String ((Ascii
+                          (false, false, true, true, false, false, true,
+                          false)), (String ((Ascii (true, true, true, true,
+                          false, false, true, false)), (String ((Ascii (true,
+                          false, false, false, false, false, true, false)),
+                          EmptyString)))))))) u))
+                      (is_substring (String ((Ascii (false, false, true,
+                        false, false, false, true, false)), (String ((Ascii
+                        (true, true, true, true, false, false, true, false)),
+                        (String ((Ascii (true, false, true, false, true,
+                        false, true, false)), (String ((Ascii (false, true,
+                        false, false, false, false, true, false)),
+                        EmptyString)))))))) u)
+                 then AReal
+                 else ANumeric
+
+(** val aff_numeric : aff -> bool **)
+
+let aff_numeric = function
+| AText -> false
+| ABlob -> false
+| _ -> true
+
+(** val two53 : z **)
+
+let two53 =
+  Zpos (XO (XO (XO (XO (XO (XO (XO (XO (XO (XO (XO (XO (XO (XO (XO (XO (XO
+    (XO (XO (XO (XO (XO (XO (XO (XO (XO (XO (XO (XO (XO (XO (XO (XO (XO (XO
+    (XO (XO (XO (XO (XO (XO (XO (XO (XO (XO (XO (XO (XO (XO (XO (XO (XO (XO
+    XH)))))))))))))))))))))))))))))))))))))))))))))))))))))
+
+(** val int_in_range : z -> bool **)
+
+let int_in_range z0 =
+  Z.ltb (Z.abs z0) two53
+
+(** val q_is_int : q -> bool **)
+
+let q_is_int q0 =
+  Coq_Pos.eqb (qred q0).qden XH
+
+(** val q_to_int : q -> z **)
+
+let q_to_int q0 =
+  (qred q0).qnum
+
+type numtext =
+| NTNum of q
+| NTText
+| NTOut
+
+(** val only_chars : string -> string -> bool **)
+
+let rec only_chars allowed = function
+| EmptyString -> true
+| String (c, t) -> (&&) (has_char c allowed) (only_chars allowed t)
+
+(** val sql_numeric_text : string -> numtext **)
+
+let sql_numeric_text s0 =
+  let s = strip s0 in
+  let (neg, body) = split_sign s in
+  let (ip, fp) = split_dot body in
+  let fpart = match fp with
+              | Some f -> f
+              | None -> EmptyString in
+  if (&&) ((&&) (all_digits ip) (all_digits fpart))
+       ((||) (str_nonempty ip) (str_nonempty fpart))
+  then if Nat.leb (add (length0 ip) (length0 fpart)) (S (S (S (S (S (S (S (S
+            (S (S (S (S (S (S (S O)))))))))))))))
+       then let n0 = digits_val Z0 (append ip fpart) in
+            let q0 =
+              qred { qnum = n0; qden = (Z.to_pos (pow10 (length0 fpart))) }
+            in
+            NTNum (b64 (if neg then qred (qopp q0) else q0))
+       else NTOut
+  else if (&&)
+            (only_chars (String ((Ascii (false, false, false, false, true,
+              true, false, false)), (String ((Ascii (true, false, false,
+              false, true, true, false, false)), (String ((Ascii (false,
+              true, false, false, true, true, false, false)), (String ((Ascii
+              (true, true, false, false, true, true, false, false)), (String
+              ((Ascii (false, false, true, false, true, true, false, false)),
+              (String ((Ascii (true, false, true, false, true, true, false,
+              false)), (String ((Ascii (false, true, true, false, true, true,
+              false, false)), (String ((Ascii (true, true, true, false, true,
+              true, false, false)), (String ((Ascii (false, false, false,
+              true, true, true, false, false)), (String ((Ascii (true, false,
+              false, true, true, true, false, false)), (String ((Ascii
+              (false, true, true, true, false, true, false, false)), (String
+              ((Ascii (true, false, true, false, false, true, true, false)),
+              (String ((Ascii (true, false, true, false, false, false, true,
+              false)), (String ((Ascii (true, true, false, true, false, true,
+              false, false)), (String ((Ascii (true, false, true, true,
+              false, true, false, false)),
+              EmptyString)))))))))))))))))))))))))))))) s)
+            ((||)
+              (has_char (Ascii (true, false, true, false, false, true, true,
+                false)) s)
+              (has_char (Ascii (true, false, true, false, false, false, true,
+                false)) s))
+       then NTOut
+       else NTText
+
+(** val q_eq_canon : q -> q -> bool **)
+
+let q_eq_canon x y =
+  (&&) (Z.eqb x.qnum y.qnum) (Coq_Pos.eqb x.qden y.qden)
+
+(** val val_sql_eq : val0 -> val0 -> bool **)
+
+let val_sql_eq a0 b =
+  match a0 with
+  | VInt z0 ->
+    (match b with
+     | VInt y -> Z.eqb z0 y
+     | VReal q0 -> q_eq_canon (inject_Z z0) q0
+     | _ -> false)
+  | VReal q0 ->
+    (match b with
+     | VInt z0 -> q_eq_canon (inject_Z z0) q0
+     | VReal y -> q_eq_canon q0 y
+     | _ -> false)
+  | VText s -> (match b with
+                | VText t -> eqb1 s t
+                | _ -> false)
+  | _ -> false
+
+(** val is_null : val0 -> bool **)
+
+let is_null = function
+| VNull -> true
+| _ -> false
+
+(** val out_of_model : 'a1 res **)
+
+let out_of_model =
+  Err (String ((Ascii (true, true, true, true, false, false, true, false)),
+    (String ((Ascii (true, false, true, false, true, true, true, false)),
+    (String ((Ascii (false, false, true, false, true, true, true, false)),
+    (String ((Ascii (true, true, true, true, false, false, true, false)),
+    (String ((Ascii (false, true, true, false, false, true, true, false)),
+    (String ((Ascii (true, false, true, true, false, false, true, false)),
+    (String ((Ascii (true, true, true, true, false, true, true, false)),
+    (String ((Ascii (false, false, true, false, false, true, true, false)),
+    (String ((Ascii (true, false, true, false, false, true, true, false)),
+    (String ((Ascii (false, false, true, true, false, true, true, false)),
+    EmptyString))))))))))))))))))))
+
+(** val real_val : q -> val0 **)
+
+let real_val q0 =
+  VReal (qred q0)
+
+(** val num_val_int_pref : q -> val0 res **)
+
+let num_val_int_pref q0 =
+  if q_is_int q0
+  then if int_in_range (q_to_int q0)
+       then Ok (VInt (q_to_int q0))
+       else out_of_model
+  else Ok (real_val q0)
+
+(** val cmp_operand : aff -> pv -> val0 res **)
+
+let cmp_operand a0 = function
+| PInt z0 ->
+  if int_in_range z0
+  then (match a0 with
+        | AText -> Ok (VText (str_of_Z z0))
+        | _ -> Ok (VInt z0))
+  else out_of_model
+| PFloat q0 -> (match a0 with
+                | AText -> out_of_model
+                | _ -> Ok (real_val q0))
+| PStr s ->
+  if aff_numeric a0
+  then (match sql_numeric_text s with
+        | NTNum q0 -> Ok (real_val q0)
+        | NTText -> Ok (VText s)
+        | NTOut -> out_of_model)
+  else Ok (VText s)
+| PNone -> Ok VNull
+
+(** val store_val : aff -> pv -> val0 res **)
+
+let store_val a0 = function
+| PInt z0 ->
+  if int_in_range z0
+  then (match a0 with
+        | AText -> Ok (VText (str_of_Z z0))
+        | AReal -> Ok (real_val (inject_Z z0))
+        | _ -> Ok (VInt z0))
+  else out_of_model
+| PFloat q0 ->
+  (match a0 with
+   | AInt -> num_val_int_pref q0
+   | AText -> out_of_model
+   | ANumeric -> num_val_int_pref q0
+   | _ -> Ok (real_val q0))
+| PStr s ->
+  (match a0 with
+   | AInt ->
+     (match sql_numeric_text s with
+      | NTNum q0 -> num_val_int_pref q0
+      | NTText -> Ok (VText s)
+      | NTOut -> out_of_model)
+   | AReal ->
+     (match sql_numeric_text s with
+      | NTNum q0 -> Ok (real_val q0)
+      | NTText -> Ok (VText s)
+      | NTOut -> out_of_model)
+   | ANumeric ->
+     (match sql_numeric_text s with
+      | NTNum q0 -> num_val_int_pref q0
+      | NTText -> Ok (VText s)
+      | NTOut -> out_of_model)
+   | _ -> Ok (VText s))
+| PNone -> Ok VNull
+
+(** val default_store : aff -> pv -> val0 res **)
+
+let default_store a0 v0 =
+  match a0 with
+  | ABlob ->
+    (match v0 with
+     | PInt _ -> store_val ANumeric v0
+     | PFloat _ -> store_val ANumeric v0
+     | _ -> store_val a0 v0)
+  | _ -> store_val a0 v0
+
+(** val in_true : val0 -> val0 list -> bool **)
+
+let in_true x vs =
+  existsb (val_sql_eq x) vs
+
+(** val not_in_true : val0 -> val0 list -> bool **)
+
+let not_in_true x vs = match vs with
+| [] -> true
+| _ :: _ ->
+  (&&) ((&&) (negb (is_null x)) (negb (existsb is_null vs)))
+    (negb (existsb (val_sql_eq x) vs))
+
+(** val cond_true : bool -> val0 -> val0 list -> bool **)
+
+let cond_true neg x vs =
+  if neg then not_in_true x vs else in_true x vs
+
+(** val is_alpha_ : ascii -> bool **)
+
+let is_alpha_ c =
+  let n0 = nat_of_ascii c in
+  (||)
+    ((||)
+      ((&&)
+        (Nat.leb (S (S (S (S (S (S (S (S (S (S (S (S (S (S (S (S (S (S (S (S
+          (S (S (S (S (S (S (S (S (S (S (S (S (S (S (S (S (S (S (S (S (S (S
+          (S (S (S (S (S (S (S (S (S (S (S (S (S (S (S (S (S (S (S (S (S (S
+          (S
+          O)))))))))))))))))))))))))))))))))))))))))))))))))))))))))))))))))
+          n0)
+        (Nat.leb n0 (S (S (S (S (S (S (S (S (S (S (S (S (S (S (S (S (S (S (S
+          (S (S (S (S (S (S (S (S (S (S (S (S (S (S (S (S (S (S (S (S (S (S
+          (S (S (S (S (S (S (S (S (S (S (S (S (S (S (S (S (S (S (S (S (S (S
+          (S (S (S (S (S (S (S (S (S (S (S (S (S (S (S (S (S (S (S (S (S (S
+          (S (S (S (S (S
+          O))))))))))))))))))))))))))))))))))))))))))))))))))))))))))))))))))))))))))))))))))))))))))))
+      ((&&)
+        (Nat.leb (S (S (S (S (S (S (S (S (S (S (S (S (S (S (S (S (S (S (S (S
+          (S (S (S (S (S (S (S (S (S (S (S (S (S (S (S (S (S (S (S (S (S (S
+          (S (S (S (S (S (S (S (S (S (S (S (S (S (S (S (S (S (S (S (S (S (S
+          (S (S (S (S (S (S (S (S (S (S (S (S (S (S (S (S (S (S (S (S (S (S
+          (S (S (S (S (S (S (S (S (S (S (S
+          O)))))))))))))))))))))))))))))))))))))))))))))))))))))))))))))))))))))))))))))))))))))))))))))))))
+          n0)
+        (Nat.leb n0 (S (S (S (S (S (S (S (S (S (S (S (S (S (S (S (S (S (S (S
+          (S (S (S (S (S (S (S (S (S (S (S (S (S (S (S (S (S (S (S (S (S (S
+          (S (S (S (S (S (S (S (S (S (S (S (S (S (S (S (S (S (S (S (S (S (S
+          (S (S (S (S (S (S (S (S (S (S (S (S (S (S (S (S (S (S (S (S (S (S
+          (S (S (S (S (S (S (S (S (S (S (S (S (S (S (S (S (S (S (S (S (S (S
+          (S (S (S (S (S (S (S (S (S (S (S (S (S (S (S
+          O)))))))))))))))))))))))))))))))))))))))))))))))))))))))))))))))))))))))))))))))))))))))))))))))))))))))))))))))))))))))))))))
+    (Nat.eqb n0 (S (S (S (S (S (S (S (S (S (S (S (S (S (S (S (S (S (S (S (S
+      (S (S (S (S (S (S (S (S (S (S (S (S (S (S (S (S (S (S (S (S (S (S (S (S
+      (S (S (S (S (S (S (S (S (S (S (S (S (S (S (S (S (S (S (S (S (S (S (S (S
+      (S (S (S (S (S (S (S (S (S (S (S (S (S (S (S (S (S (S (S (S (S (S (S (S
+      (S (S (S
+      O))))))))))))))))))))))))))))))))))))))))))))))))))))))))))))))))))))))))))))))))))))))))))))))))
+
+(** val all_ident_chars : string -> bool **)
+
+let rec all_ident_chars = function
+| EmptyString -> true
+| String (c, t) -> (&&) ((||) (is_alpha_ c) (is_digit c)) (all_ident_chars t)
+
+(** val ident_shape : string -> bool **)
+
+let ident_shape = function
+| EmptyString -> false
+| String (c, t) -> (&&) (is_alpha_ c) (all_ident_chars t)
+
+(** val sql_keywords : string list **)
+
+let sql_keywords =
+  (String ((Ascii (true, false, false, false, false, false, true, false)),
+    (String ((Ascii (false, true, false, false, false, false, true, false)),
+    (String ((Ascii (true, true, true, true, false, false, true, false)),
+    (String ((Ascii (false, true, false, false, true, false, true, false)),
+    (String ((Ascii (false, false, true, false, true, false, true, false)),
+    EmptyString)))))))))) :: ((String ((Ascii (true, false, false, false,
+    false, false, true, false)), (String ((Ascii (true, true, false, false,
+    false, false, true, false)), (String ((Ascii (false, false, true, false,
+    true, false, true, false)), (String ((Ascii (true, false, false, true,
+    false, false, true, false)), (String ((Ascii (true, true, true, true,
+    false, false, true, false)), (String ((Ascii (false, true, true, true,
+    false, false, true, false)), EmptyString)))))))))))) :: ((String ((Ascii
+    (true, false, false, false, false, false, true, false)), (String ((Ascii
+    (false, false, true, false, false, false, true, false)), (String ((Ascii
+    (false, false, true, false, false, false, true, false)),
+    EmptyString)))))) :: ((String ((Ascii (true, false, false, false, false,
+    false, true, false)), (String ((Ascii (false, true, true, false, false,
+    false, true, false)), (String ((Ascii (false, false, true, false, true,
+    false, true, false)), (String ((Ascii (true, false, true, false, false,
+    false, true, false)), (String ((Ascii (false, true, false, false, true,
+    false, true, false)), EmptyString)))))))))) :: ((String ((Ascii (true,
+    false, false, false, false, false, true, false)), (String ((Ascii (false,
+    false, true, true, false, false, true, false)), (String ((Ascii (false,
+    false, true, true, false, false, true, false)),
+    EmptyString)))))) :: ((String ((Ascii (true, false, false, false, false,
+    false, true, false)), (String ((Ascii (false, false, true, true, false,
+    false, true, false)), (String ((Ascii (false, false, true, false, true,
+    false, true, false)), (String ((Ascii (true, false, true, false, false,
+    false, true, false)), (String ((Ascii (false, true, false, false, true,
+    false, true, false)), EmptyString)))))))))) :: ((String ((Ascii (true,
+    false, false, false, false, false, true, false)), (String ((Ascii (false,
+    false, true, true, false, false, true, false)), (String ((Ascii (true,
+    true, true, false, true, false, true, false)), (String ((Ascii (true,
+    false, false, false, false, false, true, false)), (String ((Ascii (true,
+    false, false, true, true, false, true, false)), (String ((Ascii (true,
+    true, false, false, true, false, true, false)),
+    EmptyString)))))))))))) :: ((String ((Ascii (true, false, false, false,
+    false, false, true, false)), (String ((Ascii (false, true, true, true,
+    false, false, true, false)), (String ((Ascii (true, false, false, false,
+    false, false, true, false)), (String ((Ascii (false, false, true, true,
+    false, false, true, false)), (String ((Ascii (true, false, false, true,
+    true, false, true, false)), (String ((Ascii (false, true, false, true,
+    true, false, true, false)), (String ((Ascii (true, false, true, false,
+    false, false, true, false)), EmptyString)))))))))))))) :: ((String
+    ((Ascii (true, false, false, false, false, false, true, false)), (String
+    ((Ascii (false, true, true, true, false, false, true, false)), (String
+    ((Ascii (false, false, true, false, false, false, true, false)),
+    EmptyString)))))) :: ((String ((Ascii (true, false, false, false, false,
+    false, true, false)), (String ((Ascii (true, true, false, false, true,
+    false, true, false)), EmptyString)))) :: ((String ((Ascii (true, false,
+    false, false, false, false, true, false)), (String ((Ascii (true, true,
+    false, false, true, false, true, false)), (String ((Ascii (true, true,
+    false, false, false, false, true, false)), EmptyString)))))) :: ((String
+    ((Ascii (true, false, false, false, false, false, true, false)), (String
+    ((Ascii (false, false, true, false, true, false, true, false)), (String
+    ((Ascii (false, false, true, false, true, false, true, false)), (String
+    ((Ascii (true, false, false, false, false, false, true, false)), (String
+    ((Ascii (true, true, false, false, false, false, true, false)), (String
+    ((Ascii (false, false, false, true, false, false, true, false)),
+    EmptyString)))))))))))) :: ((String ((Ascii (true, false, false, false,
+    false, false, true, false)), (String ((Ascii (true, false, true, false,
+    true, false, true, false)), (String ((Ascii (false, false, true, false,
+    true, false, true, false)), (String ((Ascii (true, true, true, true,
+    false, false, true, false)), (String ((Ascii (true, false, false, true,
+    false, false, true, false)), (String ((Ascii (false, true, true, true,
+    false, false, true, false)), (String ((Ascii (true, true, false, false,
+    false, false, true, false)), (String ((Ascii (false, true, false, false,
+    true, false, true, false)), (String ((Ascii (true, false, true, false,
+    false, false, true, false)), (String ((Ascii (true, false, true, true,
+    false, false, true, false)), (String ((Ascii (true, false, true, false,
+    false, false, true, false)), (String ((Ascii (false, true, true, true,
+    false, false, true, false)), (String ((Ascii (false, false, true, false,
+    true, false, true, false)),
+    EmptyString)))))))))))))))))))))))))) :: ((String ((Ascii (false, true,
+    false, false, false, false, true, false)), (String ((Ascii (true, false,
+    true, false, false, false, true, false)), (String ((Ascii (false, true,
+    true, false, false, false, true, false)), (String ((Ascii (true, true,
+    true, true, false, false, true, false)), (String ((Ascii (false, true,
+    false, false, true, false, true, false)), (String ((Ascii (true, false,
+    true, false, false, false, true, false)),
+    EmptyString)))))))))))) :: ((String ((Ascii (false, true, false, false,
+    false, false, true, false)), (String ((Ascii (true, false, true, false,
+    false, false, true, false)), (String ((Ascii (true, true, true, false,
+    false, false, true, false)), (String ((Ascii (true, false, false, true,
+    false, false, true, false)), (String ((Ascii (false, true, true, true,
+    false, false, true, false)), EmptyString)))))))))) :: ((String ((Ascii
+    (false, true, false, false, false, false, true, false)), (String ((Ascii
+    (true, false, true, false, false, false, true, false)), (String ((Ascii
+    (false, false, true, false, true, false, true, false)), (String ((Ascii
+    (true, true, true, false, true, false, true, false)), (String ((Ascii
+    (true, false, true, false, false, false, true, false)), (String ((Ascii
+    (true, false, true, false, false, false, true, false)), (String ((Ascii
+    (false, true, true, true, false, false, true, false)),
+    EmptyString)))))))))))))) :: ((String ((Ascii (false, true, false, false,
+    false, false, true, false)), (String ((Ascii (true, false, false, true,
+    true, false, true, false)), EmptyString)))) :: ((String ((Ascii (true,
+    true, false, false, false, false, true, false)), (String ((Ascii (true,
+    false, false, false, false, false, true, false)), (String ((Ascii (true,
+    true, false, false, true, false, true, false)), (String ((Ascii (true,
+    true, false, false, false, false, true, false)), (String ((Ascii (true,
+    false, false, false, false, false, true, false)), (String ((Ascii (false,
+    false, true, false, false, false, true, false)), (String ((Ascii (true,
+    false, true, false, false, false, true, false)),
+    EmptyString)))))))))))))) :: ((String ((Ascii (true, true, false, false,
+    false, false, true, false)), (String ((Ascii (true, false, false, false,
+    false, false, true, false)), (String ((Ascii (true, true, false, false,
+    true, false, true, false)), (String ((Ascii (true, false, true, false,
+    false, false, true, false)), EmptyString)))))))) :: ((String ((Ascii
+    (true, true, false, false, false, false, true, false)), (String ((Ascii
+    (true, false, false, false, false, false, true, false)), (String ((Ascii
+    (true, true, false, false, true, false, true, false)), (String ((Ascii
+    (false, false, true, false, true, false, true, false)),
+    EmptyString)))))))) :: ((String ((Ascii (true, true, false, false, false,
+    false, true, false)), (String ((Ascii (false, false, false, true, false,
+    false, true, false)), (String ((Ascii (true, false, true, false, false,
+    false, true, false)), (String ((Ascii (true, true, false, false, false,
+    false, true, false)), (String ((Ascii (true, true, false, true, false,
+    false, true, false)), EmptyString)))))))))) :: ((String ((Ascii (true,
+    true, false, false, false, false, true, false)), (String ((Ascii (true,
+    true, true, true, false, false, true, false)), (String ((Ascii (false,
+    false, true, true, false, false, true, false)), (String ((Ascii (false,
+    false, true, true, false, false, true, false)), (String ((Ascii (true,
+    false, false, false, false, false, true, false)), (String ((Ascii (false,
+    false, true, false, true, false, true, false)), (String ((Ascii (true,
+    false, true, false, false, false, true, false)),
+    EmptyString)))))))))))))) :: ((String ((Ascii (true, true, false, false,
+    false, false, true, false)), (String ((Ascii (true, true, true, true,
+    false, false, true, false)), (String ((Ascii (false, false, true, true,
+    false, false, true, false)), (String ((Ascii (true, false, true, false,
+    true, false, true, false)), (String ((Ascii (true, false, true, true,
+    false, false, true, false)), (String ((Ascii (false, true, true, true,
+    false, false, true, false)), EmptyString)))))))))))) :: ((String ((Ascii
+    (true, true, false, false, false, false, true, false)), (String ((Ascii
+    (true, true, true, true, false, false, true, false)), (String ((Ascii
+    (true, false, true, true, false, false, true, false)), (String ((Ascii
+    (true, false, true, true, false, false, true, false)), (String ((Ascii
+    (true, false, false, true, false, false, true, false)), (String ((Ascii
+    (false, false, true, false, true, false, true, false)),
+    EmptyString)))))))))))) :: ((String ((Ascii (true, true, false, false,
+    false, false, true, false)), (String ((Ascii (true, true, true, true,
+    false, false, true, false)), (String ((Ascii (false, true, true, true,
+    false, false, true, false)), (String ((Ascii (false, true, true, false,
+    false, false, true, false)), (String ((Ascii (false, false, true, true,
+    false, false, true, false)), (String ((Ascii (true, false, false, true,
+    false, false, true, false)), (String ((Ascii (true, true, false, false,
+    false, false, true, false)), (String ((Ascii (false, false, true, false,
+    true, false, true, false)), EmptyString)))))))))))))))) :: ((String
+    ((Ascii (true, true, false, false, false, false, true, false)), (String
+    ((Ascii (true, true, true, true, false, false, true, false)), (String
+    ((Ascii (false, true, true, true, false, false, true, false)), (String
+    ((Ascii (true, true, false, false, true, false, true, false)), (String
+    ((Ascii (false, false, true, false, true, false, true, false)), (String
+    ((Ascii (false, true, false, false, true, false, true, false)), (String
+    ((Ascii (true, false, false, false, false, false, true, false)), (String
+    ((Ascii (true, false, false, true, false, false, true, false)), (String
+    ((Ascii (false, true, true, true, false, false, true, false)), (String
+    ((Ascii (false, false, true, false, true, false, true, false)),
+    EmptyString)))))))))))))))))))) :: ((String ((Ascii (true, true, false,
+    false, false, false, true, false)), (String ((Ascii (false, true, false,
+    false, true, false, true, false)), (String ((Ascii (true, false, true,
+    false, false, false, true, false)), (String ((Ascii (true, false, false,
+    false, false, false, true, false)), (String ((Ascii (false, false, true,
+    false, true, false, true, false)), (String ((Ascii (true, false, true,
+    false, false, false, true, false)), EmptyString)))))))))))) :: ((String
+    ((Ascii (true, true, false, false, false, false, true, false)), (String
+    ((Ascii (false, true, false, false, true, false, true, false)), (String
+    ((Ascii (true, true, true, true, false, false, true, false)), (String
+    ((Ascii (true, true, false, false, true, false, true, false)), (String
+    ((Ascii (true, true, false, false, true, false, true, false)),
+    EmptyString)))))))))) :: ((String ((Ascii (true, true, false, false,
+    false, false, true, false)), (String ((Ascii (true, false, true, false,
+    true, false, true, false)), (String ((Ascii (false, true, false, false,
+    true, false, true, false)), (String ((Ascii (false, true, false, false,
+    true, false, true, false)), (String ((Ascii (true, false, true, false,
+    false, false, true, false)), (String ((Ascii (false, true, true, true,
+    false, false, true, false)), (String ((Ascii (false, false, true, false,
+    true, false, true, false)), EmptyString)))))))))))))) :: ((String ((Ascii
+    (true, true, false, false, false, false, true, false)), (String ((Ascii
+    (true, false, true, false, true, false, true, false)), (String ((Ascii
+    (false, true, false, false, true, false, true, false)), (String ((Ascii
+    (false, true, false, false, true, false, true, false)), (String ((Ascii
+    (true, false, true, false, false, false, true, false)), (String ((Ascii
+    (false, true, true, true, false, false, true, false)), (String ((Ascii
+    (false, false, true, false, true, false, true, false)), (String ((Ascii
+    (true, true, true, true, true, false, true, false)), (String ((Ascii
+    (false, false, true, false, false, false, true, false)), (String ((Ascii
+    (true, false, false, false, false, false, true, false)), (String ((Ascii
+    (false, false, true, false, true, false, true, false)), (String ((Ascii
+    (true, false, true, false, false, false, true, false)),
+    EmptyString)))))))))))))))))))))))) :: ((String ((Ascii (true, true,
+    false, false, false, false, true, false)), (String ((Ascii (true, false,
+    true, false, true, false, true, false)), (String ((Ascii (false, true,
+    false, false, true, false, true, false)), (String ((Ascii (false, true,
+    false, false, true, false, true, false)), (String ((Ascii (true, false,
+    true, false, false, false, true, false)), (String ((Ascii (false, true,
+    true, true, false, false, true, false)), (String ((Ascii (false, false,
+    true, false, true, false, true, false)), (String ((Ascii (true, true,
+    true, true, true, false, true, false)), (String ((Ascii (false, false,
+    true, false, true, false, true, false)), (String ((Ascii (true, false,
+    false, true, false, false, true, false)), (String ((Ascii (true, false,
+    true, true, false, false, true, false)), (String ((Ascii (true, false,
+    true, false, false, false, true, false)),
+    EmptyString)))))))))))))))))))))))) :: ((String ((Ascii (true, true,
+    false, false, false, false, true, false)), (String ((Ascii (true, false,
+    true, false, true, false, true, false)), (String ((Ascii (false, true,
+    false, false, true, false, true, false)), (String ((Ascii (false, true,
+    false, false, true, false, true, false)), (String ((Ascii (true, false,
+    true, false, false, false, true, false)), (String ((Ascii (false, true,
+    true, true, false, false, true, false)), (String ((Ascii (false, false,
+    true, false, true, false, true, false)), (String ((Ascii (true, true,
+    true, true, true, false, true, false)), (String ((Ascii (false, false,
+    true, false, true, false, true, false)), (String ((Ascii (true, false,
+    false, true, false, false, true, false)), (String ((Ascii (true, false,
+    true, true, false, false, true, false)), (String ((Ascii (true, false,
+    true, false, false, false, true, false)), (String ((Ascii (true, true,
+    false, false, true, false, true, false)), (String ((Ascii (false, false,
+    true, false, true, false, true, false)), (String ((Ascii (true, false,
+    false, false, false, false, true, false)), (String ((Ascii (true, false,
+    true, true, false, false, true, false)), (String ((Ascii (false, false,
+    false, false, true, false, true, false)),
+    EmptyString)))))))))))))))))))))))))))))))))) :: ((String ((Ascii (false,
+    false, true, false, false, false, true, false)), (String ((Ascii (true,
+    false, false, false, false, false, true, false)), (String ((Ascii (false,
+    false, true, false, true, false, true, false)), (String ((Ascii (true,
+    false, false, false, false, false, true, false)), (String ((Ascii (false,
+    true, false, false, false, false, true, false)), (String ((Ascii (true,
+    false, false, false, false, false, true, false)), (String ((Ascii (true,
+    true, false, false, true, false, true, false)), (String ((Ascii (true,
+    false, true, false, false, false, true, false)),
+    EmptyString)))))))))))))))) :: ((String ((Ascii (false, false, true,
+    false, false, false, true, false)), (String ((Ascii (true, false, true,
+    false, false, false, true, false)), (String ((Ascii (false, true, true,
+    false, false, false, true, false)), (String ((Ascii (true, false, false,
+    false, false, false, true, false)), (String ((Ascii (true, false, true,
+    false, true, false, true, false)), (String ((Ascii (false, false, true,
+    true, false, false, true, false)), (String ((Ascii (false, false, true,
+    false, true, false, true, false)), EmptyString)))))))))))))) :: ((String
+    ((Ascii (false, false, true, false, false, false, true, false)), (String
+    ((Ascii (true, false, true, false, false, false, true, false)), (String
+    ((Ascii (false, true, true, false, false, false, true, false)), (String
+    ((Ascii (true, false, true, false, false, false, true, false)), (String
+    ((Ascii (false, true, false, false, true, false, true, false)), (String
+    ((Ascii (false, true, false, false, true, false, true, false)), (String
+    ((Ascii (true, false, false, false, false, false, true, false)), (String
+    ((Ascii (false, true, false, false, false, false, true, false)), (String
+    ((Ascii (false, false, true, true, false, false, true, false)), (String
+    ((Ascii (true, false, true, false, false, false, true, false)),
+    EmptyString)))))))))))))))))))) :: ((String ((Ascii (false, false, true,
+    false, false, false, true, false)), (String ((Ascii (true, false, true,
+    false, false, false, true, false)), (String ((Ascii (false, true, true,
+    false, false, false, true, false)), (String ((Ascii (true, false, true,
+    false, false, false, true, false)), (String ((Ascii (false, true, false,
+    false, true, false, true, false)), (String ((Ascii (false, true, false,
+    false, true, false, true, false)), (String ((Ascii (true, false, true,
+    false, false, false, true, false)), (String ((Ascii (false, false, true,
+    false, false, false, true, false)),
+    EmptyString)))))))))))))))) :: ((String ((Ascii (false, false, true,
+    false, false, false, true, false)), (String ((Ascii (true, false, true,
+    false, false, false, true, false)), (String ((Ascii (false, false, true,
+    true, false, false, true, false)), (String ((Ascii (true, false, true,
+    false, false, false, true, false)), (String ((Ascii (false, false, true,
+    false, true, false, true, false)), (String ((Ascii (true, false, true,
+    false, false, false, true, false)), EmptyString)))))))))))) :: ((String
+    ((Ascii (false, false, true, false, false, false, true, false)), (String
+    ((Ascii (true, false, true, false, false, false, true, false)), (String
+    ((Ascii (true, true, false, false, true, false, true, false)), (String
+    ((Ascii (true, true, false, false, false, false, true, false)),
+    EmptyString)))))))) :: ((String ((Ascii (false, false, true, false,
+    false, false, true, false)), (String ((Ascii (true, false, true, false,
+    false, false, true, false)), (String ((Ascii (false, false, true, false,
+    true, false, true, false)), (String ((Ascii (true, false, false, false,
+    false, false, true, false)), (String ((Ascii (true, true, false, false,
+    false, false, true, false)), (String ((Ascii (false, false, false, true,
+    false, false, true, false)), EmptyString)))))))))))) :: ((String ((Ascii
+    (false, false, true, false, false, false, true, false)), (String ((Ascii
+    (true, false, false, true, false, false, true, false)), (String ((Ascii
+    (true, true, false, false, true, false, true, false)), (String ((Ascii
+    (false, false, true, false, true, false, true, false)), (String ((Ascii
+    (true, false, false, true, false, false, true, false)), (String ((Ascii
+    (false, true, true, true, false, false, true, false)), (String ((Ascii
+    (true, true, false, false, false, false, true, false)), (String ((Ascii
+    (false, false, true, false, true, false, true, false)),
+    EmptyString)))))))))))))))) :: ((String ((Ascii (false, false, true,
+    false, false, false, true, false)), (String ((Ascii (true, true, true,
+    true, false, false, true, false)), EmptyString)))) :: ((String ((Ascii
+    (false, false, true, false, false, false, true, false)), (String ((Ascii
+    (false, true, false, false, true, false, true, false)), (String ((Ascii
+    (true, true, true, true, false, false, true, false)), (String ((Ascii
+    (false, false, false, false, true, false, true, false)),
+    EmptyString)))))))) :: ((String ((Ascii (true, false, true, false, false,
+    false, true, false)), (String ((Ascii (true, false, false, false, false,
+    false, true, false)), (String ((Ascii (true, true, false, false, false,
+    false, true, false)), (String ((Ascii (false, false, false, true, false,
+    false, true, false)), EmptyString)))))))) :: ((String ((Ascii (true,
+    false, true, false, false, false, true, false)), (String ((Ascii (false,
+    false, true, true, false, false, true, false)), (String ((Ascii (true,
+    true, false, false, true, false, true, false)), (String ((Ascii (true,
+    false, true, false, false, false, true, false)),
+    EmptyString)))))))) :: ((String ((Ascii (true, false, true, false, false,
+    false, true, false)), (String ((Ascii (false, true, true, true, false,
+    false, true, false)), (String ((Ascii (false, false, true, false, false,
+    false, true, false)), EmptyString)))))) :: ((String ((Ascii (true, false,
+    true, false, false, false, true, false)), (String ((Ascii (true, true,
+    false, false, true, false, true, false)), (String ((Ascii (true, true,
+    false, false, false, false, true, false)), (String ((Ascii (true, false,
+    false, false, false, false, true, false)), (String ((Ascii (false, false,
+    false, false, true, false, true, false)), (String ((Ascii (true, false,
+    true, false, false, false, true, false)),
+    EmptyString)))))))))))) :: ((String ((Ascii (true, false, true, false,
+    false, false, true, false)), (String ((Ascii (false, false, false, true,
+    true, false, true, false)), (String ((Ascii (true, true, false, false,
+    false, false, true, false)), (String ((Ascii (true, false, true, false,
+    false, false, true, false)), (String ((Ascii (false, false, false, false,
+    true, false, true, false)), (String ((Ascii (false, false, true, false,
+    true, false, true, false)), EmptyString)))))))))))) :: ((String ((Ascii
+    (true, false, true, false, false, false, true, false)), (String ((Ascii
+    (false, false, false, true, true, false, true, false)), (String ((Ascii
+    (true, true, false, false, false, false, true, false)), (String ((Ascii
+    (false, false, true, true, false, false, true, false)), (String ((Ascii
+    (true, false, true, false, true, false, true, false)), (String ((Ascii
+    (false, false, true, false, false, false, true, false)), (String ((Ascii
+    (true, false, true, false, false, false, true, false)),
+    EmptyString)))))))))))))) :: ((String ((Ascii (true, false, true, false,
+    false, false, true, false)), (String ((Ascii (false, false, false, true,
+    true, false, true, false)), (String ((Ascii (true, true, false, false,
+    false, false, true, false)), (String ((Ascii (false, false, true, true,
+    false, false, true, false)), (String ((Ascii (true, false, true, false,
+    true, false, true, false)), (String ((Ascii (true, true, false, false,
+    true, false, true, false)), (String ((Ascii (true, false, false, true,
+    false, false, true, false)), (String ((Ascii (false, true, true, false,
+    true, false, true, false)), (String ((Ascii (true, false, true, false,
+    false, false, true, false)), EmptyString)))))))))))))))))) :: ((String
+    ((Ascii (true, false, true, false, false, false, true, false)), (String
+    ((Ascii (false, false, false, true, true, false, true, false)), (String
+    ((Ascii (true, false, false, true, false, false, true, false)), (String
+    ((Ascii (true, true, false, false, true, false, true, false)), (String
+    ((Ascii (false, false, true, false, true, false, true, false)), (String
+    ((Ascii (true, true, false, false, true, false, true, false)),
+    EmptyString)))))))))))) :: ((String ((Ascii (true, false, true, false,
+    false, false, true, false)), (String ((Ascii (false, false, false, true,
+    true, false, true, false)), (String ((Ascii (false, false, false, false,
+    true, false, true, false)), (String ((Ascii (false, false, true, true,
+    false, false, true, false)), (String ((Ascii (true, false, false, false,
+    false, false, true, false)), (String ((Ascii (true, false, false, true,
+    false, false, true, false)), (String ((Ascii (false, true, true, true,
+    false, false, true, false)), EmptyString)))))))))))))) :: ((String
+    ((Ascii (false, true, true, false, false, false, true, false)), (String
+    ((Ascii (true, false, false, false, false, false, true, false)), (String
+    ((Ascii (true, false, false, true, false, false, true, false)), (String
+    ((Ascii (false, false, true, true, false, false, true, false)),
+    EmptyString)))))))) :: ((String ((Ascii (false, true, true, false, false,
+    false, true, false)), (String ((Ascii (true, false, false, false, false,
+    false, true, false)), (String ((Ascii (false, false, true, true, false,
+    false, true, false)), (String ((Ascii (true, true, false, false, true,
+    false, true, false)), (String ((Ascii (true, false, true, false, false,
+    false, true, false)), EmptyString)))))))))) :: ((String ((Ascii (false,
+    true, true, false, false, false, true, false)), (String ((Ascii (true,
+    false, false, true, false, false, true, false)), (String ((Ascii (false,
+    false, true, true, false, false, true, false)), (String ((Ascii (false,
+    false, true, false, true, false, true, false)), (String ((Ascii (true,
+    false, true, false, false, false, true, false)), (String ((Ascii (false,
+    true, false, false, true, false, true, false)),
+    EmptyString)))))))))))) :: ((String ((Ascii (false, true, true, false,
+    false, false, true, false)), (String ((Ascii (true, false, false, true,
+    false, false, true, false)), (String ((Ascii (false, true, false, false,
+    true, false, true, false)), (String ((Ascii (true, true, false, false,
+    true, false, true, false)), (String ((Ascii (false, false, true, false,
+    true, false, true, false)), EmptyString)))))))))) :: ((String ((Ascii
+    (false, true, true, false, false, false, true, false)), (String ((Ascii
+    (true, true, true, true, false, false, true, false)), (String ((Ascii
+    (false, false, true, true, false, false, true, false)), (String ((Ascii
+    (false, false, true, true, false, false, true, false)), (String ((Ascii
+    (true, true, true, true, false, false, true, false)), (String ((Ascii
+    (true, true, true, false, true, false, true, false)), (String ((Ascii
+    (true, false, false, true, false, false, true, false)), (String ((Ascii
+    (false, true, true, true, false, false, true, false)), (String ((Ascii
+    (true, true, true, false, false, false, true, false)),
+    EmptyString)))))))))))))))))) :: ((String ((Ascii (false, true, true,
+    false, false, false, true, false)), (String ((Ascii (true, true, true,
+    true, false, false, true, false)), (String ((Ascii (false, true, false,
+    false, true, false, true, false)), EmptyString)))))) :: ((String ((Ascii
+    (false, true, true, false, false, false, true, false)), (String ((Ascii
+    (true, true, true, true, false, false, true, false)), (String ((Ascii
+    (false, true, false, false, true, false, true, false)), (String ((Ascii
+    (true, false, true, false, false, false, true, false)), (String ((Ascii
+    (true, false, false, true, false, false, true, false)), (String ((Ascii
+    (true, true, true, false, false, false, true, false)), (String ((Ascii
+    (false, true, true, true, false, false, true, false)),
+    EmptyString)))))))))))))) :: ((String ((Ascii (false, true, true, false,
+    false, false, true, false)), (String ((Ascii (false, true, false, false,
+    true, false, true, false)), (String ((Ascii (true, true, true, true,
+    false, false, true, false)), (String ((Ascii (true, false, true, true,
+    false, false, true, false)), EmptyString)))))))) :: ((String ((Ascii
+    (false, true, true, false, false, false, true, false)), (String ((Ascii
+    (true, false, true, false, true, false, true, false)), (String ((Ascii
+    (false, false, true, true, false, false, true, false)), (String ((Ascii
+    (false, false, true, true, false, false, true, false)),
+    EmptyString)))))))) :: ((String ((Ascii (true, true, true, false, false,
+    false, true, false)), (String ((Ascii (true, false, true, false, false,
+    false, true, false)), (String ((Ascii (false, true, true, true, false,
+    false, true, false)), (String ((Ascii (true, false, true, false, false,
+    false, true, false)), (String ((Ascii (false, true, false, false, true,
+    false, true, false)), (String ((Ascii (true, false, false, false, false,
+    false, true, false)), (String ((Ascii (false, false, true, false, true,
+    false, true, false)), (String ((Ascii (true, false, true, false, false,
+    false, true, false)), (String ((Ascii (false, false, true, false, false,
+    false, true, false)), EmptyString)))))))))))))))))) :: ((String ((Ascii
+    (true, true, true, false, false, false, true, false)), (String ((Ascii
+    (false, false, true, true, false, false, true, false)), (String ((Ascii
+    (true, true, true, true, false, false, true, false)), (String ((Ascii
+    (false, true, false, false, false, false, true, false)),
+    EmptyString)))))))) :: ((String ((Ascii (true, true, true, false, false,
+    false, true, false)), (String ((Ascii (false, true, false, false, true,
+    false, true, false)), (String ((Ascii (true, true, true, true, false,
+    false, true, false)), (String ((Ascii (true, false, true, false, true,
+    false, true, false)), (String ((Ascii (false, false, false, false, true,
+    false, true, false)), EmptyString)))))))))) :: ((String ((Ascii (true,
+    true, true, false, false, false, true, false)), (String ((Ascii (false,
+    true, false, false, true, false, true, false)), (String ((Ascii (true,
+    true, true, true, false, false, true, false)), (String ((Ascii (true,
+    false, true, false, true, false, true, false)), (String ((Ascii (false,
+    false, false, false, true, false, true, false)), (String ((Ascii (true,
+    true, false, false, true, false, true, false)),
+    EmptyString)))))))))))) :: ((String ((Ascii (false, false, false, true,
+    false, false, true, false)), (String ((Ascii (true, false, false, false,
+    false, false, true, false)), (String ((Ascii (false, true, true, false,
+    true, false, true, false)), (String ((Ascii (true, false, false, true,
+    false, false, true, false)), (String ((Ascii (false, true, true, true,
+    false, false, true, false)), (String ((Ascii (true, true, true, false,
+    false, false, true, false)), EmptyString)))))))))))) :: ((String ((Ascii
+    (true, false, false, true, false, false, true, false)), (String ((Ascii
+    (false, true, true, false, false, false, true, false)),
+    EmptyString)))) :: ((String ((Ascii (true, false, false, true, false,
+    false, true, false)), (String ((Ascii (true, true, true, false, false,
+    false, true, false)), (String ((Ascii (false, true, true, true, false,
+    false, true, false)), (String ((Ascii (true, true, true, true, false,
+    false, true, false)), (String ((Ascii (false, true, false, false, true,
+    false, true, false)), (String ((Ascii (true, false, true, false, false,
+    false, true, false)), EmptyString)))))))))))) :: ((String ((Ascii (true,
+    false, false, true, false, false, true, false)), (String ((Ascii (true,
+    false, true, true, false, false, true, false)), (String ((Ascii (true,
+    false, true, true, false, false, true, false)), (String ((Ascii (true,
+    false, true, false, false, false, true, false)), (String ((Ascii (false,
+    false, true, false, false, false, true, false)), (String ((Ascii (true,
+    false, false, true, false, false, true, false)), (String ((Ascii (true,
+    false, false, false, false, false, true, false)), (String ((Ascii (false,
+    false, true, false, true, false, true, false)), (String ((Ascii (true,
+    false, true, false, false, false, true, false)),
+    EmptyString)))))))))))))))))) :: ((String ((Ascii (true, false, false,
+    true, false, false, true, false)), (String ((Ascii (false, true, true,
+    true, false, false, true, false)), EmptyString)))) :: ((String ((Ascii
+    (true, false, false, true, false, false, true, false)), (String ((Ascii
+    (false, true, true, true, false, false, true, false)), (String ((Ascii
+    (false, false, true, false, false, false, true, false)), (String ((Ascii
+    (true, false, true, false, false, false, true, false)), (String ((Ascii
+    (false, false, false, true, true, false, true, false)),
+    EmptyString)))))))))) :: ((String ((Ascii (true, false, false, true,
+    false, false, true, false)), (String ((Ascii (false, true, true, true,
+    false, false, true, false)), (String ((Ascii (false, false, true, false,
+    false, false, true, false)), (String ((Ascii (true, false, true, false,
+    false, false, true, false)), (String ((Ascii (false, false, false, true,
+    true, false, true, false)), (String ((Ascii (true, false, true, false,
+    false, false, true, false)), (String ((Ascii (false, false, true, false,
+    false, false, true, false)), EmptyString)))))))))))))) :: ((String
+    ((Ascii (true, false, false, true, false, false, true, false)), (String
+    ((Ascii (false, true, true, true, false, false, true, false)), (String
+    ((Ascii (true, false, false, true, false, false, true, false)), (String
+    ((Ascii (false, false, true, false, true, false, true, false)), (String
+    ((Ascii (true, false, false, true, false, false, true, false)), (String
+    ((Ascii (true, false, false, false, false, false, true, false)), (String
+    ((Ascii (false, false, true, true, false, false, true, false)), (String
+    ((Ascii (false, false, true, true, false, false, true, false)), (String
+    ((Ascii (true, false, false, true, true, false, true, false)),
+    EmptyString)))))))))))))))))) :: ((String ((Ascii (true, false, false,
+    true, false, false, true, false)), (String ((Ascii (false, true, true,
+    true, false, false, true, false)), (String ((Ascii (false, true, true,
+    true, false, false, true, false)), (String ((Ascii (true, false, true,
+    false, false, false, true, false)), (String ((Ascii (false, true, false,
+    false, true, false, true, false)), EmptyString)))))))))) :: ((String
+    ((Ascii (true, false, false, true, false, false, true, false)), (String
+    ((Ascii (false, true, true, true, false, false, true, false)), (String
+    ((Ascii (true, true, false, false, true, false, true, false)), (String
+    ((Ascii (true, false, true, false, false, false, true, false)), (String
+    ((Ascii (false, true, false, false, true, false, true, false)), (String
+    ((Ascii (false, false, true, false, true, false, true, false)),
+    EmptyString)))))))))))) :: ((String ((Ascii (true, false, false, true,
+    false, false, true, false)), (String ((Ascii (false, true, true, true,
+    false, false, true, false)), (String ((Ascii (true, true, false, false,
+    true, false, true, false)), (String ((Ascii (false, false, true, false,
+    true, false, true, false)), (String ((Ascii (true, false, true, false,
+    false, false, true, false)), (String ((Ascii (true, false, false, false,
+    false, false, true, false)), (String ((Ascii (false, false, true, false,
+    false, false, true, false)), EmptyString)))))))))))))) :: ((String
+    ((Ascii (true, false, false, true, false, false, true, false)), (String
+    ((Ascii (false, true, true, true, false, false, true, false)), (String
+    ((Ascii (false, false, true, false, true, false, true, false)), (String
+    ((Ascii (true, false, true, false, false, false, true, false)), (String
+    ((Ascii (false, true, false, false, true, false, true, false)), (String
+    ((Ascii (true, true, false, false, true, false, true, false)), (String
+    ((Ascii (true, false, true, false, false, false, true, false)), (String
+    ((Ascii (true, true, false, false, false, false, true, false)), (String
+    ((Ascii (false, false, true, false, true, false, true, false)),
+    EmptyString)))))))))))))))))) :: ((String ((Ascii (true, false, false,
+    true, false, false, true, false)), (String ((Ascii (false, true, true,
+    true, false, false, true, false)), (String ((Ascii (false, false, true,
+    false, true, false, true, false)), (String ((Ascii (true, true, true,
+    true, false, false, true, false)), EmptyString)))))))) :: ((String
+    ((Ascii (true, false, false, true, false, false, true, false)), (String
+    ((Ascii (true, true, false, false, true, false, true, false)),
+    EmptyString)))) :: ((String ((Ascii (true, false, false, true, false,
+    false, true, false)), (String ((Ascii (true, true, false, false, true,
+    false, true, false)), (String ((Ascii (false, true, true, true, false,
+    false, true, false)), (String ((Ascii (true, false, true, false, true,
+    false, true, false)), (String ((Ascii (false, false, true, true, false,
+    false, true, false)), (String ((Ascii (false, false, true, true, false,
+    false, true, false)), EmptyString)))))))))))) :: ((String ((Ascii (false,
+    true, false, true, false, false, true, false)), (String ((Ascii (true,
+    true, true, true, false, false, true, false)), (String ((Ascii (true,
+    false, false, true, false, false, true, false)), (String ((Ascii (false,
+    true, true, true, false, false, true, false)),
+    EmptyString)))))))) :: ((String ((Ascii (true, true, false, true, false,
+    false, true, false)), (String ((Ascii (true, false, true, false, false,
+    false, true, false)), (String ((Ascii (true, false, false, true, true,
+    false, true, false)), EmptyString)))))) :: ((String ((Ascii (false,
+    false, true, true, false, false, true, false)), (String ((Ascii (true,
+    false, false, false, false, false, true, false)), (String ((Ascii (true,
+    true, false, false, true, false, true, false)), (String ((Ascii (false,
+    false, true, false, true, false, true, false)),
+    EmptyString)))))))) :: ((String ((Ascii (false, false, true, true, false,
+    false, true, false)), (String ((Ascii (true, false, true, false, false,
+    false, true, false)), (String ((Ascii (false, true, true, false, false,
+    false, true, false)), (String ((Ascii (false, false, true, false, true,
+    false, true, false)), EmptyString)))))))) :: ((String ((Ascii (false,
+    false, true, true, false, false, true, false)), (String ((Ascii (true,
+    false, false, true, false, false, true, false)), (String ((Ascii (true,
+    true, false, true, false, false, true, false)), (String ((Ascii (true,
+    false, true, false, false, false, true, false)),
+    EmptyString)))))))) :: ((String ((Ascii (false, false, true, true, false,
+    false, true, false)), (String ((Ascii (true, false, false, true, false,
+    false, true, false)), (String ((Ascii (true, false, true, true, false,
+    false, true, false)), (String ((Ascii (true, false, false, true, false,
+    false, true, false)), (String ((Ascii (false, false, true, false, true,
+    false, true, false)), EmptyString)))))))))) :: ((String ((Ascii (true,
+    false, true, true, false, false, true, false)), (String ((Ascii (true,
+    false, false, false, false, false, true, false)), (String ((Ascii (false,
+    false, true, false, true, false, true, false)), (String ((Ascii (true,
+    true, false, false, false, false, true, false)), (String ((Ascii (false,
+    false, false, true, false, false, true, false)),
+    EmptyString)))))))))) :: ((String ((Ascii (true, false, true, true,
+    false, false, true, false)), (String ((Ascii (true, false, false, false,
+    false, false, true, false)), (String ((Ascii (false, false, true, false,
+    true, false, true, false)), (String ((Ascii (true, false, true, false,
+    false, false, true, false)), (String ((Ascii (false, true, false, false,
+    true, false, true, false)), (String ((Ascii (true, false, false, true,
+    false, false, true, false)), (String ((Ascii (true, false, false, false,
+    false, false, true, false)), (String ((Ascii (false, false, true, true,
+    false, false, true, false)), (String ((Ascii (true, false, false, true,
+    false, false, true, false)), (String ((Ascii (false, true, false, true,
+    true, false, true, false)), (String ((Ascii (true, false, true, false,
+    false, false, true, false)), (String ((Ascii (false, false, true, false,
+    false, false, true, false)),
+    EmptyString)))))))))))))))))))))))) :: ((String ((Ascii (false, true,
+    true, true, false, false, true, false)), (String ((Ascii (true, false,
+    false, false, false, false, true, false)), (String ((Ascii (false, false,
+    true, false, true, false, true, false)), (String ((Ascii (true, false,
+    true, false, true, false, true, false)), (String ((Ascii (false, true,
+    false, false, true, false, true, false)), (String ((Ascii (true, false,
+    false, false, false, false, true, false)), (String ((Ascii (false, false,
+    true, true, false, false, true, false)),
+    EmptyString)))))))))))))) :: ((String ((Ascii (false, true, true, true,
+    false, false, true, false)), (String ((Ascii (true, true, true, true,
+    false, false, true, false)), EmptyString)))) :: ((String ((Ascii (false,
+    true, true, true, false, false, true, false)), (String ((Ascii (true,
+    true, true, true, false, false, true, false)), (String ((Ascii (false,
+    false, true, false, true, false, true, false)),
+    EmptyString)))))) :: ((String ((Ascii (false, true, true, true, false,
+    false, true, false)), (String ((Ascii (true, true, true, true, false,
+    false, true, false)), (String ((Ascii (false, false, true, false, true,
+    false, true, false)), (String ((Ascii (false, false, false, true, false,
+    false, true, false)), (String ((Ascii (true, false, false, true, false,
+    false, true, false)), (String ((Ascii (false, true, true, true, false,
+    false, true, false)), (String ((Ascii (true, true, true, false, false,
+    false, true, false)), EmptyString)))))))))))))) :: ((String ((Ascii
+    (false, true, true, true, false, false, true, false)), (String ((Ascii
+    (true, true, true, true, false, false, true, false)), (String ((Ascii
+    (false, false, true, false, true, false, true, false)), (String ((Ascii
+    (false, true, true, true, false, false, true, false)), (String ((Ascii
+    (true, false, true, false, true, false, true, false)), (String ((Ascii
+    (false, false, true, true, false, false, true, false)), (String ((Ascii
+    (false, false, true, true, false, false, true, false)),
+    EmptyString)))))))))))))) :: ((String ((Ascii (false, true, true, true,
+    false, false, true, false)), (String ((Ascii (true, false, true, false,
+    true, false, true, false)), (String ((Ascii (false, false, true, true,
+    false, false, true, false)), (String ((Ascii (false, false, true, true,
+    false, false, true, false)), EmptyString)))))))) :: ((String ((Ascii
+    (false, true, true, true, false, false, true, false)), (String ((Ascii
+    (true, false, true, false, true, false, true, false)), (String ((Ascii
+    (false, false, true, true, false, false, true, false)), (String ((Ascii
+    (false, false, true, true, false, false, true, false)), (String ((Ascii
+    (true, true, false, false, true, false, true, false)),
+    EmptyString)))))))))) :: ((String ((Ascii (true, true, true, true, false,
+    false, true, false)), (String ((Ascii (false, true, true, false, false,
+    false, true, false)), EmptyString)))) :: ((String ((Ascii (true, true,
+    true, true, false, false, true, false)), (String ((Ascii (false, true,
+    true, false, false, false, true, false)), (String ((Ascii (false, true,
+    true, false, false, false, true, false)), (String ((Ascii (true, true,
+    false, false, true, false, true, false)), (String ((Ascii (true, false,
+    true, false, false, false, true, false)), (String ((Ascii (false, false,
+    true, false, true, false, true, false)),
+    EmptyString)))))))))))) :: ((String ((Ascii (true, true, true, true,
+    false, false, true, false)), (String ((Ascii (false, true, true, true,
+    false, false, true, false)), EmptyString)))) :: ((String ((Ascii (true,
+    true, true, true, false, false, true, false)), (String ((Ascii (false,
+    true, false, false, true, false, true, false)),
+    EmptyString)))) :: ((String ((Ascii (true, true, true, true, false,
+    false, true, false)), (String ((Ascii (false, true, false, false, true,
+    false, true, false)), (String ((Ascii (false, false, true, false, false,
+    false, true, false)), (String ((Ascii (true, false, true, false, false,
+    false, true, false)), (String ((Ascii (false, true, false, false, true,
+    false, true, false)), EmptyString)))))))))) :: ((String ((Ascii (true,
+    true, true, true, false, false, true, false)), (String ((Ascii (false,
+    false, true, false, true, false, true, false)), (String ((Ascii (false,
+    false, false, true, false, false, true, false)), (String ((Ascii (true,
+    false, true, false, false, false, true, false)), (String ((Ascii (false,
+    true, false, false, true, false, true, false)), (String ((Ascii (true,
+    true, false, false, true, false, true, false)),
+    EmptyString)))))))))))) :: ((String ((Ascii (true, true, true, true,
+    false, false, true, false)), (String ((Ascii (true, false, true, false,
+    true, false, true, false)), (String ((Ascii (false, false, true, false,
+    true, false, true, false)), (String ((Ascii (true, false, true, false,
+    false, false, true, false)), (String ((Ascii (false, true, false, false,
+    true, false, true, false)), EmptyString)))))))))) :: ((String ((Ascii
+    (true, true, true, true, false, false, true, false)), (String ((Ascii
+    (false, true, true, false, true, false, true, false)), (String ((Ascii
+    (true, false, true, false, false, false, true, false)), (String ((Ascii
+    (false, true, false, false, true, false, true, false)),
+    EmptyString)))))))) :: ((String ((Ascii (false, false, false, false,
+    true, false, true, false)), (String ((Ascii (true, false, false, false,
+    false, false, true, false)), (String ((Ascii (false, true, false, false,
+    true, false, true, false)), (String ((Ascii (false, false, true, false,
+    true, false, true, false)), (String ((Ascii (true, false, false, true,
+    false, false, true, false)), (String ((Ascii (false, false, true, false,
+    true, false, true, false)), (String ((Ascii (true, false, false, true,
+    false, false, true, false)), (String ((Ascii (true, true, true, true,
+    false, false, true, false)), (String ((Ascii (false, true, true, true,
+    false, false, true, false)), EmptyString)))))))))))))))))) :: ((String
+    ((Ascii (false, false, false, false, true, false, true, false)), (String
+    ((Ascii (false, false, true, true, false, false, true, false)), (String
+    ((Ascii (true, false, false, false, false, false, true, false)), (String
+    ((Ascii (false, true, true, true, false, false, true, false)),
+    EmptyString)))))))) :: ((String ((Ascii (false, false, false, false,
+    true, false, true, false)), (String ((Ascii (false, true, false, false,
+    true, false, true, false)), (String ((Ascii (true, false, false, false,
+    false, false, true, false)), (String ((Ascii (true, true, true, false,
+    false, false, true, false)), (String ((Ascii (true, false, true, true,
+    false, false, true, false)), (String ((Ascii (true, false, false, false,
+    false, false, true, false)), EmptyString)))))))))))) :: ((String ((Ascii
+    (false, false, false, false, true, false, true, false)), (String ((Ascii
+    (false, true, false, false, true, false, true, false)), (String ((Ascii
+    (true, false, true, false, false, false, true, false)), (String ((Ascii
+    (true, true, false, false, false, false, true, false)), (String ((Ascii
+    (true, false, true, false, false, false, true, false)), (String ((Ascii
+    (false, false, true, false, false, false, true, false)), (String ((Ascii
+    (true, false, false, true, false, false, true, false)), (String ((Ascii
+    (false, true, true, true, false, false, true, false)), (String ((Ascii
+    (true, true, true, false, false, false, true, false)),
+    EmptyString)))))))))))))))))) :: ((String ((Ascii (false, false, false,
+    false, true, false, true, false)), (String ((Ascii (false, true, false,
+    false, true, false, true, false)), (String ((Ascii (true, false, false,
+    true, false, false, true, false)), (String ((Ascii (true, false, true,
+    true, false, false, true, false)), (String ((Ascii (true, false, false,
+    false, false, false, true, false)), (String ((Ascii (false, true, false,
+    false, true, false, true, false)), (String ((Ascii (true, false, false,
+    true, true, false, true, false)), EmptyString)))))))))))))) :: ((String
+    ((Ascii (true, false, false, false, true, false, true, false)), (String
+    ((Ascii (true, false, true, false, true, false, true, false)), (String
+    ((Ascii (true, false, true, false, false, false, true, false)), (String
+    ((Ascii (false, true, false, false, true, false, true, false)), (String
+    ((Ascii (true, false, false, true, true, false, true, false)),
+    EmptyString)))))))))) :: ((String ((Ascii (false, true, false, false,
+    true, false, true, false)), (String ((Ascii (true, false, false, false,
+    false, false, true, false)), (String ((Ascii (true, false, false, true,
+    false, false, true, false)), (String ((Ascii (true, true, false, false,
+    true, false, true, false)), (String ((Ascii (true, false, true, false,
+    false, false, true, false)), EmptyString)))))))))) :: ((String ((Ascii
+    (false, true, false, false, true, false, true, false)), (String ((Ascii
+    (true, false, false, false, false, false, true, false)), (String ((Ascii
+    (false, true, true, true, false, false, true, false)), (String ((Ascii
+    (true, true, true, false, false, false, true, false)), (String ((Ascii
+    (true, false, true, false, false, false, true, false)),
+    EmptyString)))))))))) :: ((String ((Ascii (false, true, false, false,
+    true, false, true, false)), (String ((Ascii (true, false, true, false,
+    false, false, true, false)), (String ((Ascii (true, true, false, false,
+    false, false, true, false)), (String ((Ascii (true, false, true, false,
+    true, false, true, false)), (String ((Ascii (false, true, false, false,
+    true, false, true, false)), (String ((Ascii (true, true, false, false,
+    true, false, true, false)), (String ((Ascii (true, false, false, true,
+    false, false, true, false)), (String ((Ascii (false, true, true, false,
+    true, false, true, false)), (String ((Ascii (true, false, true, false,
+    false, false, true, false)), EmptyString)))))))))))))))))) :: ((String
+    ((Ascii (false, true, false, false, true, false, true, false)), (String
+    ((Ascii (true, false, true, false, false, false, true, false)), (String
+    ((Ascii (false, true, true, false, false, false, true, false)), (String
+    ((Ascii (true, false, true, false, false, false, true, false)), (String
+    ((Ascii (false, true, false, false, true, false, true, false)), (String
+    ((Ascii (true, false, true, false, false, false, true, false)), (String
+    ((Ascii (false, true, true, true, false, false, true, false)), (String
+    ((Ascii (true, true, false, false, false, false, true, false)), (String
+    ((Ascii (true, false, true, false, false, false, true, false)), (String
+    ((Ascii (true, true, false, false, true, false, true, false)),
+    EmptyString)))))))))))))))))))) :: ((String ((Ascii (false, true, false,
+    false, true, false, true, false)), (String ((Ascii (true, false, true,
+    false, false, false, true, false)), (String ((Ascii (true, true, true,
+    false, false, false, true, false)), (String ((Ascii (true, false, true,
+    false, false, false, true, false)), (String ((Ascii (false, false, false,
+    true, true, false, true, false)), (String ((Ascii (false, false, false,
+    false, true, false, true, false)), EmptyString)))))))))))) :: ((String
+    ((Ascii (false, true, false, false, true, false, true, false)), (String
+    ((Ascii (true, false, true, false, false, false, true, false)), (String
+    ((Ascii (true, false, false, true, false, false, true, false)), (String
+    ((Ascii (false, true, true, true, false, false, true, false)), (String
+    ((Ascii (false, false, true, false, false, false, true, false)), (String
+    ((Ascii (true, false, true, false, false, false, true, false)), (String
+    ((Ascii (false, false, false, true, true, false, true, false)),
+    EmptyString)))))))))))))) :: ((String ((Ascii (false, true, false, false,
+    true, false, true, false)), (String ((Ascii (true, false, true, false,
+    false, false, true, false)), (String ((Ascii (false, false, true, true,
+    false, false, true, false)), (String ((Ascii (true, false, true, false,
+    false, false, true, false)), (String ((Ascii (true, false, false, false,
+    false, false, true, false)), (String ((Ascii (true, true, false, false,
+    true, false, true, false)), (String ((Ascii (true, false, true, false,
+    false, false, true, false)), EmptyString)))))))))))))) :: ((String
+    ((Ascii (false, true, false, false, true, false, true, false)), (String
+    ((Ascii (true, false, true, false, false, false, true, false)), (String
+    ((Ascii (false, true, true, true, false, false, true, false)), (String
+    ((Ascii (true, false, false, false, false, false, true, false)), (String
+    ((Ascii (true, false, true, true, false, false, true, false)), (String
+    ((Ascii (true, false, true, false, false, false, true, false)),
+    EmptyString)))))))))))) :: ((String ((Ascii (false, true, false, false,
+    true, false, true, false)), (String ((Ascii (true, false, true, false,
+    false, false, true, false)), (String ((Ascii (false, false, false, false,
+    true, false, true, false)), (String ((Ascii (false, false, true, true,
+    false, false, true, false)), (String ((Ascii (true, false, false, false,
+    false, false, true, false)), (String ((Ascii (true, true, false, false,
+    false, false, true, false)), (String ((Ascii (true, false, true, false,
+    false, false, true, false)), EmptyString)))))))))))))) :: ((String
+    ((Ascii (false, true, false, false, true, false, true, false)), (String
+    ((Ascii (true, false, true, false, false, false, true, false)), (String
+    ((Ascii (true, true, false, false, true, false, true, false)), (String
+    ((Ascii (false, false, true, false, true, false, true, false)), (String
+    ((Ascii (false, true, false, false, true, false, true, false)), (String
+    ((Ascii (true, false, false, true, false, false, true, false)), (String
+    ((Ascii (true, true, false, false, false, false, true, false)), (String
+    ((Ascii (false, false, true, false, true, false, true, false)),
+    EmptyString)))))))))))))))) :: ((String ((Ascii (false, true, false,
+    false, true, false, true, false)), (String ((Ascii (true, false, true,
+    false, false, false, true, false)), (String ((Ascii (false, false, true,
+    false, true, false, true, false)), (String ((Ascii (true, false, true,
+    false, true, false, true, false)), (String ((Ascii (false, true, false,
+    false, true, false, true, false)), (String ((Ascii (false, true, true,
+    true, false, false, true, false)), (String ((Ascii (true, false, false,
+    true, false, false, true, false)), (String ((Ascii (false, true, true,
+    true, false, false, true, false)), (String ((Ascii (true, true, true,
+    false, false, false, true, false)),
+    EmptyString)))))))))))))))))) :: ((String ((Ascii (false, true, false,
+    false, true, false, true, false)), (String ((Ascii (true, false, false,
+    true, false, false, true, false)), (String ((Ascii (true, true, true,
+    false, false, false, true, false)), (String ((Ascii (false, false, false,
+    true, false, false, true, false)), (String ((Ascii (false, false, true,
+    false, true, false, true, false)), EmptyString)))))))))) :: ((String
+    ((Ascii (false, true, false, false, true, false, true, false)), (String
+    ((Ascii (true, true, true, true, false, false, true, false)), (String
+    ((Ascii (false, false, true, true, false, false, true, false)), (String
+    ((Ascii (false, false, true, true, false, false, true, false)), (String
+    ((Ascii (false, true, false, false, false, false, true, false)), (String
+    ((Ascii (true, false, false, false, false, false, true, false)), (String
+    ((Ascii (true, true, false, false, false, false, true, false)), (String
+    ((Ascii (true, true, false, true, false, false, true, false)),
+    EmptyString)))))))))))))))) :: ((String ((Ascii (false, true, false,
+    false, true, false, true, false)), (String ((Ascii (true, true, true,
+    true, false, false, true, false)), (String ((Ascii (true, true, true,
+    false, true, false, true, false)), EmptyString)))))) :: ((String ((Ascii
+    (false, true, false, false, true, false, true, false)), (String ((Ascii
+    (true, true, true, true, false, false, true, false)), (String ((Ascii
+    (true, true, true, false, true, false, true, false)), (String ((Ascii
+    (true, true, false, false, true, false, true, false)),
+    EmptyString)))))))) :: ((String ((Ascii (true, true, false, false, true,
+    false, true, false)), (String ((Ascii (true, false, false, false, false,
+    false, true, false)), (String ((Ascii (false, true, true, false, true,
+    false, true, false)), (String ((Ascii (true, false, true, false, false,
+    false, true, false)), (String ((Ascii (false, false, false, false, true,
+    false, true, false)), (String ((Ascii (true, true, true, true, false,
+    false, true, false)), (String ((Ascii (true, false, false, true, false,
+    false, true, false)), (String ((Ascii (false, true, true, true, false,
+    false, true, false)), (String ((Ascii (false, false, true, false, true,
+    false, true, false)), EmptyString)))))))))))))))))) :: ((String ((Ascii
+    (true, true, false, false, true, false, true, false)), (String ((Ascii
+    (true, false, true, false, false, false, true, false)), (String ((Ascii
+    (false, false, true, true, false, false, true, false)), (String ((Ascii
+    (true, false, true, false, false, false, true, false)), (String ((Ascii
+    (true, true, false, false, false, false, true, false)), (String ((Ascii
+    (false, false, true, false, true, false, true, false)),
+    EmptyString)))))))))))) :: ((String ((Ascii (true, true, false, false,
+    true, false, true, false)), (String ((Ascii (true, false, true, false,
+    false, false, true, false)), (String ((Ascii (false, false, true, false,
+    true, false, true, false)), EmptyString)))))) :: ((String ((Ascii (false,
+    false, true, false, true, false, true, false)), (String ((Ascii (true,
+    false, false, false, false, false, true, false)), (String ((Ascii (false,
+    true, false, false, false, false, true, false)), (String ((Ascii (false,
+    false, true, true, false, false, true, false)), (String ((Ascii (true,
+    false, true, false, false, false, true, false)),
+    EmptyString)))))))))) :: ((String ((Ascii (false, false, true, false,
+    true, false, true, false)), (String ((Ascii (true, false, true, false,
+    false, false, true, false)), (String ((Ascii (true, false, true, true,
+    false, false, true, false)), (String ((Ascii (false, false, false, false,
+    true, false, true, false)), EmptyString)))))))) :: ((String ((Ascii
+    (false, false, true, false, true, false, true, false)), (String ((Ascii
+    (true, false, true, false, false, false, true, false)), (String ((Ascii
+    (true, false, true, true, false, false, true, false)), (String ((Ascii
+    (false, false, false, false, true, false, true, false)), (String ((Ascii
+    (true, true, true, true, false, false, true, false)), (String ((Ascii
+    (false, true, false, false, true, false, true, false)), (String ((Ascii
+    (true, false, false, false, false, false, true, false)), (String ((Ascii
+    (false, true, false, false, true, false, true, false)), (String ((Ascii
+    (true, false, false, true, true, false, true, false)),
+    EmptyString)))))))))))))))))) :: ((String ((Ascii (false, false, true,
+    false, true, false, true, false)), (String ((Ascii (false, false, false,
+    true, false, false, true, false)), (String ((Ascii (true, false, true,
+    false, false, false, true, false)), (String ((Ascii (false, true, true,
+    true, false, false, true, false)), EmptyString)))))))) :: ((String
+    ((Ascii (false, false, true, false, true, false, true, false)), (String
+    ((Ascii (true, false, false, true, false, false, true, false)), (String
+    ((Ascii (true, false, true, false, false, false, true, false)), (String
+    ((Ascii (true, true, false, false, true, false, true, false)),
+    EmptyString)))))))) :: ((String ((Ascii (false, false, true, false, true,
+    false, true, false)), (String ((Ascii (true, true, true, true, false,
+    false, true, false)), EmptyString)))) :: ((String ((Ascii (false, false,
+    true, false, true, false, true, false)), (String ((Ascii (false, true,
+    false, false, true, false, true, false)), (String ((Ascii (true, false,
+    false, false, false, false, true, false)), (String ((Ascii (false, true,
+    true, true, false, false, true, false)), (String ((Ascii (true, true,
+    false, false, true, false, true, false)), (String ((Ascii (true, false,
+    false, false, false, false, true, false)), (String ((Ascii (true, true,
+    false, false, false, false, true, false)), (String ((Ascii (false, false,
+    true, false, true, false, true, false)), (String ((Ascii (true, false,
+    false, true, false, false, true, false)), (String ((Ascii (true, true,
+    true, true, false, false, true, false)), (String ((Ascii (false, true,
+    true, true, false, false, true, false)),
+    EmptyString)))))))))))))))))))))) :: ((String ((Ascii (false, false,
+    true, false, true, false, true, false)), (String ((Ascii (false, true,
+    false, false, true, false, true, false)), (String ((Ascii (true, false,
+    false, true, false, false, true, false)), (String ((Ascii (true, true,
+    true, false, false, false, true, false)), (String ((Ascii (true, true,
+    true, false, false, false, true, false)), (String ((Ascii (true, false,
+    true, false, false, false, true, false)), (String ((Ascii (false, true,
+    false, false, true, false, true, false)),
+    EmptyString)))))))))))))) :: ((String ((Ascii (false, false, true, false,
+    true, false, true, false)), (String ((Ascii (false, true, false, false,
+    true, false, true, false)), (String ((Ascii (true, false, true, false,
+    true, false, true, false)), (String ((Ascii (true, false, true, false,
+    false, false, true, false)), EmptyString)))))))) :: ((String ((Ascii
+    (true, false, true, false, true, false, true, false)), (String ((Ascii
+    (false, true, true, true, false, false, true, false)), (String ((Ascii
+    (false, true, false, false, false, false, true, false)), (String ((Ascii
+    (true, true, true, true, false, false, true, false)), (String ((Ascii
+    (true, false, true, false, true, false, true, false)), (String ((Ascii
+    (false, true, true, true, false, false, true, false)), (String ((Ascii
+    (false, false, true, false, false, false, true, false)), (String ((Ascii
+    (true, false, true, false, false, false, true, false)), (String ((Ascii
+    (false, false, true, false, false, false, true, false)),
+    EmptyString)))))))))))))))))) :: ((String ((Ascii (true, false, true,
+    false, true, false, true, false)), (String ((Ascii (false, true, true,
+    true, false, false, true, false)), (String ((Ascii (true, false, false,
+    true, false, false, true, false)), (String ((Ascii (true, true, true,
+    true, false, false, true, false)), (String ((Ascii (false, true, true,
+    true, false, false, true, false)), EmptyString)))))))))) :: ((String
+    ((Ascii (true, false, true, false, true, false, true, false)), (String
+    ((Ascii (false, true, true, true, false, false, true, false)), (String
+    ((Ascii (true, false, false, true, false, false, true, false)), (String
+    ((Ascii (true, false, false, false, true, false, true, false)), (String
+    ((Ascii (true, false, true, false, true, false, true, false)), (String
+    ((Ascii (true, false, true, false, false, false, true, false)),
+    EmptyString)))))))))))) :: ((String ((Ascii (true, false, true, false,
+    true, false, true, false)), (String ((Ascii (false, false, false, false,
+    true, false, true, false)), (String ((Ascii (false, false, true, false,
+    false, false, true, false)), (String ((Ascii (true, false, false, false,
+    false, false, true, false)), (String ((Ascii (false, false, true, false,
+    true, false, true, false)), (String ((Ascii (true, false, true, false,
+    false, false, true, false)), EmptyString)))))))))))) :: ((String ((Ascii
+    (true, false, true, false, true, false, true, false)), (String ((Ascii
+    (true, true, false, false, true, false, true, false)), (String ((Ascii
+    (true, false, false, true, false, false, true, false)), (String ((Ascii
+    (false, true, true, true, false, false, true, false)), (String ((Ascii
+    (true, true, true, false, false, false, true, false)),
+    EmptyString)))))))))) :: ((String ((Ascii (false, true, true, false,
+    true, false, true, false)), (String ((Ascii (true, false, false, false,
+    false, false, true, false)), (String ((Ascii (true, true, false, false,
+    false, false, true, false)), (String ((Ascii (true, false, true, false,
+    true, false, true, false)), (String ((Ascii (true, false, true, false,
+    true, false, true, false)), (String ((Ascii (true, false, true, true,
+    false, false, true, false)), EmptyString)))))))))))) :: ((String ((Ascii
+    (false, true, true, false, true, false, true, false)), (String ((Ascii
+    (true, false, false, false, false, false, true, false)), (String ((Ascii
+    (false, false, true, true, false, false, true, false)), (String ((Ascii
+    (true, false, true, false, true, false, true, false)), (String ((Ascii
+    (true, false, true, false, false, false, true, false)), (String ((Ascii
+    (true, true, false, false, true, false, true, false)),
+    EmptyString)))))))))))) :: ((String ((Ascii (false, true, true, false,
+    true, false, true, false)), (String ((Ascii (true, false, false, true,
+    false, false, true, false)), (String ((Ascii (true, false, true, false,
+    false, false, true, false)), (String ((Ascii (true, true, true, false,
+    true, false, true, false)), EmptyString)))))))) :: ((String ((Ascii
+    (false, true, true, false, true, false, true, false)), (String ((Ascii
+    (true, false, false, true, false, false, true, false)), (String ((Ascii
+    (false, true, false, false, true, false, true, false)), (String ((Ascii
+    (false, false, true, false, true, false, true, false)), (String ((Ascii
+    (true, false, true, false, true, false, true, false)), (String ((Ascii
+    (true, false, false, false, false, false, true, false)), (String ((Ascii
+    (false, false, true, true, false, false, true, false)),
+    EmptyString)))))))))))))) :: ((String ((Ascii (true, true, true, false,
+    true, false, true, false)), (String ((Ascii (false, false, false, true,
+    false, false, true, false)), (String ((Ascii (true, false, true, false,
+    false, false, true, false)), (String ((Ascii (false, true, true, true,
+    false, false, true, false)), EmptyString)))))))) :: ((String ((Ascii
+    (true, true, true, false, true, false, true, false)), (String ((Ascii
+    (false, false, false, true, false, false, true, false)), (String ((Ascii
+    (true, false, true, false, false, false, true, false)), (String ((Ascii
+    (false, true, false, false, true, false, true, false)), (String ((Ascii
+    (true, false, true, false, false, false, true, false)),
+    EmptyString)))))))))) :: ((String ((Ascii (true, true, true, false, true,
+    false, true, false)), (String ((Ascii (true, false, false, true, false,
+    false, true, false)), (String ((Ascii (false, true, true, true, false,
+    false, true, false)), (String ((Ascii (false, false, true, false, false,
+    false, true, false)), (String ((Ascii (true, true, true, true, false,
+    false, true, false)), (String ((Ascii (true, true, true, false, true,
+    false, true, false)), EmptyString)))))))))))) :: ((String ((Ascii (true,
+    true, true, false, true, false, true, false)), (String ((Ascii (true,
+    false, false, true, false, false, true, false)), (String ((Ascii (false,
+    false, true, false, true, false, true, false)), (String ((Ascii (false,
+    false, false, true, false, false, true, false)),
+    EmptyString)))))))) :: ((String ((Ascii (true, true, true, false, true,
+    false, true, false)), (String ((Ascii (true, false, false, true, false,
+    false, true, false)), (String ((Ascii (false, false, true, false, true,
+    false, true, false)), (String ((Ascii (false, false, false, true, false,
+    false, true, false)), (String ((Ascii (true, true, true, true, false,
+    false, true, false)), (String ((Ascii (true, false, true, false, true,
+    false, true, false)), (String ((Ascii (false, false, true, false, true,
+    false, true, false)),
+    EmptyString)))))))))))))) :: []))))))))))))))))))))))))))))))))))))))))))))))))))))))))))))))))))))))))))))))))))))))))))))))))))))))))))))))))))))))))))))))))))))))))))))))))))))
+
+(** val is_keyword : string -> bool **)
+
+let is_keyword s =
+  existsb (eqb1 (str_upper s)) sql_keywords
+
+(** val plain_ident : string -> bool **)
+
+let plain_ident s =
+  (&&) (ident_shape s) (negb (is_keyword s))
+
+(** val rowid_aliases : string list **)
+
+let rowid_aliases =
+  (String ((Ascii (false, true, false, false, true, false, true, false)),
+    (String ((Ascii (true, true, true, true, false, false, true, false)),
+    (String ((Ascii (true, true, true, false, true, false, true, false)),
+    (String ((Ascii (true, false, false, true, false, false, true, false)),
+    (String ((Ascii (false, false, true, false, false, false, true, false)),
+    EmptyString)))))))))) :: ((String ((Ascii (true, true, true, true, false,
+    false, true, false)), (String ((Ascii (true, false, false, true, false,
+    false, true, false)), (String ((Ascii (false, false, true, false, false,
+    false, true, false)), EmptyString)))))) :: ((String ((Ascii (true, true,
+    true, true, true, false, true, false)), (String ((Ascii (false, true,
+    false, false, true, false, true, false)), (String ((Ascii (true, true,
+    true, true, false, false, true, false)), (String ((Ascii (true, true,
+    true, false, true, false, true, false)), (String ((Ascii (true, false,
+    false, true, false, false, true, false)), (String ((Ascii (false, false,
+    true, false, false, false, true, false)), (String ((Ascii (true, true,
+    true, true, true, false, true, false)), EmptyString)))))))))))))) :: []))
+
+(** val is_rowid_alias : string -> bool **)
+
+let is_rowid_alias s =
+  existsb (eqb1 (str_upper s)) rowid_aliases
+
+type table0 = { tcols : (string * string) list; trows : row list }
+
+type db = { tables : (string * table0) list; nmodel : nat }
+
+type pyv =
+| PV of val0
+| PL of pyv list
+
+(** val find_ci : string -> (string * string) list -> nat -> nat option **)
+
+let rec find_ci name cols i =
+  match cols with
+  | [] -> None
+  | p :: t ->
+    let (c, _) = p in if ci_eqb name c then Some i else find_ci name t (S i)
+
+(** val find_table : string -> (string * table0) list -> table0 option **)
+
+let rec find_table name = function
+| [] -> None
+| p :: r ->
+  let (n0, t) = p in if ci_eqb name n0 then Some t else find_table name r
+
+(** val set_table :
+    string -> table0 -> (string * table0) list -> (string * table0) list **)
+
+let rec set_table name t' = function
+| [] -> []
+| p :: r ->
+  let (n0, t) = p in
+  if ci_eqb name n0 then (n0, t') :: r else (n0, t) :: (set_table name t' r)
+
+type cref =
+| CRowid
+| CCol of nat
+
+(** val cell : z -> row -> cref -> val0 **)
+
+let cell rid r = function
+| CRowid -> VInt rid
+| CCol i -> nth i r VNull
+
+(** val col_aff : table0 -> cref -> aff **)
+
+let col_aff t = function
+| CRowid -> AInt
+| CCol i -> affinity_of_decl (snd (nth i t.tcols (EmptyString, EmptyString)))
+
+type scond = (cref * bool) * val0 list
+
+(** val row_ok : scond list -> z -> row -> bool **)
+
+let row_ok cs rid r =
+  forallb (fun c ->
+    let (p, vs) = c in let (cr, neg) = p in cond_true neg (cell rid r cr) vs)
+    cs
+
+(** val select_from : z -> row list -> cref list -> scond list -> row list **)
+
+let rec select_from rid rows sel cs =
+  match rows with
+  | [] -> []
+  | r :: t ->
+    app (if row_ok cs rid r then (map (cell rid r) sel) :: [] else [])
+      (select_from (Z.add rid (Zpos XH)) t sel cs)
+
+(** val sql_select : table0 -> cref list -> scond list -> row list **)
+
+let sql_select t sel cs =
+  select_from (Zpos XH) t.trows sel cs
+
+(** val special_literals : string list **)
+
+let special_literals =
+  (String ((Ascii (false, true, true, true, false, false, true, false)),
+    (String ((Ascii (true, false, true, false, true, false, true, false)),
+    (String ((Ascii (false, false, true, true, false, false, true, false)),
+    (String ((Ascii (false, false, true, true, false, false, true, false)),
+    EmptyString)))))))) :: ((String ((Ascii (false, false, true, false, true,
+    false, true, false)), (String ((Ascii (false, true, false, false, true,
+    false, true, false)), (String ((Ascii (true, false, true, false, true,
+    false, true, false)), (String ((Ascii (true, false, true, false, false,
+    false, true, false)), EmptyString)))))))) :: ((String ((Ascii (false,
+    true, true, false, false, false, true, false)), (String ((Ascii (true,
+    false, false, false, false, false, true, false)), (String ((Ascii (false,
+    false, true, true, false, false, true, false)), (String ((Ascii (true,
+    true, false, false, true, false, true, false)), (String ((Ascii (true,
+    false, true, false, false, false, true, false)),
+    EmptyString)))))))))) :: ((String ((Ascii (true, true, false, false,
+    false, false, true, false)), (String ((Ascii (true, false, true, false,
+    true, false, true, false)), (String ((Ascii (false, true, false, false,
+    true, false, true, false)), (String ((Ascii (false, true, false, false,
+    true, false, true, false)), (String ((Ascii (true, false, true, false,
+    false, false, true, false)), (String ((Ascii (false, true, true, true,
+    false, false, true, false)), (String ((Ascii (false, false, true, false,
+    true, false, true, false)), (String ((Ascii (true, true, true, true,
+    true, false, true, false)), (String ((Ascii (false, false, true, false,
+    false, false, true, false)), (String ((Ascii (true, false, false, false,
+    false, false, true, false)), (String ((Ascii (false, false, true, false,
+    true, false, true, false)), (String ((Ascii (true, false, true, false,
+    false, false, true, false)),
+    EmptyString)))))))))))))))))))))))) :: ((String ((Ascii (true, true,
+    false, false, false, false, true, false)), (String ((Ascii (true, false,
+    true, false, true, false, true, false)), (String ((Ascii (false, true,
+    false, false, true, false, true, false)), (String ((Ascii (false, true,
+    false, false, true, false, true, false)), (String ((Ascii (true, false,
+    true, false, false, false, true, false)), (String ((Ascii (false, true,
+    true, true, false, false, true, false)), (String ((Ascii (false, false,
+    true, false, true, false, true, false)), (String ((Ascii (true, true,
+    true, true, true, false, true, false)), (String ((Ascii (false, false,
+    true, false, true, false, true, false)), (String ((Ascii (true, false,
+    false, true, false, false, true, false)), (String ((Ascii (true, false,
+    true, true, false, false, true, false)), (String ((Ascii (true, false,
+    true, false, false, false, true, false)),
+    EmptyString)))))))))))))))))))))))) :: ((String ((Ascii (true, true,
+    false, false, false, false, true, false)), (String ((Ascii (true, false,
+    true, false, true, false, true, false)), (String ((Ascii (false, true,
+    false, false, true, false, true, false)), (String ((Ascii (false, true,
+    false, false, true, false, true, false)), (String ((Ascii (true, false,
+    true, false, false, false, true, false)), (String ((Ascii (false, true,
+    true, true, false, false, true, false)), (String ((Ascii (false, false,
+    true, false, true, false, true, false)), (String ((Ascii (true, true,
+    true, true, true, false, true, false)), (String ((Ascii (false, false,
+    true, false, true, false, true, false)), (String ((Ascii (true, false,
+    false, true, false, false, true, false)), (String ((Ascii (true, false,
+    true, true, false, false, true, false)), (String ((Ascii (true, false,
+    true, false, false, false, true, false)), (String ((Ascii (true, true,
+    false, false, true, false, true, false)), (String ((Ascii (false, false,
+    true, false, true, false, true, false)), (String ((Ascii (true, false,
+    false, false, false, false, true, false)), (String ((Ascii (true, false,
+    true, true, false, false, true, false)), (String ((Ascii (false, false,
+    false, false, true, false, true, false)),
+    EmptyString)))))))))))))))))))))))))))))))))) :: [])))))
+
+(** val resolve_name : table0 -> string -> cref option res **)
+
+let resolve_name t k =
+  if negb (ident_shape k)
+  then out_of_model
+  else (match find_ci k t.tcols O with
+        | Some i -> Ok (Some (CCol i))
+        | None ->
+          if is_rowid_alias k
+          then Ok (Some CRowid)
+          else if existsb (eqb1 (str_upper k)) special_literals
+               then out_of_model
+               else Ok None)
+
+(** val split_comma_aux : string -> string -> string list **)
+
+let rec split_comma_aux cur = function
+| EmptyString -> (rev_str EmptyString cur) :: []
+| String (c, t) ->
+  if eqb0 c (Ascii (false, false, true, true, false, true, false, false))
+  then (rev_str EmptyString cur) :: (split_comma_aux EmptyString t)
+  else split_comma_aux (String (c, cur)) t
+
+(** val split_comma : string -> string list **)
+
+let split_comma s =
+  split_comma_aux EmptyString s
+
+(** val mem_str : string -> string list -> bool **)
+
+let mem_str x l =
+  existsb (eqb1 x) l
+
+(** val index_of0 : string -> string list -> nat -> nat option **)
+
+let rec index_of0 x l i =
+  match l with
+  | [] -> None
+  | y :: t -> if eqb1 x y then Some i else index_of0 x t (S i)
+
+(** val has_key : string -> conds -> bool **)
+
+let rec has_key k = function
+| [] -> false
+| p :: t -> let (k', _) = p in (||) (eqb1 k' k) (has_key k t)
+
+(** val dict_set : string -> cval -> conds -> conds **)
+
+let rec dict_set k v0 = function
+| [] -> (k, v0) :: []
+| p :: t ->
+  let (k', v') = p in
+  if eqb1 k' k then (k, v0) :: t else (k', v') :: (dict_set k v0 t)
+
+(** val key_of0 : string -> bool * string **)
+
+let key_of0 k0 =
+  if prefix (String ((Ascii (false, true, true, true, false, true, true,
+       false)), (String ((Ascii (true, true, true, true, false, true, true,
+       false)), (String ((Ascii (true, true, true, true, true, false, true,
+       false)), EmptyString)))))) k0
+  then (true, (substring (S (S (S O))) (length0 k0) k0))
+  else (false, k0)
+
+(** val chunks_aux : nat -> nat -> pv list -> pv list list **)
+
+let rec chunks_aux fuel n0 l =
+  match fuel with
+  | O -> []
+  | S f ->
+    (match l with
+     | [] -> []
+     | _ :: _ -> (firstn n0 l) :: (chunks_aux f n0 (skipn n0 l)))
+
+(** val chunks : nat -> pv list -> pv list list **)
+
+let chunks n0 l =
+  chunks_aux (length l) n0 l
+
+(** val set_nth : nat -> 'a1 -> 'a1 list -> 'a1 list **)
+
+let rec set_nth i x = function
+| [] -> []
+| y :: t -> (match i with
+             | O -> x :: t
+             | S j -> y :: (set_nth j x t))
+
+(** val nodup_str : string list -> bool **)
+
+let rec nodup_str = function
+| [] -> true
+| x :: t -> (&&) (negb (existsb (ci_eqb x) t)) (nodup_str t)
+
+(** val max_sql_values : z **)
+
+let max_sql_values =
+  max_sql_values_src
+
+(** val sql_limit : z **)
+
+let sql_limit =
+  sql_limit_src
+
+(** val valid_colnames : db -> string list res **)
+
+let valid_colnames d =
+  match d.tables with
+  | [] -> out_of_model
+  | p :: _ ->
+    let (_, t) = p in
+    Ok ((String ((Ascii (false, true, false, false, true, true, true,
+    false)), (String ((Ascii (true, true, true, true, false, true, true,
+    false)), (String ((Ascii (true, true, true, false, true, true, true,
+    false)), (String ((Ascii (true, false, false, true, false, false, true,
+    false)), (String ((Ascii (false, false, true, false, false, false, true,
+    false)), EmptyString)))))))))) :: (map fst t.tcols))
+
+(** val check_columns_get : string list -> string -> unit res **)
+
+let check_columns_get valid columns0 =
+  if eqb1 columns0 (String ((Ascii (false, true, false, true, false, true,
+       false, false)), EmptyString))
+  then Ok ()
+  else if forallb (fun i -> mem_str (strip i) valid) (split_comma columns0)
+       then Ok ()
+       else Err (String ((Ascii (false, true, true, false, true, false, true,
+              false)), (String ((Ascii (true, false, false, false, false,
+              true, true, false)), (String ((Ascii (false, false, true, true,
+              false, true, true, false)), (String ((Ascii (true, false, true,
+              false, true, true, true, false)), (String ((Ascii (true, false,
+              true, false, false, true, true, false)), (String ((Ascii (true,
+              false, true, false, false, false, true, false)), (String
+              ((Ascii (false, true, false, false, true, true, true, false)),
+              (String ((Ascii (false, true, false, false, true, true, true,
+              false)), (String ((Ascii (true, true, true, true, false, true,
+              true, false)), (String ((Ascii (false, true, false, false,
+              true, true, true, false)), EmptyString))))))))))))))))))))
+
+(** val sel_list : table0 -> string -> cref list res **)
+
+let sel_list t columns0 =
+  if eqb1 columns0 (String ((Ascii (false, true, false, true, false, true,
+       false, false)), EmptyString))
+  then Ok (map (fun x -> CCol x) (seq O (length t.tcols)))
+  else mapM (fun p ->
+         bind (resolve_name t (strip p)) (fun oc ->
+           match oc with
+           | Some c -> Ok c
+           | None ->
+             Err (String ((Ascii (true, true, false, false, true, true, true,
+               false)), (String ((Ascii (true, false, false, false, true,
+               true, true, false)), (String ((Ascii (false, false, true,
+               true, false, true, true, false)), (String ((Ascii (true,
+               false, false, true, false, true, true, false)), (String
+               ((Ascii (false, false, true, false, true, true, true, false)),
+               (String ((Ascii (true, false, true, false, false, true, true,
+               false)), (String ((Ascii (true, true, false, false, true,
+               true, false, false)), (String ((Ascii (false, true, true,
+               true, false, true, false, false)), (String ((Ascii (true,
+               false, true, false, false, false, true, false)), (String
+               ((Ascii (false, true, false, false, true, true, true, false)),
+               (String ((Ascii (false, true, false, false, true, true, true,
+               false)), (String ((Ascii (true, true, true, true, false, true,
+               true, false)), (String ((Ascii (false, true, false, false,
+               true, true, true, false)),
+               EmptyString)))))))))))))))))))))))))))) (split_comma columns0)
+
+(** val check_keys : table0 option -> conds -> unit res **)
+
+let rec check_keys ot = function
+| [] -> Ok ()
+| p :: rest ->
+  let (k0, _) = p in
+  let (_, k) = key_of0 k0 in
+  (match ot with
+   | Some t ->
+     bind (resolve_name t k) (fun oc ->
+       match oc with
+       | Some _ -> check_keys ot rest
+       | None ->
+         Err (String ((Ascii (false, true, true, false, true, false, true,
+           false)), (String ((Ascii (true, false, false, false, false, true,
+           true, false)), (String ((Ascii (false, false, true, true, false,
+           true, true, false)), (String ((Ascii (true, false, true, false,
+           true, true, true, false)), (String ((Ascii (true, false, true,
+           false, false, true, true, false)), (String ((Ascii (true, false,
+           true, false, false, false, true, false)), (String ((Ascii (false,
+           true, false, false, true, true, true, false)), (String ((Ascii
+           (false, true, false, false, true, true, true, false)), (String
+           ((Ascii (true, true, true, true, false, true, true, false)),
+           (String ((Ascii (false, true, false, false, true, true, true,
+           false)), EmptyString)))))))))))))))))))))
+   | None ->
+     Err (String ((Ascii (false, true, true, false, true, false, true,
+       false)), (String ((Ascii (true, false, false, false, false, true,
+       true, false)), (String ((Ascii (false, false, true, true, false, true,
+       true, false)), (String ((Ascii (true, false, true, false, true, true,
+       true, false)), (String ((Ascii (true, false, true, false, false, true,
+       true, false)), (String ((Ascii (true, false, true, false, false,
+       false, true, false)), (String ((Ascii (false, true, false, false,
+       true, true, true, false)), (String ((Ascii (false, true, false, false,
+       true, true, true, false)), (String ((Ascii (true, true, true, true,
+       false, true, true, false)), (String ((Ascii (false, true, false,
+       false, true, true, true, false)), EmptyString)))))))))))))))))))))
+
+(** val rowid_shift : pv -> pv res **)
+
+let rowid_shift = function
+| PInt z0 -> Ok (PInt (Z.add z0 (Zpos XH)))
+| PFloat _ -> out_of_model
+| _ ->
+  Err (String ((Ascii (false, false, true, false, true, false, true, false)),
+    (String ((Ascii (true, false, false, true, true, true, true, false)),
+    (String ((Ascii (false, false, false, false, true, true, true, false)),
+    (String ((Ascii (true, false, true, false, false, true, true, false)),
+    (String ((Ascii (true, false, true, false, false, false, true, false)),
+    (String ((Ascii (false, true, false, false, true, true, true, false)),
+    (String ((Ascii (false, true, false, false, true, true, true, false)),
+    (String ((Ascii (true, true, true, true, false, true, true, false)),
+    (String ((Ascii (false, true, false, false, true, true, true, false)),
+    EmptyString))))))))))))))))))
+
+type loop_res =
+| LErr of string
+| LChunk of string * pv list list
+| LDone of ((string * bool) * pv list) list
+
+(** val cond_loop : conds -> ((string * bool) * pv list) list -> loop_res **)
+
+let rec cond_loop kw acc =
+  match kw with
+  | [] -> LDone (rev acc)
+  | p :: rest ->
+    let (k0, v0) = p in
+    let (neg, k) = key_of0 k0 in
+    (match v0 with
+     | CScalar x ->
+       if eqb1 k (String ((Ascii (false, true, false, false, true, true,
+            true, false)), (String ((Ascii (true, true, true, true, false,
+            true, true, false)), (String ((Ascii (true, true, true, false,
+            true, true, true, false)), (String ((Ascii (true, false, false,
+            true, false, false, true, false)), (String ((Ascii (false, false,
+            true, false, false, false, true, false)), EmptyString))))))))))
+       then (match rowid_shift x with
+             | Ok x' -> cond_loop rest (((k, neg), (x' :: [])) :: acc)
+             | Err e -> LErr e)
+       else cond_loop rest (((k, neg), (x :: [])) :: acc)
+     | CList l ->
+       if Z.ltb max_sql_values (Z.of_nat (length l))
+       then LChunk (k, (chunks (Z.to_nat max_sql_values) l))
+       else if eqb1 k (String ((Ascii (false, true, false, false, true, true,
+                 true, false)), (String ((Ascii (true, true, true, true,
+                 false, true, true, false)), (String ((Ascii (true, true,
+                 true, false, true, true, true, false)), (String ((Ascii
+                 (true, false, false, true, false, false, true, false)),
+                 (String ((Ascii (false, false, true, false, false, false,
+                 true, false)), EmptyString))))))))))
+            then (match mapM rowid_shift l with
+                  | Ok l' -> cond_loop rest (((k, neg), l') :: acc)
+                  | Err e -> LErr e)
+            else cond_loop rest (((k, neg), l) :: acc))
+
+(** val total_vals : ((string * bool) * pv list) list -> z **)
+
+let total_vals cs =
+  fold_right (fun c n0 -> Z.add (Z.of_nat (length (snd c))) n0) Z0 cs
+
+(** val limit_error : conds -> string **)
+
+let rec limit_error = function
+| [] ->
+  String ((Ascii (false, true, true, false, true, false, true, false)),
+    (String ((Ascii (true, false, false, false, false, true, true, false)),
+    (String ((Ascii (false, false, true, true, false, true, true, false)),
+    (String ((Ascii (true, false, true, false, true, true, true, false)),
+    (String ((Ascii (true, false, true, false, false, true, true, false)),
+    (String ((Ascii (true, false, true, false, false, false, true, false)),
+    (String ((Ascii (false, true, false, false, true, true, true, false)),
+    (String ((Ascii (false, true, false, false, true, true, true, false)),
+    (String ((Ascii (true, true, true, true, false, true, true, false)),
+    (String ((Ascii (false, true, false, false, true, true, true, false)),
+    EmptyString)))))))))))))))))))
+| p :: t ->
+  let (_, c) = p in
+  (match c with
+   | CScalar v0 ->
+     (match v0 with
+      | PStr _ -> limit_error t
+      | _ ->
+        String ((Ascii (false, false, true, false, true, false, true,
+          false)), (String ((Ascii (true, false, false, true, true, true,
+          true, false)), (String ((Ascii (false, false, false, false, true,
+          true, true, false)), (String ((Ascii (true, false, true, false,
+          false, true, true, false)), (String ((Ascii (true, false, true,
+          false, false, false, true, false)), (String ((Ascii (false, true,
+          false, false, true, true, true, false)), (String ((Ascii (false,
+          true, false, false, true, true, true, false)), (String ((Ascii
+          (true, true, true, true, false, true, true, false)), (String
+          ((Ascii (false, true, false, false, true, true, true, false)),
+          EmptyString))))))))))))))))))
+   | CList _ -> limit_error t)
+
+(** val norm_cond : table0 -> ((string * bool) * pv list) -> scond res **)
+
+let norm_cond t = function
+| (p, vs) ->
+  let (k, neg) = p in
+  bind (resolve_name t k) (fun oc ->
+    match oc with
+    | Some cr ->
+      bind (mapM (cmp_operand (col_aff t cr)) vs) (fun vs' -> Ok ((cr, neg),
+        vs'))
+    | None ->
+      Err (String ((Ascii (true, true, false, false, true, true, true,
+        false)), (String ((Ascii (true, false, false, false, true, true,
+        true, false)), (String ((Ascii (false, false, true, true, false,
+        true, true, false)), (String ((Ascii (true, false, false, true,
+        false, true, true, false)), (String ((Ascii (false, false, true,
+        false, true, true, true, false)), (String ((Ascii (true, false, true,
+        false, false, true, true, false)), (String ((Ascii (true, true,
+        false, false, true, true, false, false)), (String ((Ascii (false,
+        true, true, true, false, true, false, false)), (String ((Ascii (true,
+        false, true, false, false, false, true, false)), (String ((Ascii
+        (false, true, false, false, true, true, true, false)), (String
+        ((Ascii (false, true, false, false, true, true, true, false)),
+        (String ((Ascii (true, true, true, true, false, true, true, false)),
+        (String ((Ascii (false, true, false, false, true, true, true,
+        false)), EmptyString)))))))))))))))))))))))))))
+
+(** val dec_at : nat -> row -> row **)
+
+let rec dec_at i = function
+| [] -> []
+| v0 :: t ->
+  (match i with
+   | O -> (match v0 with
+           | VInt z0 -> VInt (Z.sub z0 (Zpos XH))
+           | _ -> v0) :: t
+   | S j -> v0 :: (dec_at j t))
+
+(** val post : string -> row list -> pyv list res **)
+
+let post columns0 data = match data with
+| [] -> Ok []
+| r0 :: _ ->
+  bind
+    (if is_substring (String ((Ascii (false, true, false, false, true, true,
+          true, false)), (String ((Ascii (true, true, true, true, false,
+          true, true, false)), (String ((Ascii (true, true, true, false,
+          true, true, true, false)), (String ((Ascii (true, false, false,
+          true, false, false, true, false)), (String ((Ascii (false, false,
+          true, false, false, false, true, false)), EmptyString))))))))))
+          columns0
+     then (match index_of0 (String ((Ascii (false, true, false, false, true,
+                   true, true, false)), (String ((Ascii (true, true, true,
+                   true, false, true, true, false)), (String ((Ascii (true,
+                   true, true, false, true, true, true, false)), (String
+                   ((Ascii (true, false, false, true, false, false, true,
+                   false)), (String ((Ascii (false, false, true, false,
+                   false, false, true, false)), EmptyString))))))))))
+                   (map strip (split_comma columns0)) O with
+           | Some i -> Ok (map (dec_at i) data)
+           | None ->
+             Err (String ((Ascii (false, true, true, false, true, false,
+               true, false)), (String ((Ascii (true, false, false, false,
+               false, true, true, false)), (String ((Ascii (false, false,
+               true, true, false, true, true, false)), (String ((Ascii (true,
+               false, true, false, true, true, true, false)), (String ((Ascii
+               (true, false, true, false, false, true, true, false)), (String
+               ((Ascii (true, false, true, false, false, false, true,
+               false)), (String ((Ascii (false, true, false, false, true,
+               true, true, false)), (String ((Ascii (false, true, false,
+               false, true, true, true, false)), (String ((Ascii (true, true,
+               true, true, false, true, true, false)), (String ((Ascii
+               (false, true, false, false, true, true, true, false)),
+               EmptyString)))))))))))))))))))))
+     else Ok data) (fun data1 -> Ok
+    (if Nat.eqb (length r0) (S O)
+     then map (fun r -> PV (hd VNull r)) data1
+     else map (fun r -> PL (map (fun x -> PV x) r)) data1))
+
+(** val table_name_ok : string -> bool **)
+
+let table_name_ok =
+  plain_ident
+
+(** val get_model : nat -> db -> string -> string -> conds -> pyv list res **)
+
+let rec get_model fuel d columns0 tablename kw =
+  match fuel with
+  | O ->
+    Err (String ((Ascii (false, true, false, false, true, false, true,
+      false)), (String ((Ascii (true, false, true, false, false, true, true,
+      false)), (String ((Ascii (true, true, false, false, false, true, true,
+      false)), (String ((Ascii (true, false, true, false, true, true, true,
+      false)), (String ((Ascii (false, true, false, false, true, true, true,
+      false)), (String ((Ascii (true, true, false, false, true, true, true,
+      false)), (String ((Ascii (true, false, false, true, false, true, true,
+      false)), (String ((Ascii (true, true, true, true, false, true, true,
+      false)), (String ((Ascii (false, true, true, true, false, true, true,
+      false)), (String ((Ascii (true, false, true, false, false, false, true,
+      false)), (String ((Ascii (false, true, false, false, true, true, true,
+      false)), (String ((Ascii (false, true, false, false, true, true, true,
+      false)), (String ((Ascii (true, true, true, true, false, true, true,
+      false)), (String ((Ascii (false, true, false, false, true, true, true,
+      false)), EmptyString))))))))))))))))))))))))))))
+  | S f ->
+    if negb (table_name_ok tablename)
+    then out_of_model
+    else bind (valid_colnames d) (fun valid ->
+           bind (check_columns_get valid columns0) (fun _ ->
+             if (&&)
+                  (negb
+                    (has_key (String ((Ascii (true, false, true, true, false,
+                      true, true, false)), (String ((Ascii (true, true, true,
+                      true, false, true, true, false)), (String ((Ascii
+                      (false, false, true, false, false, true, true, false)),
+                      (String ((Ascii (true, false, true, false, false, true,
+                      true, false)), (String ((Ascii (false, false, true,
+                      true, false, true, true, false)), EmptyString))))))))))
+                      kw)) (Nat.ltb O d.nmodel)
+             then bind
+                    (mapM (fun i ->
+                      bind
+                        (get_model f d columns0 tablename
+                          (dict_set (String ((Ascii (true, false, true, true,
+                            false, true, true, false)), (String ((Ascii
+                            (true, true, true, true, false, true, true,
+                            false)), (String ((Ascii (false, false, true,
+                            false, false, true, true, false)), (String
+                            ((Ascii (true, false, true, false, false, true,
+                            true, false)), (String ((Ascii (false, false,
+                            true, true, false, true, true, false)),
+                            EmptyString)))))))))) (CScalar (PInt
+                            (Z.of_nat i))) kw)) (fun o -> Ok (PL o)))
+                      (seq O d.nmodel)) (fun l -> Ok l)
+             else let ot = find_table tablename d.tables in
+                  (match kw with
+                   | [] ->
+                     (match ot with
+                      | Some t ->
+                        bind (sel_list t columns0) (fun sel ->
+                          post columns0 (sql_select t sel []))
+                      | None ->
+                        Err (String ((Ascii (true, true, false, false, true,
+                          true, true, false)), (String ((Ascii (true, false,
+                          false, false, true, true, true, false)), (String
+                          ((Ascii (false, false, true, true, false, true,
+                          true, false)), (String ((Ascii (true, false, false,
+                          true, false, true, true, false)), (String ((Ascii
+                          (false, false, true, false, true, true, true,
+                          false)), (String ((Ascii (true, false, true, false,
+                          false, true, true, false)), (String ((Ascii (true,
+                          true, false, false, true, true, false, false)),
+                          (String ((Ascii (false, true, true, true, false,
+                          true, false, false)), (String ((Ascii (true, false,
+                          true, false, false, false, true, false)), (String
+                          ((Ascii (false, true, false, false, true, true,
+                          true, false)), (String ((Ascii (false, true, false,
+                          false, true, true, true, false)), (String ((Ascii
+                          (true, true, true, true, false, true, true,
+                          false)), (String ((Ascii (false, true, false,
+                          false, true, true, true, false)),
+                          EmptyString)))))))))))))))))))))))))))
+                   | _ :: _ ->
+                     bind (check_keys ot kw) (fun _ ->
+                       match ot with
+                       | Some t ->
+                         (match cond_loop kw [] with
+                          | LErr e -> Err e
+                          | LChunk (k, cs) ->
+                            bind
+                              (mapM (fun c ->
+                                get_model f d columns0 tablename
+                                  (dict_set k (CList c) kw)) cs)
+                              (fun parts -> Ok (concat parts))
+                          | LDone cs ->
+                            if Z.ltb sql_limit (total_vals cs)
+                            then Err (limit_error kw)
+                            else bind (mapM (norm_cond t) cs) (fun scs ->
+                                   bind (sel_list t columns0) (fun sel ->
+                                     post columns0 (sql_select t sel scs))))
+                       | None ->
+                         Err (String ((Ascii (false, true, true, false, true,
+                           false, true, false)), (String ((Ascii (true,
+                           false, false, false, false, true, true, false)),
+                           (String ((Ascii (false, false, true, true, false,
+                           true, true, false)), (String ((Ascii (true, false,
+                           true, false, true, true, true, false)), (String
+                           ((Ascii (true, false, true, false, false, true,
+                           true, false)), (String ((Ascii (true, false, true,
+                           false, false, false, true, false)), (String
+                           ((Ascii (false, true, false, false, true, true,
+                           true, false)), (String ((Ascii (false, true,
+                           false, false, true, true, true, false)), (String
+                           ((Ascii (true, true, true, true, false, true,
+                           true, false)), (String ((Ascii (false, true,
+                           false, false, true, true, true, false)),
+                           EmptyString))))))))))))))))))))))))
+
+(** val get_fuel : conds -> nat **)
+
+let get_fuel kw =
+  add (length kw) (S (S (S O)))
+
+(** val get_top : db -> string -> string -> conds -> pyv list res **)
+
+let get_top d columns0 tablename kw =
+  get_model (get_fuel kw) d columns0 tablename kw
+
+(** val store_cells : table0 -> nat list -> pv list -> row -> row res **)
+
+let rec store_cells t cis vals r =
+  match cis with
+  | [] -> Ok r
+  | ci :: cis' ->
+    (match vals with
+     | [] -> Ok r
+     | v0 :: vals' ->
+       bind (store_val (col_aff t (CCol ci)) v0) (fun x ->
+         store_cells t cis' vals' (set_nth ci x r)))
+
+(** val rid_index : z -> nat option **)
+
+let rid_index rid =
+  if Z.ltb Z0 rid then Some (Z.to_nat (Z.sub rid (Zpos XH))) else None
+
+(** val exec_many :
+    table0 -> nat list -> (pv list * z) list -> table0 * string option **)
+
+let rec exec_many t cis = function
+| [] -> (t, None)
+| p :: rest ->
+  let (vals, rid) = p in
+  if negb (Nat.eqb (length vals) (length cis))
+  then (t, (Some (String ((Ascii (true, true, false, false, true, true, true,
+         false)), (String ((Ascii (true, false, false, false, true, true,
+         true, false)), (String ((Ascii (false, false, true, true, false,
+         true, true, false)), (String ((Ascii (true, false, false, true,
+         false, true, true, false)), (String ((Ascii (false, false, true,
+         false, true, true, true, false)), (String ((Ascii (true, false,
+         true, false, false, true, true, false)), (String ((Ascii (true,
+         true, false, false, true, true, false, false)), (String ((Ascii
+         (false, true, true, true, false, true, false, false)), (String
+         ((Ascii (true, false, true, false, false, false, true, false)),
+         (String ((Ascii (false, true, false, false, true, true, true,
+         false)), (String ((Ascii (false, true, false, false, true, true,
+         true, false)), (String ((Ascii (true, true, true, true, false, true,
+         true, false)), (String ((Ascii (false, true, false, false, true,
+         true, true, false)), EmptyString))))))))))))))))))))))))))))
+  else (match rid_index rid with
+        | Some i ->
+          (match nth_error t.trows i with
+           | Some r ->
+             (match store_cells t cis vals r with
+              | Ok r' ->
+                exec_many { tcols = t.tcols; trows = (set_nth i r' t.trows) }
+                  cis rest
+              | Err e -> (t, (Some e)))
+           | None -> exec_many t cis rest)
+        | None -> exec_many t cis rest)
+
+(** val set_list : table0 -> string list -> nat list res **)
+
+let set_list t cols =
+  if negb (nodup_str cols)
+  then out_of_model
+  else mapM (fun c ->
+         if eqb1 c (String ((Ascii (false, true, false, true, false, true,
+              false, false)), EmptyString))
+         then Err (String ((Ascii (true, true, false, false, true, true,
+                true, false)), (String ((Ascii (true, false, false, false,
+                true, true, true, false)), (String ((Ascii (false, false,
+                true, true, false, true, true, false)), (String ((Ascii
+                (true, false, false, true, false, true, true, false)),
+                (String ((Ascii (false, false, true, false, true, true, true,
+                false)), (String ((Ascii (true, false, true, false, false,
+                true, true, false)), (String ((Ascii (true, true, false,
+                false, true, true, false, false)), (String ((Ascii (false,
+                true, true, true, false, true, false, false)), (String
+                ((Ascii (true, false, true, false, false, false, true,
+                false)), (String ((Ascii (false, true, false, false, true,
+                true, true, false)), (String ((Ascii (false, true, false,
+                false, true, true, true, false)), (String ((Ascii (true,
+                true, true, true, false, true, true, false)), (String ((Ascii
+                (false, true, false, false, true, true, true, false)),
+                EmptyString))))))))))))))))))))))))))
+         else bind (resolve_name t c) (fun oc ->
+                match oc with
+                | Some c0 ->
+                  (match c0 with
+                   | CRowid -> out_of_model
+                   | CCol i -> Ok i)
+                | None ->
+                  Err (String ((Ascii (true, true, false, false, true, true,
+                    true, false)), (String ((Ascii (true, false, false,
+                    false, true, true, true, false)), (String ((Ascii (false,
+                    false, true, true, false, true, true, false)), (String
+                    ((Ascii (true, false, false, true, false, true, true,
+                    false)), (String ((Ascii (false, false, true, false,
+                    true, true, true, false)), (String ((Ascii (true, false,
+                    true, false, false, true, true, false)), (String ((Ascii
+                    (true, true, false, false, true, true, false, false)),
+                    (String ((Ascii (false, true, true, true, false, true,
+                    false, false)), (String ((Ascii (true, false, true,
+                    false, false, false, true, false)), (String ((Ascii
+                    (false, true, false, false, true, true, true, false)),
+                    (String ((Ascii (false, true, false, false, true, true,
+                    true, false)), (String ((Ascii (true, true, true, true,
+                    false, true, true, false)), (String ((Ascii (false, true,
+                    false, false, true, true, true, false)),
+                    EmptyString)))))))))))))))))))))))))))) cols
+
+type uval =
+| URow of pv list
+| UStr of string
+| UScalar of pv
+
+(** val chars_of : string -> pv list **)
+
+let rec chars_of = function
+| EmptyString -> []
+| String (c, t) -> (PStr (String (c, EmptyString))) :: (chars_of t)
+
+(** val uval_len : uval -> nat res **)
+
+let uval_len = function
+| URow l -> Ok (length l)
+| UStr s -> Ok (length0 s)
+| UScalar _ ->
+  Err (String ((Ascii (false, false, true, false, true, false, true, false)),
+    (String ((Ascii (true, false, false, true, true, true, true, false)),
+    (String ((Ascii (false, false, false, false, true, true, true, false)),
+    (String ((Ascii (true, false, true, false, false, true, true, false)),
+    (String ((Ascii (true, false, true, false, false, false, true, false)),
+    (String ((Ascii (false, true, false, false, true, true, true, false)),
+    (String ((Ascii (false, true, false, false, true, true, true, false)),
+    (String ((Ascii (true, true, true, true, false, true, true, false)),
+    (String ((Ascii (false, true, false, false, true, true, true, false)),
+    EmptyString))))))))))))))))))
+
+(** val uval_items : uval -> pv list res **)
+
+let uval_items = function
+| URow l -> Ok l
+| UStr s -> Ok (chars_of s)
+| UScalar _ ->
+  Err (String ((Ascii (false, false, true, false, true, false, true, false)),
+    (String ((Ascii (true, false, false, true, true, true, true, false)),
+    (String ((Ascii (false, false, false, false, true, true, true, false)),
+    (String ((Ascii (true, false, true, false, false, true, true, false)),
+    (String ((Ascii (true, false, true, false, false, false, true, false)),
+    (String ((Ascii (false, true, false, false, true, true, true, false)),
+    (String ((Ascii (false, true, false, false, true, true, true, false)),
+    (String ((Ascii (true, true, true, true, false, true, true, false)),
+    (String ((Ascii (false, true, false, false, true, true, true, false)),
+    EmptyString))))))))))))))))))
+
+type ures = db * string option
+
+(** val int_of_val : pyv -> z res **)
+
+let int_of_val = function
+| PV v1 -> (match v1 with
+            | VInt z0 -> Ok z0
+            | _ -> out_of_model)
+| PL _ -> out_of_model
+
+(** val update_model :
+    nat -> db -> string -> uval list -> string -> conds -> ures **)
+
+let rec update_model fuel d columns0 values tablename kw =
+  match fuel with
+  | O ->
+    (d, (Some (String ((Ascii (false, true, false, false, true, false, true,
+      false)), (String ((Ascii (true, false, true, false, false, true, true,
+      false)), (String ((Ascii (true, true, false, false, false, true, true,
+      false)), (String ((Ascii (true, false, true, false, true, true, true,
+      false)), (String ((Ascii (false, true, false, false, true, true, true,
+      false)), (String ((Ascii (true, true, false, false, true, true, true,
+      false)), (String ((Ascii (true, false, false, true, false, true, true,
+      false)), (String ((Ascii (true, true, true, true, false, true, true,
+      false)), (String ((Ascii (false, true, true, true, false, true, true,
+      false)), (String ((Ascii (true, false, true, false, false, false, true,
+      false)), (String ((Ascii (false, true, false, false, true, true, true,
+      false)), (String ((Ascii (false, true, false, false, true, true, true,
+      false)), (String ((Ascii (true, true, true, true, false, true, true,
+      false)), (String ((Ascii (false, true, false, false, true, true, true,
+      false)), EmptyString))))))))))))))))))))))))))))))
+  | S f ->
+    if negb (table_name_ok tablename)
+    then (d, (Some (String ((Ascii (true, true, true, true, false, false,
+           true, false)), (String ((Ascii (true, false, true, false, true,
+           true, true, false)), (String ((Ascii (false, false, true, false,
+           true, true, true, false)), (String ((Ascii (true, true, true,
+           true, false, false, true, false)), (String ((Ascii (false, true,
+           true, false, false, true, true, false)), (String ((Ascii (true,
+           false, true, true, false, false, true, false)), (String ((Ascii
+           (true, true, true, true, false, true, true, false)), (String
+           ((Ascii (false, false, true, false, false, true, true, false)),
+           (String ((Ascii (true, false, true, false, false, true, true,
+           false)), (String ((Ascii (false, false, true, true, false, true,
+           true, false)), EmptyString))))))))))))))))))))))
+    else (match valid_colnames d with
+          | Ok valid ->
+            if (&&)
+                 (negb
+                   (eqb1 columns0 (String ((Ascii (false, true, false, true,
+                     false, true, false, false)), EmptyString))))
+                 (negb
+                   (forallb (fun i -> mem_str i valid) (split_comma columns0)))
+            then (d, (Some (String ((Ascii (false, true, true, false, true,
+                   false, true, false)), (String ((Ascii (true, false, false,
+                   false, false, true, true, false)), (String ((Ascii (false,
+                   false, true, true, false, true, true, false)), (String
+                   ((Ascii (true, false, true, false, true, true, true,
+                   false)), (String ((Ascii (true, false, true, false, false,
+                   true, true, false)), (String ((Ascii (true, false, true,
+                   false, false, false, true, false)), (String ((Ascii
+                   (false, true, false, false, true, true, true, false)),
+                   (String ((Ascii (false, true, false, false, true, true,
+                   true, false)), (String ((Ascii (true, true, true, true,
+                   false, true, true, false)), (String ((Ascii (false, true,
+                   false, false, true, true, true, false)),
+                   EmptyString))))))))))))))))))))))
+            else if (&&)
+                      (negb
+                        (has_key (String ((Ascii (true, false, true, true,
+                          false, true, true, false)), (String ((Ascii (true,
+                          true, true, true, false, true, true, false)),
+                          (String ((Ascii (false, false, true, false, false,
+                          true, true, false)), (String ((Ascii (true, false,
+                          true, false, false, true, true, false)), (String
+                          ((Ascii (false, false, true, true, false, true,
+                          true, false)), EmptyString)))))))))) kw))
+                      (Nat.ltb O d.nmodel)
+                 then fold_left (fun st i ->
+                        let (d1, o) = st in
+                        (match o with
+                         | Some e -> (d1, (Some e))
+                         | None ->
+                           update_model f d1 columns0 values tablename
+                             (dict_set (String ((Ascii (true, false, true,
+                               true, false, true, true, false)), (String
+                               ((Ascii (true, true, true, true, false, true,
+                               true, false)), (String ((Ascii (false, false,
+                               true, false, false, true, true, false)),
+                               (String ((Ascii (true, false, true, false,
+                               false, true, true, false)), (String ((Ascii
+                               (false, false, true, true, false, true, true,
+                               false)), EmptyString)))))))))) (CScalar (PInt
+                               (Z.of_nat i))) kw))) (seq O d.nmodel) (d, None)
+                 else let cols =
+                        if has_char (Ascii (false, false, true, true, false,
+                             true, false, false)) columns0
+                        then split_comma columns0
+                        else columns0 :: []
+                      in
+                      (match values with
+                       | [] ->
+                         (d, (Some (String ((Ascii (true, false, false, true,
+                           false, false, true, false)), (String ((Ascii
+                           (false, true, true, true, false, true, true,
+                           false)), (String ((Ascii (false, false, true,
+                           false, false, true, true, false)), (String ((Ascii
+                           (true, false, true, false, false, true, true,
+                           false)), (String ((Ascii (false, false, false,
+                           true, true, true, true, false)), (String ((Ascii
+                           (true, false, true, false, false, false, true,
+                           false)), (String ((Ascii (false, true, false,
+                           false, true, true, true, false)), (String ((Ascii
+                           (false, true, false, false, true, true, true,
+                           false)), (String ((Ascii (true, true, true, true,
+                           false, true, true, false)), (String ((Ascii
+                           (false, true, false, false, true, true, true,
+                           false)), EmptyString))))))))))))))))))))))
+                       | v0 :: _ ->
+                         (match uval_len v0 with
+                          | Ok ncol ->
+                            if negb (Nat.eqb (length cols) ncol)
+                            then (d, (Some (String ((Ascii (false, true,
+                                   true, false, true, false, true, false)),
+                                   (String ((Ascii (true, false, false,
+                                   false, false, true, true, false)), (String
+                                   ((Ascii (false, false, true, true, false,
+                                   true, true, false)), (String ((Ascii
+                                   (true, false, true, false, true, true,
+                                   true, false)), (String ((Ascii (true,
+                                   false, true, false, false, true, true,
+                                   false)), (String ((Ascii (true, false,
+                                   true, false, false, false, true, false)),
+                                   (String ((Ascii (false, true, false,
+                                   false, true, true, true, false)), (String
+                                   ((Ascii (false, true, false, false, true,
+                                   true, true, false)), (String ((Ascii
+                                   (true, true, true, true, false, true,
+                                   true, false)), (String ((Ascii (false,
+                                   true, false, false, true, true, true,
+                                   false)), EmptyString))))))))))))))))))))))
+                            else (match get_model (get_fuel kw) d (String
+                                          ((Ascii (false, true, false, false,
+                                          true, true, true, false)), (String
+                                          ((Ascii (true, true, true, true,
+                                          false, true, true, false)), (String
+                                          ((Ascii (true, true, true, false,
+                                          true, true, true, false)), (String
+                                          ((Ascii (true, false, false, true,
+                                          false, false, true, false)),
+                                          (String ((Ascii (false, false,
+                                          true, false, false, false, true,
+                                          false)), EmptyString))))))))))
+                                          tablename kw with
+                                  | Ok rowID ->
+                                    if negb
+                                         (Nat.eqb (length rowID)
+                                           (length values))
+                                    then (d, (Some (String ((Ascii (false,
+                                           true, true, false, true, false,
+                                           true, false)), (String ((Ascii
+                                           (true, false, false, false, false,
+                                           true, true, false)), (String
+                                           ((Ascii (false, false, true, true,
+                                           false, true, true, false)),
+                                           (String ((Ascii (true, false,
+                                           true, false, true, true, true,
+                                           false)), (String ((Ascii (true,
+                                           false, true, false, false, true,
+                                           true, false)), (String ((Ascii
+                                           (true, false, true, false, false,
+                                           false, true, false)), (String
+                                           ((Ascii (false, true, false,
+                                           false, true, true, true, false)),
+                                           (String ((Ascii (false, true,
+                                           false, false, true, true, true,
+                                           false)), (String ((Ascii (true,
+                                           true, true, true, false, true,
+                                           true, false)), (String ((Ascii
+                                           (false, true, false, false, true,
+                                           true, true, false)),
+                                           EmptyString))))))))))))))))))))))
+                                    else (match mapM uval_items values with
+                                          | Ok items ->
+                                            (match mapM int_of_val rowID with
+                                             | Ok rids ->
+                                               (match find_table tablename
+                                                        d.tables with
+                                                | Some t ->
+                                                  (match set_list t cols with
+                                                   | Ok cis ->
+                                                     let (t', e) =
+                                                       exec_many t cis
+                                                         (combine items
+                                                           (map (fun z0 ->
+                                                             Z.add z0 (Zpos
+                                                               XH)) rids))
+                                                     in
+                                                     ({ tables =
+                                                     (set_table tablename t'
+                                                       d.tables); nmodel =
+                                                     d.nmodel }, e)
+                                                   | Err e -> (d, (Some e)))
+                                                | None ->
+                                                  (d, (Some (String ((Ascii
+                                                    (true, true, false,
+                                                    false, true, true, true,
+                                                    false)), (String ((Ascii
+                                                    (true, false, false,
+                                                    false, true, true, true,
+                                                    false)), (String ((Ascii
+                                                    (false, false, true,
+                                                    true, false, true, true,
+                                                    false)), (String ((Ascii
+                                                    (true, false, false,
+                                                    true, false, true, true,
+                                                    false)), (String ((Ascii
+                                                    (false, false, true,
+                                                    false, true, true, true,
+                                                    false)), (String ((Ascii
+                                                    (true, false, true,
+                                                    false, false, true, true,
+                                                    false)), (String ((Ascii
+                                                    (true, true, false,
+                                                    false, true, true, false,
+                                                    false)), (String ((Ascii
+                                                    (false, true, true, true,
+                                                    false, true, false,
+                                                    false)), (String ((Ascii
+                                                    (true, false, true,
+                                                    false, false, false,
+                                                    true, false)), (String
+                                                    ((Ascii (false, true,
+                                                    false, false, true, true,
+                                                    true, false)), (String
+                                                    ((Ascii (false, true,
+                                                    false, false, true, true,
+                                                    true, false)), (String
+                                                    ((Ascii (true, true,
+                                                    true, true, false, true,
+                                                    true, false)), (String
+                                                    ((Ascii (false, true,
+                                                    false, false, true, true,
+                                                    true, false)),
+                                                    EmptyString)))))))))))))))))))))))))))))
+                                             | Err e -> (d, (Some e)))
+                                          | Err e -> (d, (Some e)))
+                                  | Err e -> (d, (Some e)))
+                          | Err e -> (d, (Some e))))
+          | Err e -> (d, (Some e)))
+
+(** val update_top : db -> string -> uval list -> string -> conds -> ures **)
+
+let update_top d columns0 values tablename kw =
+  update_model (S (S O)) d columns0 values tablename kw
+
+(** val update_xyz_top : db -> uval list -> string -> conds -> ures **)
+
+let update_xyz_top d xyz tablename kw =
+  update_top d (String ((Ascii (false, false, false, true, true, true, true,
+    false)), (String ((Ascii (false, false, true, true, false, true, false,
+    false)), (String ((Ascii (true, false, false, true, true, true, true,
+    false)), (String ((Ascii (false, false, true, true, false, true, false,
+    false)), (String ((Ascii (false, true, false, true, true, true, true,
+    false)), EmptyString)))))))))) xyz tablename kw
+
+(** val index_val : pv -> z res **)
+
+let index_val = function
+| PInt z0 -> Ok (Z.add z0 (Zpos XH))
+| _ -> out_of_model
+
+(** val zip_idx : pv list -> pv list -> (pv list * z) list res **)
+
+let rec zip_idx values index =
+  match values with
+  | [] -> Ok []
+  | v0 :: vs ->
+    (match index with
+     | [] -> Ok []
+     | i :: is_ ->
+       bind (index_val i) (fun z0 ->
+         bind (zip_idx vs is_) (fun r -> Ok (((v0 :: []), z0) :: r))))
+
+(** val enum_idx : pv list -> z -> (pv list * z) list **)
+
+let rec enum_idx values i =
+  match values with
+  | [] -> []
+  | v0 :: vs ->
+    ((v0 :: []), (Z.add i (Zpos XH))) :: (enum_idx vs (Z.add i (Zpos XH)))
+
+(** val update_column_model :
+    db -> string -> pv list -> pv list option -> string -> ures **)
+
+let update_column_model d colname values index tablename =
+  if negb (table_name_ok tablename)
+  then (d, (Some (String ((Ascii (true, true, true, true, false, false, true,
+         false)), (String ((Ascii (true, false, true, false, true, true,
+         true, false)), (String ((Ascii (false, false, true, false, true,
+         true, true, false)), (String ((Ascii (true, true, true, true, false,
+         false, true, false)), (String ((Ascii (false, true, true, false,
+         false, true, true, false)), (String ((Ascii (true, false, true,
+         true, false, false, true, false)), (String ((Ascii (true, true,
+         true, true, false, true, true, false)), (String ((Ascii (false,
+         false, true, false, false, true, true, false)), (String ((Ascii
+         (true, false, true, false, false, true, true, false)), (String
+         ((Ascii (false, false, true, true, false, true, true, false)),
+         EmptyString))))))))))))))))))))))
+  else (match match index with
+              | Some ix -> zip_idx values ix
+              | None -> Ok (enum_idx values Z0) with
+        | Ok data ->
+          (match find_table tablename d.tables with
+           | Some t ->
+             (match set_list t (colname :: []) with
+              | Ok cis ->
+                let (t', e) = exec_many t cis data in
+                ({ tables = (set_table tablename t' d.tables); nmodel =
+                d.nmodel }, e)
+              | Err e -> (d, (Some e)))
+           | None ->
+             (d, (Some (String ((Ascii (true, true, false, false, true, true,
+               true, false)), (String ((Ascii (true, false, false, false,
+               true, true, true, false)), (String ((Ascii (false, false,
+               true, true, false, true, true, false)), (String ((Ascii (true,
+               false, false, true, false, true, true, false)), (String
+               ((Ascii (false, false, true, false, true, true, true, false)),
+               (String ((Ascii (true, false, true, false, false, true, true,
+               false)), (String ((Ascii (true, true, false, false, true,
+               true, false, false)), (String ((Ascii (false, true, true,
+               true, false, true, false, false)), (String ((Ascii (true,
+               false, true, false, false, false, true, false)), (String
+               ((Ascii (false, true, false, false, true, true, true, false)),
+               (String ((Ascii (false, true, false, false, true, true, true,
+               false)), (String ((Ascii (true, true, true, true, false, true,
+               true, false)), (String ((Ascii (false, true, false, false,
+               true, true, true, false)),
+               EmptyString)))))))))))))))))))))))))))))
+        | Err e -> (d, (Some e)))
+
+(** val default_literal : pv -> pv res **)
+
+let default_literal = function
+| PStr s ->
+  if plain_ident s
+  then Ok (PStr s)
+  else if (&&) ((&&) (str_nonempty s) (all_digits s))
+            (Nat.leb (length0 s) (S (S (S (S (S (S (S (S (S (S (S (S (S (S (S
+              O))))))))))))))))
+       then Ok (PInt (digits_val Z0 s))
+       else out_of_model
+| PNone ->
+  Ok (PStr (String ((Ascii (false, true, true, true, false, false, true,
+    false)), (String ((Ascii (true, true, true, true, false, true, true,
+    false)), (String ((Ascii (false, true, true, true, false, true, true,
+    false)), (String ((Ascii (true, false, true, false, false, true, true,
+    false)), EmptyString)))))))))
+| x -> Ok x
+
+(** val add_column_model : db -> string -> string -> pv -> string -> ures **)
+
+let add_column_model d colname coltype value tablename =
+  if negb
+       ((&&)
+         ((&&) ((&&) (table_name_ok tablename) (plain_ident colname))
+           (negb (is_rowid_alias colname)))
+         ((||) (eqb1 coltype EmptyString) (plain_ident coltype)))
+  then (d, (Some (String ((Ascii (true, true, true, true, false, false, true,
+         false)), (String ((Ascii (true, false, true, false, true, true,
+         true, false)), (String ((Ascii (false, false, true, false, true,
+         true, true, false)), (String ((Ascii (true, true, true, true, false,
+         false, true, false)), (String ((Ascii (false, true, true, false,
+         false, true, true, false)), (String ((Ascii (true, false, true,
+         true, false, false, true, false)), (String ((Ascii (true, true,
+         true, true, false, true, true, false)), (String ((Ascii (false,
+         false, true, false, false, true, true, false)), (String ((Ascii
+         (true, false, true, false, false, true, true, false)), (String
+         ((Ascii (false, false, true, true, false, true, true, false)),
+         EmptyString))))))))))))))))))))))
+  else (match find_table tablename d.tables with
+        | Some t ->
+          (match find_ci colname t.tcols O with
+           | Some _ ->
+             (d, (Some (String ((Ascii (true, true, false, false, true, true,
+               true, false)), (String ((Ascii (true, false, false, false,
+               true, true, true, false)), (String ((Ascii (false, false,
+               true, true, false, true, true, false)), (String ((Ascii (true,
+               false, false, true, false, true, true, false)), (String
+               ((Ascii (false, false, true, false, true, true, true, false)),
+               (String ((Ascii (true, false, true, false, false, true, true,
+               false)), (String ((Ascii (true, true, false, false, true,
+               true, false, false)), (String ((Ascii (false, true, true,
+               true, false, true, false, false)), (String ((Ascii (true,
+               false, true, false, false, false, true, false)), (String
+               ((Ascii (false, true, false, false, true, true, true, false)),
+               (String ((Ascii (false, true, false, false, true, true, true,
+               false)), (String ((Ascii (true, true, true, true, false, true,
+               true, false)), (String ((Ascii (false, true, false, false,
+               true, true, true, false)),
+               EmptyString))))))))))))))))))))))))))))
+           | None ->
+             (match bind (default_literal value) (fun lit ->
+                      default_store (affinity_of_decl coltype) lit) with
+              | Ok x ->
+                let t' = { tcols = (app t.tcols ((colname, coltype) :: []));
+                  trows = (map (fun r -> app r (x :: [])) t.trows) }
+                in
+                ({ tables = (set_table tablename t' d.tables); nmodel =
+                d.nmodel }, None)
+              | Err e -> (d, (Some e))))
+        | None ->
+          (d, (Some (String ((Ascii (true, true, false, false, true, true,
+            true, false)), (String ((Ascii (true, false, false, false, true,
+            true, true, false)), (String ((Ascii (false, false, true, true,
+            false, true, true, false)), (String ((Ascii (true, false, false,
+            true, false, true, true, false)), (String ((Ascii (false, false,
+            true, false, true, true, true, false)), (String ((Ascii (true,
+            false, true, false, false, true, true, false)), (String ((Ascii
+            (true, true, false, false, true, true, false, false)), (String
+            ((Ascii (false, true, true, true, false, true, false, false)),
+            (String ((Ascii (true, false, true, false, false, false, true,
+            false)), (String ((Ascii (false, true, false, false, true, true,
+            true, false)), (String ((Ascii (false, true, false, false, true,
+            true, true, false)), (String ((Ascii (true, true, true, true,
+            false, true, true, false)), (String ((Ascii (false, true, false,
+            false, true, true, true, false)),
+            EmptyString)))))))))))))))))))))))))))))
+
+(** val str_leb : string -> string -> bool **)
+
+let rec str_leb a0 b =
+  match a0 with
+  | EmptyString -> true
+  | String (x, s) ->
+    (match b with
+     | EmptyString -> false
+     | String (y, t) ->
+       if Nat.ltb (nat_of_ascii x) (nat_of_ascii y)
+       then true
+       else if Nat.ltb (nat_of_ascii y) (nat_of_ascii x)
+            then false
+            else str_leb s t)
+
+(** val text_of0 : pyv -> string res **)
+
+let text_of0 = function
+| PV v1 -> (match v1 with
+            | VText s -> Ok s
+            | _ -> out_of_model)
+| PL _ -> out_of_model
+
+(** val sorted_set : string list -> string list **)
+
+let sorted_set l =
+  sort_by str_leb (dedup_keep_first eqb1 l)
+
+(** val upper_letters : string list **)
+
+let upper_letters =
+  (String ((Ascii (true, false, false, false, false, false, true, false)),
+    EmptyString)) :: ((String ((Ascii (false, true, false, false, false,
+    false, true, false)), EmptyString)) :: ((String ((Ascii (true, true,
+    false, false, false, false, true, false)), EmptyString)) :: ((String
+    ((Ascii (false, false, true, false, false, false, true, false)),
+    EmptyString)) :: ((String ((Ascii (true, false, true, false, false,
+    false, true, false)), EmptyString)) :: ((String ((Ascii (false, true,
+    true, false, false, false, true, false)), EmptyString)) :: ((String
+    ((Ascii (true, true, true, false, false, false, true, false)),
+    EmptyString)) :: ((String ((Ascii (false, false, false, true, false,
+    false, true, false)), EmptyString)) :: ((String ((Ascii (true, false,
+    false, true, false, false, true, false)), EmptyString)) :: ((String
+    ((Ascii (false, true, false, true, false, false, true, false)),
+    EmptyString)) :: ((String ((Ascii (true, true, false, true, false, false,
+    true, false)), EmptyString)) :: ((String ((Ascii (false, false, true,
+    true, false, false, true, false)), EmptyString)) :: ((String ((Ascii
+    (true, false, true, true, false, false, true, false)),
+    EmptyString)) :: ((String ((Ascii (false, true, true, true, false, false,
+    true, false)), EmptyString)) :: ((String ((Ascii (true, true, true, true,
+    false, false, true, false)), EmptyString)) :: ((String ((Ascii (false,
+    false, false, false, true, false, true, false)),
+    EmptyString)) :: ((String ((Ascii (true, false, false, false, true,
+    false, true, false)), EmptyString)) :: ((String ((Ascii (false, true,
+    false, false, true, false, true, false)), EmptyString)) :: ((String
+    ((Ascii (true, true, false, false, true, false, true, false)),
+    EmptyString)) :: ((String ((Ascii (false, false, true, false, true,
+    false, true, false)), EmptyString)) :: ((String ((Ascii (true, false,
+    true, false, true, false, true, false)), EmptyString)) :: ((String
+    ((Ascii (false, true, true, false, true, false, true, false)),
+    EmptyString)) :: ((String ((Ascii (true, true, true, false, true, false,
+    true, false)), EmptyString)) :: ((String ((Ascii (false, false, false,
+    true, true, false, true, false)), EmptyString)) :: ((String ((Ascii
+    (true, false, false, true, true, false, true, false)),
+    EmptyString)) :: ((String ((Ascii (false, true, false, true, true, false,
+    true, false)), EmptyString)) :: [])))))))))))))))))))))))))
+
+(** val fix_fill :
+    db -> string list -> string list -> pv list -> pv list res **)
+
+let rec fix_fill d chains letters newID =
+  match chains with
+  | [] -> Ok newID
+  | c :: cs ->
+    (match letters with
+     | [] -> Ok newID
+     | l :: ls ->
+       bind
+         (get_top d (String ((Ascii (false, true, false, false, true, true,
+           true, false)), (String ((Ascii (true, true, true, true, false,
+           true, true, false)), (String ((Ascii (true, true, true, false,
+           true, true, true, false)), (String ((Ascii (true, false, false,
+           true, false, false, true, false)), (String ((Ascii (false, false,
+           true, false, false, false, true, false)), EmptyString))))))))))
+           (String ((Ascii (true, false, false, false, false, false, true,
+           false)), (String ((Ascii (false, false, true, false, true, false,
+           true, false)), (String ((Ascii (true, true, true, true, false,
+           false, true, false)), (String ((Ascii (true, false, true, true,
+           false, false, true, false)), EmptyString)))))))) (((String ((Ascii
+           (true, true, false, false, false, true, true, false)), (String
+           ((Ascii (false, false, false, true, false, true, true, false)),
+           (String ((Ascii (true, false, false, false, false, true, true,
+           false)), (String ((Ascii (true, false, false, true, false, true,
+           true, false)), (String ((Ascii (false, true, true, true, false,
+           true, true, false)), (String ((Ascii (true, false, false, true,
+           false, false, true, false)), (String ((Ascii (false, false, true,
+           false, false, false, true, false)), EmptyString)))))))))))))),
+           (CScalar (PStr c))) :: [])) (fun index ->
+         bind (mapM int_of_val index) (fun idx ->
+           fix_fill d cs ls
+             (fold_left (fun acc z0 -> set_nth (Z.to_nat z0) (PStr l) acc)
+               idx newID))))
+
+(** val fix_chainID_model : db -> ures **)
+
+let fix_chainID_model d =
+  if Nat.ltb O d.nmodel
+  then (d, (Some (String ((Ascii (true, true, true, true, false, false, true,
+         false)), (String ((Ascii (true, false, true, false, true, true,
+         true, false)), (String ((Ascii (false, false, true, false, true,
+         true, true, false)), (String ((Ascii (true, true, true, true, false,
+         false, true, false)), (String ((Ascii (false, true, true, false,
+         false, true, true, false)), (String ((Ascii (true, false, true,
+         true, false, false, true, false)), (String ((Ascii (true, true,
+         true, true, false, true, true, false)), (String ((Ascii (false,
+         false, true, false, false, true, true, false)), (String ((Ascii
+         (true, false, true, false, false, true, true, false)), (String
+         ((Ascii (false, false, true, true, false, true, true, false)),
+         EmptyString))))))))))))))))))))))
+  else (match bind
+                (get_top d (String ((Ascii (true, true, false, false, false,
+                  true, true, false)), (String ((Ascii (false, false, false,
+                  true, false, true, true, false)), (String ((Ascii (true,
+                  false, false, false, false, true, true, false)), (String
+                  ((Ascii (true, false, false, true, false, true, true,
+                  false)), (String ((Ascii (false, true, true, true, false,
+                  true, true, false)), (String ((Ascii (true, false, false,
+                  true, false, false, true, false)), (String ((Ascii (false,
+                  false, true, false, false, false, true, false)),
+                  EmptyString)))))))))))))) (String ((Ascii (true, false,
+                  false, false, false, false, true, false)), (String ((Ascii
+                  (false, false, true, false, true, false, true, false)),
+                  (String ((Ascii (true, true, true, true, false, false,
+                  true, false)), (String ((Ascii (true, false, true, true,
+                  false, false, true, false)), EmptyString)))))))) [])
+                (fun ch -> mapM text_of0 ch) with
+        | Ok chainID ->
+          let natom = length chainID in
+          let chains = sorted_set chainID in
+          if Nat.ltb (S (S (S (S (S (S (S (S (S (S (S (S (S (S (S (S (S (S (S
+               (S (S (S (S (S (S (S O))))))))))))))))))))))))))
+               (length chains)
+          then (d, (Some (String ((Ascii (true, true, false, false, true,
+                 false, true, false)), (String ((Ascii (true, false, false,
+                 true, true, true, true, false)), (String ((Ascii (true,
+                 true, false, false, true, true, true, false)), (String
+                 ((Ascii (false, false, true, false, true, true, true,
+                 false)), (String ((Ascii (true, false, true, false, false,
+                 true, true, false)), (String ((Ascii (true, false, true,
+                 true, false, true, true, false)), (String ((Ascii (true,
+                 false, true, false, false, false, true, false)), (String
+                 ((Ascii (false, false, false, true, true, true, true,
+                 false)), (String ((Ascii (true, false, false, true, false,
+                 true, true, false)), (String ((Ascii (false, false, true,
+                 false, true, true, true, false)),
+                 EmptyString))))))))))))))))))))))
+          else (match fix_fill d chains upper_letters
+                        (repeat (PStr EmptyString) natom) with
+                | Ok newID ->
+                  update_column_model d (String ((Ascii (true, true, false,
+                    false, false, true, true, false)), (String ((Ascii
+                    (false, false, false, true, false, true, true, false)),
+                    (String ((Ascii (true, false, false, false, false, true,
+                    true, false)), (String ((Ascii (true, false, false, true,
+                    false, true, true, false)), (String ((Ascii (false, true,
+                    true, true, false, true, true, false)), (String ((Ascii
+                    (true, false, false, true, false, false, true, false)),
+                    (String ((Ascii (false, false, true, false, false, false,
+                    true, false)), EmptyString)))))))))))))) newID None
+                    (String ((Ascii (true, false, false, false, false, false,
+                    true, false)), (String ((Ascii (false, false, true,
+                    false, true, false, true, false)), (String ((Ascii (true,
+                    true, true, true, false, false, true, false)), (String
+                    ((Ascii (true, false, true, true, false, false, true,
+                    false)), EmptyString))))))))
+                | Err e -> (d, (Some e)))
+        | Err e -> (d, (Some e)))
+
+(** val get_xyz_model : db -> string -> conds -> pyv list res **)
+
+let get_xyz_model d tablename kw =
+  get_top d (String ((Ascii (false, false, false, true, true, true, true,
+    false)), (String ((Ascii (false, false, true, true, false, true, false,
+    false)), (String ((Ascii (true, false, false, true, true, true, true,
+    false)), (String ((Ascii (false, false, true, true, false, true, false,
+    false)), (String ((Ascii (false, true, false, true, true, true, true,
+    false)), EmptyString)))))))))) tablename kw
+
+(** val val_py_eqb : val0 -> val0 -> bool **)
+
+let val_py_eqb a0 b =
+  match a0 with
+  | VNull -> (match b with
+              | VNull -> true
+              | _ -> val_sql_eq a0 b)
+  | _ -> val_sql_eq a0 b
+
+(** val pyv_eqb_row : val0 list -> val0 list -> bool **)
+
+let rec pyv_eqb_row a0 b =
+  match a0 with
+  | [] -> (match b with
+           | [] -> true
+           | _ :: _ -> false)
+  | x :: s ->
+    (match b with
+     | [] -> false
+     | y :: t -> (&&) (val_py_eqb x y) (pyv_eqb_row s t))
+
+(** val row_of : pyv -> val0 list res **)
+
+let row_of = function
+| PV _ -> out_of_model
+| PL l -> mapM (fun x -> match x with
+                         | PV y -> Ok y
+                         | PL _ -> out_of_model) l
+
+(** val get_residues_model : db -> string -> conds -> val0 list list res **)
+
+let get_residues_model d tablename kw =
+  if Nat.ltb O d.nmodel
+  then out_of_model
+  else bind
+         (get_top d (String ((Ascii (true, true, false, false, false, true,
+           true, false)), (String ((Ascii (false, false, false, true, false,
+           true, true, false)), (String ((Ascii (true, false, false, false,
+           false, true, true, false)), (String ((Ascii (true, false, false,
+           true, false, true, true, false)), (String ((Ascii (false, true,
+           true, true, false, true, true, false)), (String ((Ascii (true,
+           false, false, true, false, false, true, false)), (String ((Ascii
+           (false, false, true, false, false, false, true, false)), (String
+           ((Ascii (false, false, true, true, false, true, false, false)),
+           (String ((Ascii (false, true, false, false, true, true, true,
+           false)), (String ((Ascii (true, false, true, false, false, true,
+           true, false)), (String ((Ascii (true, true, false, false, true,
+           true, true, false)), (String ((Ascii (false, true, true, true,
+           false, false, true, false)), (String ((Ascii (true, false, false,
+           false, false, true, true, false)), (String ((Ascii (true, false,
+           true, true, false, true, true, false)), (String ((Ascii (true,
+           false, true, false, false, true, true, false)), (String ((Ascii
+           (false, false, true, true, false, true, false, false)), (String
+           ((Ascii (false, true, false, false, true, true, true, false)),
+           (String ((Ascii (true, false, true, false, false, true, true,
+           false)), (String ((Ascii (true, true, false, false, true, true,
+           true, false)), (String ((Ascii (true, true, false, false, true,
+           false, true, false)), (String ((Ascii (true, false, true, false,
+           false, true, true, false)), (String ((Ascii (true, false, false,
+           false, true, true, true, false)),
+           EmptyString)))))))))))))))))))))))))))))))))))))))))))) tablename
+           kw) (fun res0 ->
+         bind (mapM row_of res0) (fun rows -> Ok
+           (dedup_keep_first pyv_eqb_row rows)))
+
+(** val get_chains_model : db -> string -> conds -> string list res **)
+
+let get_chains_model d tablename kw =
+  if Nat.ltb O d.nmodel
+  then out_of_model
+  else bind
+         (get_top d (String ((Ascii (true, true, false, false, false, true,
+           true, false)), (String ((Ascii (false, false, false, true, false,
+           true, true, false)), (String ((Ascii (true, false, false, false,
+           false, true, true, false)), (String ((Ascii (true, false, false,
+           true, false, true, true, false)), (String ((Ascii (false, true,
+           true, true, false, true, true, false)), (String ((Ascii (true,
+           false, false, true, false, false, true, false)), (String ((Ascii
+           (false, false, true, false, false, false, true, false)),
+           EmptyString)))))))))))))) tablename kw) (fun ch ->
+         bind (mapM text_of0 ch) (fun names -> Ok (sorted_set names)))
+
+(** val get_all_model : db -> string -> conds -> pyv list res **)
+
+let get_all_model d columns0 kw =
+  mapM (fun nt -> bind (get_top d columns0 (fst nt) kw) (fun o -> Ok (PL o)))
+    d.tables
+
+type op =
+| OpUpdate of string * uval list * string * conds
+| OpUpdateColumn of string * pv list * pv list option * string
+| OpUpdateXyz of uval list * string * conds
+| OpAddColumn of string * string * pv * string
+| OpFixChainID
+
+(** val model_step : db -> op -> ures **)
+
+let model_step d = function
+| OpUpdate (c, v0, t, kw) -> update_top d c v0 t kw
+| OpUpdateColumn (c, v0, ix, t) -> update_column_model d c v0 ix t
+| OpUpdateXyz (v0, t, kw) -> update_xyz_top d v0 t kw
+| OpAddColumn (c, ty, v0, t) -> add_column_model d c ty v0 t
+| OpFixChainID -> fix_chainID_model d
+
+(** val unspecified : 'a1 res **)
+
+let unspecified =
+  Err (String ((Ascii (true, false, true, false, true, false, true, false)),
+    (String ((Ascii (false, true, true, true, false, true, true, false)),
+    (String ((Ascii (true, true, false, false, true, true, true, false)),
+    (String ((Ascii (false, false, false, false, true, true, true, false)),
+    (String ((Ascii (true, false, true, false, false, true, true, false)),
+    (String ((Ascii (true, true, false, false, false, true, true, false)),
+    (String ((Ascii (true, false, false, true, false, true, true, false)),
+    (String ((Ascii (false, true, true, false, false, true, true, false)),
+    (String ((Ascii (true, false, false, true, false, true, true, false)),
+    (String ((Ascii (true, false, true, false, false, true, true, false)),
+    (String ((Ascii (false, false, true, false, false, true, true, false)),
+    EmptyString))))))))))))))))))))))
+
+(** val rejected : 'a1 res **)
+
+let rejected =
+  Err (String ((Ascii (false, true, false, false, true, false, true, false)),
+    (String ((Ascii (true, false, true, false, false, true, true, false)),
+    (String ((Ascii (false, true, false, true, false, true, true, false)),
+    (String ((Ascii (true, false, true, false, false, true, true, false)),
+    (String ((Ascii (true, true, false, false, false, true, true, false)),
+    (String ((Ascii (false, false, true, false, true, true, true, false)),
+    (String ((Ascii (true, false, true, false, false, true, true, false)),
+    (String ((Ascii (false, false, true, false, false, true, true, false)),
+    EmptyString))))))))))))))))
+
+(** val with_positions : 'a1 list -> (nat * 'a1) list **)
+
+let with_positions l =
+  combine (seq O (length l)) l
+
+(** val spec_cell : nat -> row -> cref -> val0 **)
+
+let spec_cell pos r = function
+| CRowid -> VInt (Z.of_nat pos)
+| CCol i -> nth i r VNull
+
+(** val spec_cond_attr : table0 -> string -> cref option **)
+
+let spec_cond_attr t k =
+  if ci_eqb k (String ((Ascii (false, true, false, false, true, true, true,
+       false)), (String ((Ascii (true, true, true, true, false, true, true,
+       false)), (String ((Ascii (true, true, true, false, true, true, true,
+       false)), (String ((Ascii (true, false, false, true, false, false,
+       true, false)), (String ((Ascii (false, false, true, false, false,
+       false, true, false)), EmptyString))))))))))
+  then Some CRowid
+  else (match find_ci k t.tcols O with
+        | Some i -> Some (CCol i)
+        | None -> None)
+
+(** val find_exact : string -> (string * string) list -> nat -> nat option **)
+
+let rec find_exact name cols i =
+  match cols with
+  | [] -> None
+  | p :: t ->
+    let (c, _) = p in if eqb1 name c then Some i else find_exact name t (S i)
+
+(** val spec_req_attr : table0 -> string -> cref option **)
+
+let spec_req_attr t name =
+  if eqb1 name (String ((Ascii (false, true, false, false, true, true, true,
+       false)), (String ((Ascii (true, true, true, true, false, true, true,
+       false)), (String ((Ascii (true, true, true, false, true, true, true,
+       false)), (String ((Ascii (true, false, false, true, false, false,
+       true, false)), (String ((Ascii (false, false, true, false, false,
+       false, true, false)), EmptyString))))))))))
+  then Some CRowid
+  else (match find_exact name t.tcols O with
+        | Some i -> Some (CCol i)
+        | None -> None)
+
+(** val spec_attrs : table0 -> string -> cref list res **)
+
+let spec_attrs t columns0 =
+  if eqb1 columns0 (String ((Ascii (false, true, false, true, false, true,
+       false, false)), EmptyString))
+  then Ok (map (fun x -> CCol x) (seq O (length t.tcols)))
+  else mapM (fun p ->
+         match spec_req_attr t (strip p) with
+         | Some c -> Ok c
+         | None -> rejected) (split_comma columns0)
+
+(** val spec_values : cval -> pv list **)
+
+let spec_values = function
+| CScalar x -> x :: []
+| CList l -> l
+
+(** val is_pint : pv -> bool **)
+
+let is_pint = function
+| PInt _ -> true
+| _ -> false
+
+(** val rowid_in_model : pv -> bool **)
+
+let rowid_in_model = function
+| PInt z0 -> int_in_range (Z.add z0 (Zpos XH))
+| _ -> true
+
+(** val spec_cond : table0 -> (string * cval) -> scond res **)
+
+let spec_cond t c =
+  let (neg, k) = key_of0 (fst c) in
+  (match spec_cond_attr t k with
+   | Some cr ->
+     let vs = spec_values (snd c) in
+     if match cr with
+        | CRowid -> negb (forallb is_pint vs)
+        | CCol _ -> false
+     then unspecified
+     else if match cr with
+             | CRowid -> negb (forallb rowid_in_model vs)
+             | CCol _ -> false
+          then out_of_model
+          else bind (mapM (cmp_operand (col_aff t cr)) vs) (fun vs' -> Ok
+                 ((cr, neg), vs'))
+   | None -> rejected)
+
+(** val spec_names_ok : table0 -> conds -> bool **)
+
+let spec_names_ok t kw =
+  forallb (fun c ->
+    match spec_cond_attr t (snd (key_of0 (fst c))) with
+    | Some _ -> true
+    | None -> false) kw
+
+(** val spec_holds : nat -> row -> scond -> bool **)
+
+let spec_holds pos r = function
+| (p, vs) -> let (cr, neg) = p in cond_true neg (spec_cell pos r cr) vs
+
+(** val spec_matches : scond list -> (nat * row) -> bool **)
+
+let spec_matches cs pr =
+  forallb (spec_holds (fst pr) (snd pr)) cs
+
+(** val spec_select : table0 -> scond list -> (nat * row) list **)
+
+let spec_select t cs =
+  filter (spec_matches cs) (with_positions t.trows)
+
+(** val spec_project : cref list -> (nat * row) -> val0 list **)
+
+let spec_project sel pr =
+  map (spec_cell (fst pr) (snd pr)) sel
+
+(** val spec_shape : cref list -> val0 list list -> pyv list **)
+
+let spec_shape sel rows =
+  match sel with
+  | [] -> map (fun r -> PL (map (fun x -> PV x) r)) rows
+  | _ :: l ->
+    (match l with
+     | [] -> map (fun r -> PV (hd VNull r)) rows
+     | _ :: _ -> map (fun r -> PL (map (fun x -> PV x) r)) rows)
+
+(** val spec_total : conds -> z **)
+
+let spec_total kw =
+  fold_right (fun c n0 ->
+    Z.add
+      (Z.min (Z.of_nat (length (spec_values (snd c)))) max_sql_values_src) n0)
+    Z0 kw
+
+(** val spec_conds : db -> string -> conds -> (table0 * scond list) res **)
+
+let spec_conds d tablename kw =
+  if negb (table_name_ok tablename)
+  then out_of_model
+  else (match find_table tablename d.tables with
+        | Some t ->
+          if negb (spec_names_ok t kw)
+          then rejected
+          else if Nat.ltb O d.nmodel
+               then unspecified
+               else bind (mapM (spec_cond t) kw) (fun cs -> Ok (t, cs))
+        | None -> rejected)
+
+(** val spec_get : db -> string -> string -> conds -> pyv list res **)
+
+let spec_get d columns0 tablename kw =
+  if negb (table_name_ok tablename)
+  then out_of_model
+  else (match find_table tablename d.tables with
+        | Some t ->
+          bind (spec_attrs t columns0) (fun sel ->
+            bind (spec_conds d tablename kw) (fun tc ->
+              if Z.ltb sql_limit_src (spec_total kw)
+              then Err (String ((Ascii (false, true, true, false, true,
+                     false, true, false)), (String ((Ascii (true, false,
+                     false, false, false, true, true, false)), (String
+                     ((Ascii (false, false, true, true, false, true, true,
+                     false)), (String ((Ascii (true, false, true, false,
+                     true, true, true, false)), (String ((Ascii (true, false,
+                     true, false, false, true, true, false)), (String ((Ascii
+                     (true, false, true, false, false, false, true, false)),
+                     (String ((Ascii (false, true, false, false, true, true,
+                     true, false)), (String ((Ascii (false, true, false,
+                     false, true, true, true, false)), (String ((Ascii (true,
+                     true, true, true, false, true, true, false)), (String
+                     ((Ascii (false, true, false, false, true, true, true,
+                     false)), EmptyString))))))))))))))))))))
+              else Ok
+                     (spec_shape sel
+                       (map (spec_project sel) (spec_select t (snd tc))))))
+        | None -> rejected)
+
+(** val spec_positions : db -> string -> conds -> nat list res **)
+
+let spec_positions d tablename kw =
+  bind (spec_conds d tablename kw) (fun tc ->
+    if Z.ltb sql_limit_src (spec_total kw)
+    then Err (String ((Ascii (false, true, true, false, true, false, true,
+           false)), (String ((Ascii (true, false, false, false, false, true,
+           true, false)), (String ((Ascii (false, false, true, true, false,
+           true, true, false)), (String ((Ascii (true, false, true, false,
+           true, true, true, false)), (String ((Ascii (true, false, true,
+           false, false, true, true, false)), (String ((Ascii (true, false,
+           true, false, false, false, true, false)), (String ((Ascii (false,
+           true, false, false, true, true, true, false)), (String ((Ascii
+           (false, true, false, false, true, true, true, false)), (String
+           ((Ascii (true, true, true, true, false, true, true, false)),
+           (String ((Ascii (false, true, false, false, true, true, true,
+           false)), EmptyString))))))))))))))))))))
+    else Ok (map fst (spec_select (fst tc) (snd tc))))
+
+(** val spec_get_xyz : db -> string -> conds -> pyv list res **)
+
+let spec_get_xyz d tablename kw =
+  spec_get d (String ((Ascii (false, false, false, true, true, true, true,
+    false)), (String ((Ascii (false, false, true, true, false, true, false,
+    false)), (String ((Ascii (true, false, false, true, true, true, true,
+    false)), (String ((Ascii (false, false, true, true, false, true, false,
+    false)), (String ((Ascii (false, true, false, true, true, true, true,
+    false)), EmptyString)))))))))) tablename kw
+
+(** val spec_get_residues : db -> string -> conds -> val0 list list res **)
+
+let spec_get_residues d tablename kw =
+  bind
+    (spec_get d (String ((Ascii (true, true, false, false, false, true, true,
+      false)), (String ((Ascii (false, false, false, true, false, true, true,
+      false)), (String ((Ascii (true, false, false, false, false, true, true,
+      false)), (String ((Ascii (true, false, false, true, false, true, true,
+      false)), (String ((Ascii (false, true, true, true, false, true, true,
+      false)), (String ((Ascii (true, false, false, true, false, false, true,
+      false)), (String ((Ascii (false, false, true, false, false, false,
+      true, false)), (String ((Ascii (false, false, true, true, false, true,
+      false, false)), (String ((Ascii (false, true, false, false, true, true,
+      true, false)), (String ((Ascii (true, false, true, false, false, true,
+      true, false)), (String ((Ascii (true, true, false, false, true, true,
+      true, false)), (String ((Ascii (false, true, true, true, false, false,
+      true, false)), (String ((Ascii (true, false, false, false, false, true,
+      true, false)), (String ((Ascii (true, false, true, true, false, true,
+      true, false)), (String ((Ascii (true, false, true, false, false, true,
+      true, false)), (String ((Ascii (false, false, true, true, false, true,
+      false, false)), (String ((Ascii (false, true, false, false, true, true,
+      true, false)), (String ((Ascii (true, false, true, false, false, true,
+      true, false)), (String ((Ascii (true, true, false, false, true, true,
+      true, false)), (String ((Ascii (true, true, false, false, true, false,
+      true, false)), (String ((Ascii (true, false, true, false, false, true,
+      true, false)), (String ((Ascii (true, false, false, false, true, true,
+      true, false)), EmptyString))))))))))))))))))))))))))))))))))))))))))))
+      tablename kw) (fun res0 ->
+    bind (mapM row_of res0) (fun rows -> Ok
+      (dedup_keep_first pyv_eqb_row rows)))
+
+(** val spec_get_chains : db -> string -> conds -> string list res **)
+
+let spec_get_chains d tablename kw =
+  bind
+    (spec_get d (String ((Ascii (true, true, false, false, false, true, true,
+      false)), (String ((Ascii (false, false, false, true, false, true, true,
+      false)), (String ((Ascii (true, false, false, false, false, true, true,
+      false)), (String ((Ascii (true, false, false, true, false, true, true,
+      false)), (String ((Ascii (false, true, true, true, false, true, true,
+      false)), (String ((Ascii (true, false, false, true, false, false, true,
+      false)), (String ((Ascii (false, false, true, false, false, false,
+      true, false)), EmptyString)))))))))))))) tablename kw) (fun ch ->
+    bind (mapM text_of0 ch) (fun names -> Ok (sorted_set names)))
+
+(** val spec_get_all : db -> string -> conds -> pyv list res **)
+
+let spec_get_all d columns0 kw =
+  mapM (fun nt ->
+    bind (spec_get d columns0 (fst nt) kw) (fun o -> Ok (PL o))) d.tables
+
+(** val write_cells : nat list -> val0 list -> row -> row **)
+
+let rec write_cells cis xs r =
+  match cis with
+  | [] -> r
+  | ci :: cis' ->
+    (match xs with
+     | [] -> r
+     | x :: xs' -> write_cells cis' xs' (set_nth ci x r))
+
+(** val index_of_nat : nat -> nat list -> nat -> nat option **)
+
+let rec index_of_nat x l i =
+  match l with
+  | [] -> None
+  | y :: t -> if Nat.eqb x y then Some i else index_of_nat x t (S i)
+
+(** val with_table : db -> string -> table0 -> db **)
+
+let with_table d tablename t' =
+  { tables = (set_table tablename t' d.tables); nmodel = d.nmodel }
+
+(** val spec_write_cols : table0 -> string list -> nat list res **)
+
+let spec_write_cols t cols =
+  if negb (nodup_str cols)
+  then out_of_model
+  else mapM (fun c ->
+         if eqb1 c (String ((Ascii (false, true, false, false, true, true,
+              true, false)), (String ((Ascii (true, true, true, true, false,
+              true, true, false)), (String ((Ascii (true, true, true, false,
+              true, true, true, false)), (String ((Ascii (true, false, false,
+              true, false, false, true, false)), (String ((Ascii (false,
+              false, true, false, false, false, true, false)),
+              EmptyString))))))))))
+         then unspecified
+         else (match find_exact c t.tcols O with
+               | Some i -> Ok i
+               | None -> rejected)) cols
+
+(** val uval_row : uval -> pv list option **)
+
+let uval_row = function
+| URow l -> Some l
+| UStr s -> Some (chars_of s)
+| UScalar _ -> None
+
+(** val shape_ok : nat -> nat -> uval list -> bool **)
+
+let shape_ok ncol nsel values =
+  (&&) (Nat.eqb (length values) nsel)
+    (forallb (fun u ->
+      match uval_row u with
+      | Some l -> Nat.eqb (length l) ncol
+      | None -> false) values)
+
+(** val spec_update : db -> string -> uval list -> string -> conds -> ures **)
+
+let spec_update d columns0 values tablename kw =
+  if negb (table_name_ok tablename)
+  then (d, (Some (String ((Ascii (true, true, true, true, false, false, true,
+         false)), (String ((Ascii (true, false, true, false, true, true,
+         true, false)), (String ((Ascii (false, false, true, false, true,
+         true, true, false)), (String ((Ascii (true, true, true, true, false,
+         false, true, false)), (String ((Ascii (false, true, true, false,
+         false, true, true, false)), (String ((Ascii (true, false, true,
+         true, false, false, true, false)), (String ((Ascii (true, true,
+         true, true, false, true, true, false)), (String ((Ascii (false,
+         false, true, false, false, true, true, false)), (String ((Ascii
+         (true, false, true, false, false, true, true, false)), (String
+         ((Ascii (false, false, true, true, false, true, true, false)),
+         EmptyString))))))))))))))))))))))
+  else (match values with
+        | [] ->
+          (d, (Some (String ((Ascii (true, false, true, false, true, false,
+            true, false)), (String ((Ascii (false, true, true, true, false,
+            true, true, false)), (String ((Ascii (true, true, false, false,
+            true, true, true, false)), (String ((Ascii (false, false, false,
+            false, true, true, true, false)), (String ((Ascii (true, false,
+            true, false, false, true, true, false)), (String ((Ascii (true,
+            true, false, false, false, true, true, false)), (String ((Ascii
+            (true, false, false, true, false, true, true, false)), (String
+            ((Ascii (false, true, true, false, false, true, true, false)),
+            (String ((Ascii (true, false, false, true, false, true, true,
+            false)), (String ((Ascii (true, false, true, false, false, true,
+            true, false)), (String ((Ascii (false, false, true, false, false,
+            true, true, false)), EmptyString))))))))))))))))))))))))
+        | _ :: _ ->
+          (match find_table tablename d.tables with
+           | Some t ->
+             (match spec_write_cols t (split_comma columns0) with
+              | Ok cis ->
+                (match spec_positions d tablename kw with
+                 | Ok ps ->
+                   if negb (shape_ok (length cis) (length ps) values)
+                   then (d, (Some (String ((Ascii (true, true, false, false,
+                          true, false, true, false)), (String ((Ascii (false,
+                          false, false, true, false, true, true, false)),
+                          (String ((Ascii (true, false, false, false, false,
+                          true, true, false)), (String ((Ascii (false, false,
+                          false, false, true, true, true, false)), (String
+                          ((Ascii (true, false, true, false, false, true,
+                          true, false)), (String ((Ascii (true, false, true,
+                          false, false, false, true, false)), (String ((Ascii
+                          (false, true, false, false, true, true, true,
+                          false)), (String ((Ascii (false, true, false,
+                          false, true, true, true, false)), (String ((Ascii
+                          (true, true, true, true, false, true, true,
+                          false)), (String ((Ascii (false, true, false,
+                          false, true, true, true, false)),
+                          EmptyString))))))))))))))))))))))
+                   else (match mapM (fun u ->
+                                 match uval_row u with
+                                 | Some l ->
+                                   mapM (fun cv ->
+                                     store_val (col_aff t (CCol (fst cv)))
+                                       (snd cv)) (combine cis l)
+                                 | None ->
+                                   Err (String ((Ascii (true, true, false,
+                                     false, true, false, true, false)),
+                                     (String ((Ascii (false, false, false,
+                                     true, false, true, true, false)),
+                                     (String ((Ascii (true, false, false,
+                                     false, false, true, true, false)),
+                                     (String ((Ascii (false, false, false,
+                                     false, true, true, true, false)),
+                                     (String ((Ascii (true, false, true,
+                                     false, false, true, true, false)),
+                                     (String ((Ascii (true, false, true,
+                                     false, false, false, true, false)),
+                                     (String ((Ascii (false, true, false,
+                                     false, true, true, true, false)),
+                                     (String ((Ascii (false, true, false,
+                                     false, true, true, true, false)),
+                                     (String ((Ascii (true, true, true, true,
+                                     false, true, true, false)), (String
+                                     ((Ascii (false, true, false, false,
+                                     true, true, true, false)),
+                                     EmptyString))))))))))))))))))))) values with
+                         | Ok xss ->
+                           let rows' =
+                             map (fun pr ->
+                               match index_of_nat (fst pr) ps O with
+                               | Some i ->
+                                 write_cells cis (nth i xss []) (snd pr)
+                               | None -> snd pr) (with_positions t.trows)
+                           in
+                           ((with_table d tablename { tcols = t.tcols;
+                              trows = rows' }), None)
+                         | Err e -> (d, (Some e)))
+                 | Err e -> (d, (Some e)))
+              | Err e -> (d, (Some e)))
+           | None ->
+             (d, (Some (String ((Ascii (false, true, false, false, true,
+               false, true, false)), (String ((Ascii (true, false, true,
+               false, false, true, true, false)), (String ((Ascii (false,
+               true, false, true, false, true, true, false)), (String ((Ascii
+               (true, false, true, false, false, true, true, false)), (String
+               ((Ascii (true, true, false, false, false, true, true, false)),
+               (String ((Ascii (false, false, true, false, true, true, true,
+               false)), (String ((Ascii (true, false, true, false, false,
+               true, true, false)), (String ((Ascii (false, false, true,
+               false, false, true, true, false)),
+               EmptyString))))))))))))))))))))
+
+(** val spec_update_xyz : db -> uval list -> string -> conds -> ures **)
+
+let spec_update_xyz d xyz tablename kw =
+  spec_update d (String ((Ascii (false, false, false, true, true, true, true,
+    false)), (String ((Ascii (false, false, true, true, false, true, false,
+    false)), (String ((Ascii (true, false, false, true, true, true, true,
+    false)), (String ((Ascii (false, false, true, true, false, true, false,
+    false)), (String ((Ascii (false, true, false, true, true, true, true,
+    false)), EmptyString)))))))))) xyz tablename kw
+
+(** val last_for : nat -> (z * val0) list -> val0 option -> val0 option **)
+
+let rec last_for p pairs acc =
+  match pairs with
+  | [] -> acc
+  | p0 :: t ->
+    let (z0, x) = p0 in
+    last_for p t (if Z.eqb z0 (Z.of_nat p) then Some x else acc)
+
+(** val spec_update_column :
+    db -> string -> pv list -> pv list option -> string -> ures **)
+
+let spec_update_column d colname values index tablename =
+  if negb (table_name_ok tablename)
+  then (d, (Some (String ((Ascii (true, true, true, true, false, false, true,
+         false)), (String ((Ascii (true, false, true, false, true, true,
+         true, false)), (String ((Ascii (false, false, true, false, true,
+         true, true, false)), (String ((Ascii (true, true, true, true, false,
+         false, true, false)), (String ((Ascii (false, true, true, false,
+         false, true, true, false)), (String ((Ascii (true, false, true,
+         true, false, false, true, false)), (String ((Ascii (true, true,
+         true, true, false, true, true, false)), (String ((Ascii (false,
+         false, true, false, false, true, true, false)), (String ((Ascii
+         (true, false, true, false, false, true, true, false)), (String
+         ((Ascii (false, false, true, true, false, true, true, false)),
+         EmptyString))))))))))))))))))))))
+  else (match find_table tablename d.tables with
+        | Some t ->
+          if negb (ident_shape colname)
+          then (d, (Some (String ((Ascii (true, true, true, true, false,
+                 false, true, false)), (String ((Ascii (true, false, true,
+                 false, true, true, true, false)), (String ((Ascii (false,
+                 false, true, false, true, true, true, false)), (String
+                 ((Ascii (true, true, true, true, false, false, true,
+                 false)), (String ((Ascii (false, true, true, false, false,
+                 true, true, false)), (String ((Ascii (true, false, true,
+                 true, false, false, true, false)), (String ((Ascii (true,
+                 true, true, true, false, true, true, false)), (String
+                 ((Ascii (false, false, true, false, false, true, true,
+                 false)), (String ((Ascii (true, false, true, false, false,
+                 true, true, false)), (String ((Ascii (false, false, true,
+                 true, false, true, true, false)),
+                 EmptyString))))))))))))))))))))))
+          else if is_rowid_alias colname
+               then (d, (Some (String ((Ascii (true, false, true, false,
+                      true, false, true, false)), (String ((Ascii (false,
+                      true, true, true, false, true, true, false)), (String
+                      ((Ascii (true, true, false, false, true, true, true,
+                      false)), (String ((Ascii (false, false, false, false,
+                      true, true, true, false)), (String ((Ascii (true,
+                      false, true, false, false, true, true, false)), (String
+                      ((Ascii (true, true, false, false, false, true, true,
+                      false)), (String ((Ascii (true, false, false, true,
+                      false, true, true, false)), (String ((Ascii (false,
+                      true, true, false, false, true, true, false)), (String
+                      ((Ascii (true, false, false, true, false, true, true,
+                      false)), (String ((Ascii (true, false, true, false,
+                      false, true, true, false)), (String ((Ascii (false,
+                      false, true, false, false, true, true, false)),
+                      EmptyString))))))))))))))))))))))))
+               else (match find_ci colname t.tcols O with
+                     | Some ci ->
+                       let idx =
+                         match index with
+                         | Some ix ->
+                           mapM (fun v0 ->
+                             match v0 with
+                             | PInt z0 -> Ok z0
+                             | _ -> unspecified) (firstn (length values) ix)
+                         | None -> Ok (seqZ Z0 (length values))
+                       in
+                       (match idx with
+                        | Ok ps ->
+                          (match mapM (store_val (col_aff t (CCol ci))) values with
+                           | Ok xs ->
+                             let pairs = combine ps xs in
+                             let rows' =
+                               map (fun pr ->
+                                 match last_for (fst pr) pairs None with
+                                 | Some x -> set_nth ci x (snd pr)
+                                 | None -> snd pr) (with_positions t.trows)
+                             in
+                             ((with_table d tablename { tcols = t.tcols;
+                                trows = rows' }), None)
+                           | Err e -> (d, (Some e)))
+                        | Err e -> (d, (Some e)))
+                     | None ->
+                       (d, (Some (String ((Ascii (false, true, false, false,
+                         true, false, true, false)), (String ((Ascii (true,
+                         false, true, false, false, true, true, false)),
+                         (String ((Ascii (false, true, false, true, false,
+                         true, true, false)), (String ((Ascii (true, false,
+                         true, false, false, true, true, false)), (String
+                         ((Ascii (true, true, false, false, false, true,
+                         true, false)), (String ((Ascii (false, false, true,
+                         false, true, true, true, false)), (String ((Ascii
+                         (true, false, true, false, false, true, true,
+                         false)), (String ((Ascii (false, false, true, false,
+                         false, true, true, false)),
+                         EmptyString)))))))))))))))))))
+        | None ->
+          (d, (Some (String ((Ascii (false, true, false, false, true, false,
+            true, false)), (String ((Ascii (true, false, true, false, false,
+            true, true, false)), (String ((Ascii (false, true, false, true,
+            false, true, true, false)), (String ((Ascii (true, false, true,
+            false, false, true, true, false)), (String ((Ascii (true, true,
+            false, false, false, true, true, false)), (String ((Ascii (false,
+            false, true, false, true, true, true, false)), (String ((Ascii
+            (true, false, true, false, false, true, true, false)), (String
+            ((Ascii (false, false, true, false, false, true, true, false)),
+            EmptyString)))))))))))))))))))
+
+(** val spec_add_column : db -> string -> string -> pv -> string -> ures **)
+
+let spec_add_column d colname coltype value tablename =
+  if negb
+       ((&&)
+         ((&&) ((&&) (table_name_ok tablename) (plain_ident colname))
+           (negb (is_rowid_alias colname)))
+         ((||) (eqb1 coltype EmptyString) (plain_ident coltype)))
+  then (d, (Some (String ((Ascii (true, true, true, true, false, false, true,
+         false)), (String ((Ascii (true, false, true, false, true, true,
+         true, false)), (String ((Ascii (false, false, true, false, true,
+         true, true, false)), (String ((Ascii (true, true, true, true, false,
+         false, true, false)), (String ((Ascii (false, true, true, false,
+         false, true, true, false)), (String ((Ascii (true, false, true,
+         true, false, false, true, false)), (String ((Ascii (true, true,
+         true, true, false, true, true, false)), (String ((Ascii (false,
+         false, true, false, false, true, true, false)), (String ((Ascii
+         (true, false, true, false, false, true, true, false)), (String
+         ((Ascii (false, false, true, true, false, true, true, false)),
+         EmptyString))))))))))))))))))))))
+  else (match find_table tablename d.tables with
+        | Some t ->
+          (match find_ci colname t.tcols O with
+           | Some _ ->
+             (d, (Some (String ((Ascii (false, true, false, false, true,
+               false, true, false)), (String ((Ascii (true, false, true,
+               false, false, true, true, false)), (String ((Ascii (false,
+               true, false, true, false, true, true, false)), (String ((Ascii
+               (true, false, true, false, false, true, true, false)), (String
+               ((Ascii (true, true, false, false, false, true, true, false)),
+               (String ((Ascii (false, false, true, false, true, true, true,
+               false)), (String ((Ascii (true, false, true, false, false,
+               true, true, false)), (String ((Ascii (false, false, true,
+               false, false, true, true, false)),
+               EmptyString))))))))))))))))))
+           | None ->
+             (match match value with
+                    | PStr s ->
+                      if plain_ident s
+                      then default_store (affinity_of_decl coltype) value
+                      else unspecified
+                    | PNone -> unspecified
+                    | _ -> default_store (affinity_of_decl coltype) value with
+              | Ok x ->
+                ((with_table d tablename { tcols =
+                   (app t.tcols ((colname, coltype) :: [])); trows =
+                   (map (fun r -> app r (x :: [])) t.trows) }), None)
+              | Err e -> (d, (Some e))))
+        | None ->
+          (d, (Some (String ((Ascii (false, true, false, false, true, false,
+            true, false)), (String ((Ascii (true, false, true, false, false,
+            true, true, false)), (String ((Ascii (false, true, false, true,
+            false, true, true, false)), (String ((Ascii (true, false, true,
+            false, false, true, true, false)), (String ((Ascii (true, true,
+            false, false, false, true, true, false)), (String ((Ascii (false,
+            false, true, false, true, true, true, false)), (String ((Ascii
+            (true, false, true, false, false, true, true, false)), (String
+            ((Ascii (false, false, true, false, false, true, true, false)),
+            EmptyString)))))))))))))))))))
+
+(** val spec_fix_chainID : db -> ures **)
+
+let spec_fix_chainID d =
+  if Nat.ltb O d.nmodel
+  then (d, (Some (String ((Ascii (true, false, true, false, true, false,
+         true, false)), (String ((Ascii (false, true, true, true, false,
+         true, true, false)), (String ((Ascii (true, true, false, false,
+         true, true, true, false)), (String ((Ascii (false, false, false,
+         false, true, true, true, false)), (String ((Ascii (true, false,
+         true, false, false, true, true, false)), (String ((Ascii (true,
+         true, false, false, false, true, true, false)), (String ((Ascii
+         (true, false, false, true, false, true, true, false)), (String
+         ((Ascii (false, true, true, false, false, true, true, false)),
+         (String ((Ascii (true, false, false, true, false, true, true,
+         false)), (String ((Ascii (true, false, true, false, false, true,
+         true, false)), (String ((Ascii (false, false, true, false, false,
+         true, true, false)), EmptyString))))))))))))))))))))))))
+  else (match find_table (String ((Ascii (true, false, false, false, false,
+                false, true, false)), (String ((Ascii (false, false, true,
+                false, true, false, true, false)), (String ((Ascii (true,
+                true, true, true, false, false, true, false)), (String
+                ((Ascii (true, false, true, true, false, false, true,
+                false)), EmptyString)))))))) d.tables with
+        | Some t ->
+          (match find_exact (String ((Ascii (true, true, false, false, false,
+                   true, true, false)), (String ((Ascii (false, false, false,
+                   true, false, true, true, false)), (String ((Ascii (true,
+                   false, false, false, false, true, true, false)), (String
+                   ((Ascii (true, false, false, true, false, true, true,
+                   false)), (String ((Ascii (false, true, true, true, false,
+                   true, true, false)), (String ((Ascii (true, false, false,
+                   true, false, false, true, false)), (String ((Ascii (false,
+                   false, true, false, false, false, true, false)),
+                   EmptyString)))))))))))))) t.tcols O with
+           | Some ci ->
+             (match mapM (fun r ->
+                      match nth ci r VNull with
+                      | VText s -> Ok s
+                      | _ -> unspecified) t.trows with
+              | Ok names ->
+                let chains = sorted_set names in
+                if Nat.ltb (S (S (S (S (S (S (S (S (S (S (S (S (S (S (S (S (S
+                     (S (S (S (S (S (S (S (S (S O))))))))))))))))))))))))))
+                     (length chains)
+                then (d, (Some (String ((Ascii (true, false, false, false,
+                       false, false, true, false)), (String ((Ascii (false,
+                       true, false, false, false, true, true, false)),
+                       (String ((Ascii (true, true, true, true, false, true,
+                       true, false)), (String ((Ascii (false, true, false,
+                       false, true, true, true, false)), (String ((Ascii
+                       (false, false, true, false, true, true, true, false)),
+                       (String ((Ascii (true, false, true, false, false,
+                       true, true, false)), (String ((Ascii (false, false,
+                       true, false, false, true, true, false)),
+                       EmptyString))))))))))))))))
+                else let rows' =
+                       map (fun r ->
+                         match nth ci r VNull with
+                         | VText s ->
+                           (match index_of0 s chains O with
+                            | Some k ->
+                              set_nth ci (VText
+                                (nth k upper_letters EmptyString)) r
+                            | None -> r)
+                         | _ -> r) t.trows
+                     in
+                     ((with_table d (String ((Ascii (true, false, false,
+                        false, false, false, true, false)), (String ((Ascii
+                        (false, false, true, false, true, false, true,
+                        false)), (String ((Ascii (true, true, true, true,
+                        false, false, true, false)), (String ((Ascii (true,
+                        false, true, true, false, false, true, false)),
+                        EmptyString)))))))) { tcols = t.tcols; trows =
+                        rows' }), None)
+              | Err e -> (d, (Some e)))
+           | None ->
+             (d, (Some (String ((Ascii (false, true, false, false, true,
+               false, true, false)), (String ((Ascii (true, false, true,
+               false, false, true, true, false)), (String ((Ascii (false,
+               true, false, true, false, true, true, false)), (String ((Ascii
+               (true, false, true, false, false, true, true, false)), (String
+               ((Ascii (true, true, false, false, false, true, true, false)),
+               (String ((Ascii (false, false, true, false, true, true, true,
+               false)), (String ((Ascii (true, false, true, false, false,
+               true, true, false)), (String ((Ascii (false, false, true,
+               false, false, true, true, false)),
+               EmptyString)))))))))))))))))))
+        | None ->
+          (d, (Some (String ((Ascii (false, true, false, false, true, false,
+            true, false)), (String ((Ascii (true, false, true, false, false,
+            true, true, false)), (String ((Ascii (false, true, false, true,
+            false, true, true, false)), (String ((Ascii (true, false, true,
+            false, false, true, true, false)), (String ((Ascii (true, true,
+            false, false, false, true, true, false)), (String ((Ascii (false,
+            false, true, false, true, true, true, false)), (String ((Ascii
+            (true, false, true, false, false, true, true, false)), (String
+            ((Ascii (false, false, true, false, false, true, true, false)),
+            EmptyString)))))))))))))))))))
+
+(** val spec_step : db -> op -> ures **)
+
+let spec_step d = function
+| OpUpdate (c, v0, t, kw) -> spec_update d c v0 t kw
+| OpUpdateColumn (c, v0, ix, t) -> spec_update_column d c v0 ix t
+| OpUpdateXyz (v0, t, kw) -> spec_update_xyz d v0 t kw
+| OpAddColumn (c, ty, v0, t) -> spec_add_column d c ty v0 t
+| OpFixChainID -> spec_fix_chainID d
+
+(** val long_list : cval -> bool **)
+
+let long_list = function
+| CScalar _ -> false
+| CList l -> Z.ltb max_sql_values_src (Z.of_nat (length l))
+
+(** val f10_class : conds -> bool **)
+
+let f10_class kw =
+  existsb (fun c -> (&&) (fst (key_of0 (fst c))) (long_list (snd c))) kw
+
+(** val first_long : conds -> (string * pv list) option **)
+
+let rec first_long = function
+| [] -> None
+| p :: t ->
+  let (k0, v0) = p in
+  if long_list v0
+  then if fst (key_of0 k0) then None else Some (k0, (spec_values v0))
+  else first_long t
+
+(** val sep : ('a1 -> bool) -> ('a1 -> bool) -> 'a1 list -> bool **)
+
+let rec sep p q0 = function
+| [] -> true
+| x :: t ->
+  if q0 x
+  then (&&) (negb (p x)) (forallb (fun y -> negb (p y)) t)
+  else sep p q0 t
+
+(** val any_of : ('a1 -> bool) list -> 'a1 -> bool **)
+
+let any_of ps x =
+  existsb (fun q0 -> q0 x) ps
+
+(** val seps : 'a1 list -> ('a1 -> bool) list -> bool **)
+
+let rec seps l = function
+| [] -> true
+| p :: rest -> (&&) (sep p (any_of rest) l) (seps l rest)
+
+(** val f11_safe : nat -> db -> string -> conds -> bool **)
+
+let rec f11_safe fuel d tablename kw =
+  match fuel with
+  | O -> true
+  | S f ->
+    (match first_long kw with
+     | Some p ->
+       let (k, l) = p in
+       let pieces = chunks (Z.to_nat max_sql_values_src) l in
+       (match find_table tablename d.tables with
+        | Some t ->
+          (match mapM (fun c ->
+                   spec_conds d tablename (dict_set k (CList c) kw)) pieces with
+           | Ok tcs ->
+             (&&)
+               (seps (with_positions t.trows)
+                 (map (fun tc -> spec_matches (snd tc)) tcs))
+               (forallb (fun c ->
+                 f11_safe f d tablename (dict_set k (CList c) kw)) pieces)
+           | Err _ -> true)
+        | None -> true)
+     | None -> true)
+
+(** val f11_class : db -> string -> conds -> bool **)
+
+let f11_class d tablename kw =
+  negb (f11_safe (S (length kw)) d tablename kw)
+
+(** val dec_val : v -> val0 **)
+
+let dec_val = function
+| VL l ->
+  (match l with
+   | [] -> VNull
+   | v1 :: l0 ->
+     (match v1 with
+      | VS s0 ->
+        (match s0 with
+         | EmptyString -> VNull
+         | String (a0, s1) ->
+           let Ascii (b, b0, b1, b2, b3, b4, b5, b6) = a0 in
+           if b
+           then if b0
+                then VNull
+                else if b1
+                     then VNull
+                     else if b2
+                          then if b3
+                               then VNull
+                               else if b4
+                                    then if b5
+                                         then if b6
+                                              then VNull
+                                              else (match s1 with
+                                                    | EmptyString ->
+                                                      (match l0 with
+                                                       | [] -> VNull
+                                                       | v2 :: l1 ->
+                                                         (match v2 with
+                                                          | VZ z0 ->
+                                                            (match l1 with
+                                                             | [] -> VInt z0
+                                                             | _ :: _ -> VNull)
+                                                          | _ -> VNull))
+                                                    | String (_, _) -> VNull)
+                                         else VNull
+                                    else VNull
+                          else VNull
+           else if b0
+                then if b1
+                     then VNull
+                     else if b2
+                          then VNull
+                          else if b3
+                               then if b4
+                                    then if b5
+                                         then if b6
+                                              then VNull
+                                              else (match s1 with
+                                                    | EmptyString ->
+                                                      (match l0 with
+                                                       | [] -> VNull
+                                                       | v2 :: l1 ->
+                                                         (match v2 with
+                                                          | VZ n0 ->
+                                                            (match l1 with
+                                                             | [] -> VNull
+                                                             | v3 :: l2 ->
+                                                               (match v3 with
+                                                                | VZ z0 ->
+                                                                  (match z0 with
+                                                                   | Zpos p ->
+                                                                    (match l2 with
+                                                                    | [] ->
+                                                                    VReal
+                                                                    (qred
+                                                                    { qnum =
+                                                                    n0;
+                                                                    qden =
+                                                                    p })
+                                                                    | _ :: _ ->
+                                                                    VNull)
+                                                                   | _ ->
+                                                                    VNull)
+                                                                | _ -> VNull))
+                                                          | _ -> VNull))
+                                                    | String (_, _) -> VNull)
+                                         else VNull
+                                    else VNull
+                               else if b4
+                                    then if b5
+                                         then if b6
+                                              then VNull
+                                              else (match s1 with
+                                                    | EmptyString ->
+                                                      (match l0 with
+                                                       | [] -> VBlob
+                                                       | _ :: _ -> VNull)
+                                                    | String (_, _) -> VNull)
+                                         else VNull
+                                    else VNull
+                else if b1
+                     then if b2
+                          then VNull
+                          else if b3
+                               then if b4
+                                    then if b5
+                                         then if b6
+                                              then VNull
+                                              else (match s1 with
+                                                    | EmptyString ->
+                                                      (match l0 with
+                                                       | [] -> VNull
+                                                       | v2 :: l1 ->
+                                                         (match v2 with
+                                                          | VS s ->
+                                                            (match l1 with
+                                                             | [] -> VText s
+                                                             | _ :: _ -> VNull)
+                                                          | _ -> VNull))
+                                                    | String (_, _) -> VNull)
+                                         else VNull
+                                    else VNull
+                               else VNull
+                     else VNull)
+      | _ -> VNull))
+| _ -> VNull
+
+(** val dec_pv : v -> pv **)
+
+let dec_pv = function
+| VL l ->
+  (match l with
+   | [] -> PNone
+   | v1 :: l0 ->
+     (match v1 with
+      | VS s0 ->
+        (match s0 with
+         | EmptyString -> PNone
+         | String (a0, s1) ->
+           let Ascii (b, b0, b1, b2, b3, b4, b5, b6) = a0 in
+           if b
+           then if b0
+                then if b1
+                     then PNone
+                     else if b2
+                          then PNone
+                          else if b3
+                               then if b4
+                                    then if b5
+                                         then if b6
+                                              then PNone
+                                              else (match s1 with
+                                                    | EmptyString ->
+                                                      (match l0 with
+                                                       | [] -> PNone
+                                                       | v2 :: l1 ->
+                                                         (match v2 with
+                                                          | VS s ->
+                                                            (match l1 with
+                                                             | [] -> PStr s
+                                                             | _ :: _ -> PNone)
+                                                          | _ -> PNone))
+                                                    | String (_, _) -> PNone)
+                                         else PNone
+                                    else PNone
+                               else PNone
+                else if b1
+                     then PNone
+                     else if b2
+                          then if b3
+                               then PNone
+                               else if b4
+                                    then if b5
+                                         then if b6
+                                              then PNone
+                                              else (match s1 with
+                                                    | EmptyString ->
+                                                      (match l0 with
+                                                       | [] -> PNone
+                                                       | v2 :: l1 ->
+                                                         (match v2 with
+                                                          | VZ z0 ->
+                                                            (match l1 with
+                                                             | [] -> PInt z0
+                                                             | _ :: _ -> PNone)
+                                                          | _ -> PNone))
+                                                    | String (_, _) -> PNone)
+                                         else PNone
+                                    else PNone
+                          else PNone
+           else if b0
+                then if b1
+                     then if b2
+                          then PNone
+                          else if b3
+                               then PNone
+                               else if b4
+                                    then if b5
+                                         then if b6
+                                              then PNone
+                                              else (match s1 with
+                                                    | EmptyString ->
+                                                      (match l0 with
+                                                       | [] -> PNone
+                                                       | v2 :: l1 ->
+                                                         (match v2 with
+                                                          | VZ n0 ->
+                                                            (match l1 with
+                                                             | [] -> PNone
+                                                             | v3 :: l2 ->
+                                                               (match v3 with
+                                                                | VZ z0 ->
+                                                                  (match z0 with
+                                                                   | Zpos p ->
+                                                                    (match l2 with
+                                                                    | [] ->
+                                                                    PFloat
+                                                                    { qnum =
+                                                                    n0;
+                                                                    qden = p }
+                                                                    | _ :: _ ->
+                                                                    PNone)
+                                                                   | _ ->
+                                                                    PNone)
+                                                                | _ -> PNone))
+                                                          | _ -> PNone))
+                                                    | String (_, _) -> PNone)
+                                         else PNone
+                                    else PNone
+                     else PNone
+                else PNone)
+      | _ -> PNone))
+| _ -> PNone
+
+(** val dec_cval : v -> cval **)
+
+let dec_cval = function
+| VL l0 ->
+  (match l0 with
+   | [] -> CScalar PNone
+   | v1 :: l1 ->
+     (match v1 with
+      | VS s ->
+        (match s with
+         | EmptyString -> CScalar PNone
+         | String (a0, s0) ->
+           let Ascii (b, b0, b1, b2, b3, b4, b5, b6) = a0 in
+           if b
+           then if b0
+                then if b1
+                     then CScalar PNone
+                     else if b2
+                          then CScalar PNone
+                          else if b3
+                               then if b4
+                                    then CScalar PNone
+                                    else if b5
+                                         then if b6
+                                              then CScalar PNone
+                                              else (match s0 with
+                                                    | EmptyString ->
+                                                      (match l1 with
+                                                       | [] -> CScalar PNone
+                                                       | x :: l ->
+                                                         (match l with
+                                                          | [] ->
+                                                            CScalar (dec_pv x)
+                                                          | _ :: _ ->
+                                                            CScalar PNone))
+                                                    | String (_, _) ->
+                                                      CScalar PNone)
+                                         else CScalar PNone
+                               else CScalar PNone
+                else CScalar PNone
+           else if b0
+                then CScalar PNone
+                else if b1
+                     then if b2
+                          then if b3
+                               then CScalar PNone
+                               else if b4
+                                    then CScalar PNone
+                                    else if b5
+                                         then if b6
+                                              then CScalar PNone
+                                              else (match s0 with
+                                                    | EmptyString ->
+                                                      (match l1 with
+                                                       | [] -> CScalar PNone
+                                                       | v2 :: l2 ->
+                                                         (match v2 with
+                                                          | VL l ->
+                                                            (match l2 with
+                                                             | [] ->
+                                                               CList
+                                                                 (map dec_pv
+                                                                   l)
+                                                             | _ :: _ ->
+                                                               CScalar PNone)
+                                                          | _ -> CScalar PNone))
+                                                    | String (_, _) ->
+                                                      CScalar PNone)
+                                         else CScalar PNone
+                          else CScalar PNone
+                     else CScalar PNone)
+      | _ -> CScalar PNone))
+| _ -> CScalar PNone
+
+(** val dec_kw : v -> conds **)
+
+let dec_kw v0 =
+  map (fun c -> ((getS (nthV O c)), (dec_cval (nthV (S O) c)))) (getL v0)
+
+(** val dec_uval : v -> uval **)
+
+let dec_uval = function
+| VL l0 ->
+  (match l0 with
+   | [] -> UScalar PNone
+   | v1 :: l1 ->
+     (match v1 with
+      | VS s0 ->
+        (match s0 with
+         | EmptyString -> UScalar PNone
+         | String (a0, s1) ->
+           let Ascii (b, b0, b1, b2, b3, b4, b5, b6) = a0 in
+           if b
+           then UScalar PNone
+           else if b0
+                then if b1
+                     then UScalar PNone
+                     else if b2
+                          then UScalar PNone
+                          else if b3
+                               then if b4
+                                    then UScalar PNone
+                                    else if b5
+                                         then if b6
+                                              then UScalar PNone
+                                              else (match s1 with
+                                                    | EmptyString ->
+                                                      (match l1 with
+                                                       | [] -> UScalar PNone
+                                                       | v2 :: l2 ->
+                                                         (match v2 with
+                                                          | VL l ->
+                                                            (match l2 with
+                                                             | [] ->
+                                                               URow
+                                                                 (map dec_pv
+                                                                   l)
+                                                             | _ :: _ ->
+                                                               UScalar PNone)
+                                                          | _ -> UScalar PNone))
+                                                    | String (_, _) ->
+                                                      UScalar PNone)
+                                         else UScalar PNone
+                               else UScalar PNone
+                else if b1
+                     then if b2
+                          then UScalar PNone
+                          else if b3
+                               then if b4
+                                    then UScalar PNone
+                                    else if b5
+                                         then if b6
+                                              then UScalar PNone
+                                              else (match s1 with
+                                                    | EmptyString ->
+                                                      (match l1 with
+                                                       | [] -> UScalar PNone
+                                                       | v2 :: l ->
+                                                         (match v2 with
+                                                          | VS s ->
+                                                            (match l with
+                                                             | [] -> UStr s
+                                                             | _ :: _ ->
+                                                               UScalar PNone)
+                                                          | _ -> UScalar PNone))
+                                                    | String (_, _) ->
+                                                      UScalar PNone)
+                                         else UScalar PNone
+                               else UScalar PNone
+                     else if b2
+                          then if b3
+                               then if b4
+                                    then UScalar PNone
+                                    else if b5
+                                         then if b6
+                                              then UScalar PNone
+                                              else (match s1 with
+                                                    | EmptyString ->
+                                                      (match l1 with
+                                                       | [] -> UScalar PNone
+                                                       | x :: l ->
+                                                         (match l with
+                                                          | [] ->
+                                                            UScalar (dec_pv x)
+                                                          | _ :: _ ->
+                                                            UScalar PNone))
+                                                    | String (_, _) ->
+                                                      UScalar PNone)
+                                         else UScalar PNone
+                               else UScalar PNone
+                          else UScalar PNone)
+      | _ -> UScalar PNone))
+| _ -> UScalar PNone
+
+(** val dec_index : v -> pv list option **)
+
+let dec_index = function
+| VL l0 ->
+  (match l0 with
+   | [] -> None
+   | v1 :: l1 ->
+     (match v1 with
+      | VS s ->
+        (match s with
+         | EmptyString -> None
+         | String (a0, s0) ->
+           let Ascii (b, b0, b1, b2, b3, b4, b5, b6) = a0 in
+           if b
+           then if b0
+                then if b1
+                     then None
+                     else if b2
+                          then None
+                          else if b3
+                               then if b4
+                                    then if b5
+                                         then if b6
+                                              then None
+                                              else (match s0 with
+                                                    | EmptyString -> None
+                                                    | String (a1, s1) ->
+                                                      let Ascii (b7, b8, b9,
+                                                                 b10, b11,
+                                                                 b12, b13, b14) =
+                                                        a1
+                                                      in
+                                                      if b7
+                                                      then if b8
+                                                           then if b9
+                                                                then 
+                                                                  if b10
+                                                                  then 
+                                                                    if b11
+                                                                    then None
+                                                                    else 
+                                                                    if b12
+                                                                    then 
+                                                                    if b13
+                                                                    then 
+                                                                    if b14
+                                                                    then None
+                                                                    else 
+                                                                    (match s1 with
+                                                                    | EmptyString ->
+                                                                    None
+                                                                    | String (
+                                                                    a2, s2) ->
+                                                                    let Ascii (
+                                                                    b15, b16,
+                                                                    b17, b18,
+                                                                    b19, b20,
+                                                                    b21, b22) =
+                                                                    a2
+                                                                    in
+                                                                    if b15
+                                                                    then 
+                                                                    if b16
+                                                                    then None
+                                                                    else 
+                                                                    if b17
+                                                                    then 
+                                                                    if b18
+                                                                    then 
+                                                                    if b19
+                                                                    then None
+                                                                    else 
+                                                                    if b20
+                                                                    then 
+                                                                    if b21
+                                                                    then 
+                                                                    if b22
+                                                                    then None
+                                                                    else 
+                                                                    (match s2 with
+                                                                    | EmptyString ->
+                                                                    None
+                                                                    | String (
+                                                                    a3, s3) ->
+                                                                    let Ascii (
+                                                                    b23, b24,
+                                                                    b25, b26,
+                                                                    b27, b28,
+                                                                    b29, b30) =
+                                                                    a3
+                                                                    in
+                                                                    if b23
+                                                                    then 
+                                                                    if b24
+                                                                    then None
+                                                                    else 
+                                                                    if b25
+                                                                    then 
+                                                                    if b26
+                                                                    then None
+                                                                    else 
+                                                                    if b27
+                                                                    then None
+                                                                    else 
+                                                                    if b28
+                                                                    then 
+                                                                    if b29
+                                                                    then 
+                                                                    if b30
+                                                                    then None
+                                                                    else 
+                                                                    (match s3 with
+                                                                    | EmptyString ->
+                                                                    (match l1 with
+                                                                    | [] ->
+                                                                    None
+                                                                    | v2 :: l2 ->
+                                                                    (match v2 with
+                                                                    | VL l ->
+                                                                    (match l2 with
+                                                                    | [] ->
+                                                                    Some
+                                                                    (map
+                                                                    dec_pv l)
+                                                                    | _ :: _ ->
+                                                                    None)
+                                                                    | _ ->
+                                                                    None))
+                                                                    | String (
+                                                                    _, _) ->
+                                                                    None)
+                                                                    else None
+                                                                    else None
+                                                                    else None
+                                                                    else None)
+                                                                    else None
+                                                                    else None
+                                                                    else None
+                                                                    else None
+                                                                    else None)
+                                                                    else None
+                                                                    else None
+                                                                  else None
+                                                                else None
+                                                           else None
+                                                      else None)
+                                         else None
+                                    else None
+                               else None
+                else None
+           else None)
+      | _ -> None))
+| _ -> None
+
+(** val dec_table : v -> string * table0 **)
+
+let dec_table v0 =
+  ((getS (nthV O v0)), { tcols =
+    (map (fun c -> ((getS (nthV O c)), (getS (nthV (S O) c))))
+      (getL (nthV (S O) v0))); trows =
+    (map (fun r -> map dec_val (getL r)) (getL (nthV (S (S O)) v0))) })
+
+(** val dec_db : v -> db **)
+
+let dec_db v0 =
+  { tables = (map dec_table (getL (nthV O v0))); nmodel =
+    (Z.to_nat (getZ (nthV (S O) v0))) }
+
+(** val enc_val : val0 -> v **)
+
+let enc_val = function
+| VInt z0 ->
+  VL ((VS (String ((Ascii (true, false, false, true, false, true, true,
+    false)), EmptyString))) :: ((VZ z0) :: []))
+| VReal q0 ->
+  VL ((VS (String ((Ascii (false, true, false, false, true, true, true,
+    false)), EmptyString))) :: ((VZ (qred q0).qnum) :: ((VZ (Zpos
+    (qred q0).qden)) :: [])))
+| VText s ->
+  VL ((VS (String ((Ascii (false, false, true, false, true, true, true,
+    false)), EmptyString))) :: ((VS s) :: []))
+| VBlob ->
+  VL ((VS (String ((Ascii (false, true, false, false, false, true, true,
+    false)), EmptyString))) :: [])
+| VNull ->
+  VL ((VS (String ((Ascii (false, true, true, true, false, true, true,
+    false)), EmptyString))) :: [])
+
+(** val enc_pyv : pyv -> v **)
+
+let rec enc_pyv = function
+| PV x -> enc_val x
+| PL l ->
+  VL ((VS (String ((Ascii (false, false, true, true, false, false, true,
+    false)), EmptyString))) :: (map enc_pyv l))
+
+(** val enc_out : pyv list res -> v **)
+
+let enc_out = function
+| Ok l -> vOk (VL (map enc_pyv l))
+| Err e -> vErr e
+
+(** val enc_table : (string * table0) -> v **)
+
+let enc_table nt =
+  VL ((VS (fst nt)) :: ((VL
+    (map (fun c -> VL ((VS (fst c)) :: ((VS (snd c)) :: []))) (snd nt).tcols)) :: ((VL
+    (map (fun r -> VL (map enc_val r)) (snd nt).trows)) :: [])))
+
+(** val enc_db : db -> v **)
+
+let enc_db d =
+  VL ((VL (map enc_table d.tables)) :: ((VZ (Z.of_nat d.nmodel)) :: []))
+
+(** val enc_status : string option -> v **)
+
+let enc_status = function
+| Some s -> vErr s
+| None ->
+  VL ((VS (String ((Ascii (true, true, true, true, false, false, true,
+    false)), (String ((Ascii (true, true, false, true, false, false, true,
+    false)), EmptyString))))) :: [])
+
+type engine = { e_get : (db -> string -> string -> conds -> pyv list res);
+                e_xyz : (db -> string -> conds -> pyv list res);
+                e_residues : (db -> string -> conds -> val0 list list res);
+                e_chains : (db -> string -> conds -> string list res);
+                e_get_all : (db -> string -> conds -> pyv list res);
+                e_step : (db -> op -> ures); e_is_spec : bool }
+
+(** val model_engine : engine **)
+
+let model_engine =
+  { e_get = get_top; e_xyz = get_xyz_model; e_residues = get_residues_model;
+    e_chains = get_chains_model; e_get_all = get_all_model; e_step =
+    model_step; e_is_spec = false }
+
+(** val spec_engine : engine **)
+
+let spec_engine =
+  { e_get = spec_get; e_xyz = spec_get_xyz; e_residues = spec_get_residues;
+    e_chains = spec_get_chains; e_get_all = spec_get_all; e_step = spec_step;
+    e_is_spec = true }
+
+(** val a : nat -> v list -> v **)
+
+let a n0 l =
+  nth n0 l (VZ Z0)
+
+(** val run_op : engine -> db -> v -> db * v **)
+
+let run_op e d = function
+| VL l ->
+  (match l with
+   | [] ->
+     (d,
+       (vErr (String ((Ascii (false, true, false, false, false, true, true,
+         false)), (String ((Ascii (true, false, false, false, false, true,
+         true, false)), (String ((Ascii (false, false, true, false, false,
+         true, true, false)), (String ((Ascii (true, false, true, true,
+         false, true, false, false)), (String ((Ascii (true, true, true,
+         true, false, true, true, false)), (String ((Ascii (false, false,
+         false, false, true, true, true, false)), EmptyString))))))))))))))
+   | v0 :: args ->
+     (match v0 with
+      | VS kind ->
+        if eqb1 kind (String ((Ascii (true, true, true, false, false, true,
+             true, false)), (String ((Ascii (true, false, true, false, false,
+             true, true, false)), (String ((Ascii (false, false, true, false,
+             true, true, true, false)), EmptyString))))))
+        then (d,
+               (enc_out
+                 (e.e_get d (getS (a O args)) (getS (a (S O) args))
+                   (dec_kw (a (S (S O)) args)))))
+        else if eqb1 kind (String ((Ascii (false, false, false, true, true,
+                  true, true, false)), (String ((Ascii (true, false, false,
+                  true, true, true, true, false)), (String ((Ascii (false,
+                  true, false, true, true, true, true, false)),
+                  EmptyString))))))
+             then (d,
+                    (enc_out
+                      (e.e_xyz d (getS (a O args)) (dec_kw (a (S O) args)))))
+             else if eqb1 kind (String ((Ascii (false, true, false, false,
+                       true, true, true, false)), (String ((Ascii (true,
+                       false, true, false, false, true, true, false)),
+                       (String ((Ascii (true, true, false, false, true, true,
+                       true, false)), (String ((Ascii (true, false, false,
+                       true, false, true, true, false)), (String ((Ascii
+                       (false, false, true, false, false, true, true,
+                       false)), (String ((Ascii (true, false, true, false,
+                       true, true, true, false)), (String ((Ascii (true,
+                       false, true, false, false, true, true, false)),
+                       (String ((Ascii (true, true, false, false, true, true,
+                       true, false)), EmptyString))))))))))))))))
+                  then (d,
+                         (match e.e_residues d (getS (a O args))
+                                  (dec_kw (a (S O) args)) with
+                          | Ok l0 ->
+                            vOk (VL (map (fun r -> VL (map enc_val r)) l0))
+                          | Err e0 -> vErr e0))
+                  else if eqb1 kind (String ((Ascii (true, true, false,
+                            false, false, true, true, false)), (String
+                            ((Ascii (false, false, false, true, false, true,
+                            true, false)), (String ((Ascii (true, false,
+                            false, false, false, true, true, false)), (String
+                            ((Ascii (true, false, false, true, false, true,
+                            true, false)), (String ((Ascii (false, true,
+                            true, true, false, true, true, false)), (String
+                            ((Ascii (true, true, false, false, true, true,
+                            true, false)), EmptyString))))))))))))
+                       then (d,
+                              (match e.e_chains d (getS (a O args))
+                                       (dec_kw (a (S O) args)) with
+                               | Ok l0 -> vOk (VL (map (fun x -> VS x) l0))
+                               | Err e0 -> vErr e0))
+                       else if eqb1 kind (String ((Ascii (true, true, true,
+                                 false, false, true, true, false)), (String
+                                 ((Ascii (true, false, true, false, false,
+                                 true, true, false)), (String ((Ascii (false,
+                                 false, true, false, true, true, true,
+                                 false)), (String ((Ascii (true, true, true,
+                                 true, true, false, true, false)), (String
+                                 ((Ascii (true, false, false, false, false,
+                                 true, true, false)), (String ((Ascii (false,
+                                 false, true, true, false, true, true,
+                                 false)), (String ((Ascii (false, false,
+                                 true, true, false, true, true, false)),
+                                 EmptyString))))))))))))))
+                            then (d,
+                                   (enc_out
+                                     (e.e_get_all d (getS (a O args))
+                                       (dec_kw (a (S O) args)))))
+                            else if eqb1 kind (String ((Ascii (true, true,
+                                      false, false, false, true, true,
+                                      false)), (String ((Ascii (true, true,
+                                      true, true, false, true, true, false)),
+                                      (String ((Ascii (false, false, true,
+                                      true, false, true, true, false)),
+                                      (String ((Ascii (false, true, true,
+                                      true, false, true, true, false)),
+                                      (String ((Ascii (true, false, false,
+                                      false, false, true, true, false)),
+                                      (String ((Ascii (true, false, true,
+                                      true, false, true, true, false)),
+                                      (String ((Ascii (true, false, true,
+                                      false, false, true, true, false)),
+                                      (String ((Ascii (true, true, false,
+                                      false, true, true, true, false)),
+                                      EmptyString))))))))))))))))
+                                 then (d,
+                                        (match valid_colnames d with
+                                         | Ok l0 ->
+                                           vOk (VL (map (fun x -> VS x) l0))
+                                         | Err e0 -> vErr e0))
+                                 else if eqb1 kind (String ((Ascii (false,
+                                           false, true, false, false, true,
+                                           true, false)), (String ((Ascii
+                                           (true, false, true, false, true,
+                                           true, true, false)), (String
+                                           ((Ascii (true, false, true, true,
+                                           false, true, true, false)),
+                                           (String ((Ascii (false, false,
+                                           false, false, true, true, true,
+                                           false)), EmptyString))))))))
+                                      then (d, (enc_db d))
+                                      else if eqb1 kind (String ((Ascii
+                                                (true, true, false, false,
+                                                false, true, true, false)),
+                                                (String ((Ascii (false,
+                                                false, true, true, false,
+                                                true, true, false)), (String
+                                                ((Ascii (true, false, false,
+                                                false, false, true, true,
+                                                false)), (String ((Ascii
+                                                (true, true, false, false,
+                                                true, true, true, false)),
+                                                (String ((Ascii (true, true,
+                                                false, false, true, true,
+                                                true, false)), (String
+                                                ((Ascii (true, false, true,
+                                                false, false, true, true,
+                                                false)), (String ((Ascii
+                                                (true, true, false, false,
+                                                true, true, true, false)),
+                                                EmptyString))))))))))))))
+                                           then (d,
+                                                  (if e.e_is_spec
+                                                   then VL
+                                                          ((vB
+                                                             (f10_class
+                                                               (dec_kw
+                                                                 (a (S O)
+                                                                   args)))) :: (
+                                                          (vB
+                                                            (if eqb1
+                                                                  (getS
+                                                                    (a O args))
+                                                                  (String
+                                                                  ((Ascii
+                                                                  (false,
+                                                                  true,
+                                                                  false,
+                                                                  true,
+                                                                  false,
+                                                                  true,
+                                                                  false,
+                                                                  false)),
+                                                                  EmptyString))
+                                                             then existsb
+                                                                    (fun nt ->
+                                                                    f11_class
+                                                                    d
+                                                                    (fst nt)
+                                                                    (dec_kw
+                                                                    (a (S O)
+                                                                    args)))
+                                                                    d.tables
+                                                             else f11_class d
+                                                                    (getS
+                                                                    (a O args))
+                                                                    (dec_kw
+                                                                    (a (S O)
+                                                                    args)))) :: []))
+                                                   else VL []))
+                                           else let o' =
+                                                  if eqb1 kind (String
+                                                       ((Ascii (true, false,
+                                                       true, false, true,
+                                                       true, true, false)),
+                                                       (String ((Ascii
+                                                       (false, false, false,
+                                                       false, true, true,
+                                                       true, false)), (String
+                                                       ((Ascii (false, false,
+                                                       true, false, false,
+                                                       true, true, false)),
+                                                       (String ((Ascii (true,
+                                                       false, false, false,
+                                                       false, true, true,
+                                                       false)), (String
+                                                       ((Ascii (false, false,
+                                                       true, false, true,
+                                                       true, true, false)),
+                                                       (String ((Ascii (true,
+                                                       false, true, false,
+                                                       false, true, true,
+                                                       false)),
+                                                       EmptyString))))))))))))
+                                                  then Some (OpUpdate
+                                                         ((getS (a O args)),
+                                                         (map dec_uval
+                                                           (getL
+                                                             (a (S O) args))),
+                                                         (getS
+                                                           (a (S (S O)) args)),
+                                                         (dec_kw
+                                                           (a (S (S (S O)))
+                                                             args))))
+                                                  else if eqb1 kind (String
+                                                            ((Ascii (true,
+                                                            false, true,
+                                                            false, true,
+                                                            true, true,
+                                                            false)), (String
+                                                            ((Ascii (false,
+                                                            false, false,
+                                                            false, true,
+                                                            true, true,
+                                                            false)), (String
+                                                            ((Ascii (false,
+                                                            false, true,
+                                                            false, false,
+                                                            true, true,
+                                                            false)), (String
+                                                            ((Ascii (true,
+                                                            false, false,
+                                                            false, false,
+                                                            true, true,
+                                                            false)), (String
+                                                            ((Ascii (false,
+                                                            false, true,
+                                                            false, true,
+                                                            true, true,
+                                                            false)), (String
+                                                            ((Ascii (true,
+                                                            false, true,
+                                                            false, false,
+                                                            true, true,
+                                                            false)), (String
+                                                            ((Ascii (true,
+                                                            true, true, true,
+                                                            true, false,
+                                                            true, false)),
+                                                            (String ((Ascii
+                                                            (true, true,
+                                                            false, false,
+                                                            false, true,
+                                                            true, false)),
+                                                            (String ((Ascii
+                                                            (true, true,
+                                                            true, true,
+                                                            false, true,
+                                                            true, false)),
+                                                            (String ((Ascii
+                                                            (false, false,
+                                                            true, true,
+                                                            false, true,
+                                                            true, false)),
+                                                            (String ((Ascii
+                                                            (true, false,
+                                                            true, false,
+                                                            true, true, true,
+                                                            false)), (String
+                                                            ((Ascii (true,
+                                                            false, true,
+                                                            true, false,
+                                                            true, true,
+                                                            false)), (String
+                                                            ((Ascii (false,
+                                                            true, true, true,
+                                                            false, true,
+                                                            true, false)),
+                                                            EmptyString))))))))))))))))))))))))))
+                                                       then Some
+                                                              (OpUpdateColumn
+                                                              ((getS
+                                                                 (a O args)),
+                                                              (map dec_pv
+                                                                (getL
+                                                                  (a (S O)
+                                                                    args))),
+                                                              (dec_index
+                                                                (a (S (S O))
+                                                                  args)),
+                                                              (getS
+                                                                (a (S (S (S
+                                                                  O))) args))))
+                                                       else if eqb1 kind
+                                                                 (String
+                                                                 ((Ascii
+                                                                 (true,
+                                                                 false, true,
+                                                                 false, true,
+                                                                 true, true,
+                                                                 false)),
+                                                                 (String
+                                                                 ((Ascii
+                                                                 (false,
+                                                                 false,
+                                                                 false,
+                                                                 false, true,
+                                                                 true, true,
+                                                                 false)),
+                                                                 (String
+                                                                 ((Ascii
+                                                                 (false,
+                                                                 false, true,
+                                                                 false,
+                                                                 false, true,
+                                                                 true,
+                                                                 false)),
+                                                                 (String
+                                                                 ((Ascii
+                                                                 (true,
+                                                                 false,
+                                                                 false,
+                                                                 false,
+                                                                 false, true,
+                                                                 true,
+                                                                 false)),
+                                                                 (String
+                                                                 ((Ascii
+                                                                 (false,
+                                                                 false, true,
+                                                                 false, true,
+                                                                 true, true,
+                                                                 false)),
+                                                                 (String
+                                                                 ((Ascii
+                                                                 (true,
+                                                                 false, true,
+                                                                 false,
+                                                                 false, true,
+                                                                 true,
+                                                                 false)),
+                                                                 (String
+                                                                 ((Ascii
+                                                                 (true, true,
+                                                                 true, true,
+                                                                 true, false,
+                                                                 true,
+                                                                 false)),
+                                                                 (String
+                                                                 ((Ascii
+                                                                 (false,
+                                                                 false,
+                                                                 false, true,
+                                                                 true, true,
+                                                                 true,
+                                                                 false)),
+                                                                 (String
+                                                                 ((Ascii
+                                                                 (true,
+                                                                 false,
+                                                                 false, true,
+                                                                 true, true,
+                                                                 true,
+                                                                 false)),
+                                                                 (String
+                                                                 ((Ascii
+                                                                 (false,
+                                                                 true, false,
+                                                                 true, true,
+                                                                 true, true,
+                                                                 false)),
+                                                                 EmptyString))))))))))))))))))))
+                                                            then Some
+                                                                   (OpUpdateXyz
+                                                                   ((map
+                                                                    dec_uval
+                                                                    (getL
+                                                                    (a O args))),
+                                                                   (getS
+                                                                    (a (S O)
+                                                                    args)),
+                                                                   (dec_kw
+                                                                    (a (S (S
+                                                                    O)) args))))
+                                                            else if eqb1 kind
+                                                                    (String
+                                                                    ((Ascii
+                                                                    (true,
+                                                                    false,
+                                                                    false,
+                                                                    false,
+                                                                    false,
+                                                                    true,
+                                                                    true,
+                                                                    false)),
+                                                                    (String
+                                                                    ((Ascii
+                                                                    (false,
+                                                                    false,
+                                                                    true,
+                                                                    false,
+                                                                    false,
+                                                                    true,
+                                                                    true,
+                                                                    false)),
+                                                                    (String
+                                                                    ((Ascii
+                                                                    (false,
+                                                                    false,
+                                                                    true,
+                                                                    false,
+                                                                    false,
+                                                                    true,
+                                                                    true,
+                                                                    false)),
+                                                                    (String
+                                                                    ((Ascii
+                                                                    (true,
+                                                                    true,
+                                                                    true,
+                                                                    true,
+                                                                    true,
+                                                                    false,
+                                                                    true,
+                                                                    false)),
+                                                                    (String
+                                                                    ((Ascii
+                                                                    (true,
+                                                                    true,
+                                                                    false,
+                                                                    false,
+                                                                    false,
+                                                                    true,
+                                                                    true,
+                                                                    false)),
+                                                                    (String
+                                                                    ((Ascii
+                                                                    (true,
+                                                                    true,
+                                                                    true,
+                                                                    true,
+                                                                    false,
+                                                                    true,
+                                                                    true,
+                                                                    false)),
+                                                                    (String
+                                                                    ((Ascii
+                                                                    (false,
+                                                                    false,
+                                                                    true,
+                                                                    true,
+                                                                    false,
+                                                                    true,
+                                                                    true,
+                                                                    false)),
+                                                                    (String
+                                                                    ((Ascii
+                                                                    (true,
+                                                                    false,
+                                                                    true,
+                                                                    false,
+                                                                    true,
+                                                                    true,
+                                                                    true,
+                                                                    false)),
+                                                                    (String
+                                                                    ((Ascii
+                                                                    (true,
+                                                                    false,
+                                                                    true,
+                                                                    true,
+                                                                    false,
+                                                                    true,
+                                                                    true,
+                                                                    false)),
+                                                                    (String
+                                                                    ((Ascii
+                                                                    (false,
+                                                                    true,
+                                                                    true,
+                                                                    true,
+                                                                    false,
+                                                                    true,
+                                                                    true,
+                                                                    false)),
+                                                                    EmptyString))))))))))))))))))))
+                                                                 then 
+                                                                   Some
+                                                                    (OpAddColumn
+                                                                    ((getS
+                                                                    (a O args)),
+                                                                    (getS
+                                                                    (a (S O)
+                                                                    args)),
+                                                                    (dec_pv
+                                                                    (a (S (S
+                                                                    O)) args)),
+                                                                    (getS
+                                                                    (a (S (S
+                                                                    (S O)))
+                                                                    args))))
+                                                                 else 
+                                                                   if 
+                                                                    eqb1 kind
+                                                                    (String
+                                                                    ((Ascii
+                                                                    (false,
+                                                                    true,
+                                                                    true,
+                                                                    false,
+                                                                    false,
+                                                                    true,
+                                                                    true,
+                                                                    false)),
+                                                                    (String
+                                                                    ((Ascii
+                                                                    (true,
+                                                                    false,
+                                                                    false,
+                                                                    true,
+                                                                    false,
+                                                                    true,
+                                                                    true,
+                                                                    false)),
+                                                                    (String
+                                                                    ((Ascii
+                                                                    (false,
+                                                                    false,
+                                                                    false,
+                                                                    true,
+                                                                    true,
+                                                                    true,
+                                                                    true,
+                                                                    false)),
+                                                                    (String
+                                                                    ((Ascii
+                                                                    (true,
+                                                                    true,
+                                                                    true,
+                                                                    true,
+                                                                    true,
+                                                                    false,
+                                                                    true,
+                                                                    false)),
+                                                                    (String
+                                                                    ((Ascii
+                                                                    (true,
+                                                                    true,
+                                                                    false,
+                                                                    false,
+                                                                    false,
+                                                                    true,
+                                                                    true,
+                                                                    false)),
+                                                                    (String
+                                                                    ((Ascii
+                                                                    (false,
+                                                                    false,
+                                                                    false,
+                                                                    true,
+                                                                    false,
+                                                                    true,
+                                                                    true,
+                                                                    false)),
+                                                                    (String
+                                                                    ((Ascii
+                                                                    (true,
+                                                                    false,
+                                                                    false,
+                                                                    false,
+                                                                    false,
+                                                                    true,
+                                                                    true,
+                                                                    false)),
+                                                                    (String
+                                                                    ((Ascii
+                                                                    (true,
+                                                                    false,
+                                                                    false,
+                                                                    true,
+                                                                    false,
+                                                                    true,
+                                                                    true,
+                                                                    false)),
+                                                                    (String
+                                                                    ((Ascii
+                                                                    (false,
+                                                                    true,
+                                                                    true,
+                                                                    true,
+                                                                    false,
+                                                                    true,
+                                                                    true,
+                                                                    false)),
+                                                                    (String
+                                                                    ((Ascii
+                                                                    (true,
+                                                                    false,
+                                                                    false,
+                                                                    true,
+                                                                    false,
+                                                                    false,
+                                                                    true,
+                                                                    false)),
+                                                                    (String
+                                                                    ((Ascii
+                                                                    (false,
+                                                                    false,
+                                                                    true,
+                                                                    false,
+                                                                    false,
+                                                                    false,
+                                                                    true,
+                                                                    false)),
+                                                                    EmptyString))))))))))))))))))))))
+                                                                   then 
+                                                                    Some
+                                                                    OpFixChainID
+                                                                   else None
+                                                in
+                                                (match o' with
+                                                 | Some x ->
+                                                   let (d', e0) = e.e_step d x
+                                                   in
+                                                   (d', (enc_status e0))
+                                                 | None ->
+                                                   (d,
+                                                     (vErr (String ((Ascii
+                                                       (true, false, true,
+                                                       false, true, true,
+                                                       true, false)), (String
+                                                       ((Ascii (false, true,
+                                                       true, true, false,
+                                                       true, true, false)),
+                                                       (String ((Ascii (true,
+                                                       true, false, true,
+                                                       false, true, true,
+                                                       false)), (String
+                                                       ((Ascii (false, true,
+                                                       true, true, false,
+                                                       true, true, false)),
+                                                       (String ((Ascii (true,
+                                                       true, true, true,
+                                                       false, true, true,
+                                                       false)), (String
+                                                       ((Ascii (true, true,
+                                                       true, false, true,
+                                                       true, true, false)),
+                                                       (String ((Ascii
+                                                       (false, true, true,
+                                                       true, false, true,
+                                                       true, false)), (String
+                                                       ((Ascii (true, false,
+                                                       true, true, false,
+                                                       true, false, false)),
+                                                       (String ((Ascii (true,
+                                                       true, true, true,
+                                                       false, true, true,
+                                                       false)), (String
+                                                       ((Ascii (false, false,
+                                                       false, false, true,
+                                                       true, true, false)),
+                                                       EmptyString)))))))))))))))))))))))
+      | _ ->
+        (d,
+          (vErr (String ((Ascii (false, true, false, false, false, true,
+            true, false)), (String ((Ascii (true, false, false, false, false,
+            true, true, false)), (String ((Ascii (false, false, true, false,
+            false, true, true, false)), (String ((Ascii (true, false, true,
+            true, false, true, false, false)), (String ((Ascii (true, true,
+            true, true, false, true, true, false)), (String ((Ascii (false,
+            false, false, false, true, true, true, false)),
+            EmptyString))))))))))))))))
+| _ ->
+  (d,
+    (vErr (String ((Ascii (false, true, false, false, false, true, true,
+      false)), (String ((Ascii (true, false, false, false, false, true, true,
+      false)), (String ((Ascii (false, false, true, false, false, true, true,
+      false)), (String ((Ascii (true, false, true, true, false, true, false,
+      false)), (String ((Ascii (true, true, true, true, false, true, true,
+      false)), (String ((Ascii (false, false, false, false, true, true, true,
+      false)), EmptyString))))))))))))))
+
+(** val run_ops : engine -> db -> v list -> v list **)
+
+let rec run_ops e d = function
+| [] -> []
+| o :: t -> let (d', r) = run_op e d o in r :: (run_ops e d' t)
+
+(** val run_sql : string -> v list -> v option **)
+
+let run_sql cmd args =
+  if eqb1 cmd (String ((Ascii (true, true, false, false, true, true, true,
+       false)), (String ((Ascii (true, false, false, false, true, true, true,
+       false)), (String ((Ascii (false, false, true, true, false, true, true,
+       false)), (String ((Ascii (false, true, true, true, false, true, false,
+       false)), (String ((Ascii (true, true, false, false, true, true, true,
+       false)), (String ((Ascii (true, false, true, false, false, true, true,
+       false)), (String ((Ascii (true, true, false, false, true, true, true,
+       false)), (String ((Ascii (true, true, false, false, true, true, true,
+       false)), (String ((Ascii (true, false, false, true, false, true, true,
+       false)), (String ((Ascii (true, true, true, true, false, true, true,
+       false)), (String ((Ascii (false, true, true, true, false, true, true,
+       false)), EmptyString))))))))))))))))))))))
+  then Some (VL
+         (run_ops model_engine (dec_db (a O args)) (getL (a (S O) args))))
+  else if eqb1 cmd (String ((Ascii (true, true, false, false, true, true,
+            true, false)), (String ((Ascii (false, false, false, false, true,
+            true, true, false)), (String ((Ascii (true, false, true, false,
+            false, true, true, false)), (String ((Ascii (true, true, false,
+            false, false, true, true, false)), (String ((Ascii (false, true,
+            true, true, false, true, false, false)), (String ((Ascii (true,
+            true, false, false, true, true, true, false)), (String ((Ascii
+            (true, false, false, false, true, true, true, false)), (String
+            ((Ascii (false, false, true, true, false, true, true, false)),
+            (String ((Ascii (false, true, true, true, false, true, false,
+            false)), (String ((Ascii (true, true, false, false, true, true,
+            true, false)), (String ((Ascii (true, false, true, false, false,
+            true, true, false)), (String ((Ascii (true, true, false, false,
+            true, true, true, false)), (String ((Ascii (true, true, false,
+            false, true, true, true, false)), (String ((Ascii (true, false,
+            false, true, false, true, true, false)), (String ((Ascii (true,
+            true, true, true, false, true, true, false)), (String ((Ascii
+            (false, true, true, true, false, true, true, false)),
+            EmptyString))))))))))))))))))))))))))))))))
+       then Some (VL
+              (run_ops spec_engine (dec_db (a O args)) (getL (a (S O) args))))
+       else if eqb1 cmd (String ((Ascii (true, true, false, false, true,
+                 true, true, false)), (String ((Ascii (false, false, false,
+                 false, true, true, true, false)), (String ((Ascii (true,
+                 false, true, false, false, true, true, false)), (String
+                 ((Ascii (true, true, false, false, false, true, true,
+                 false)), (String ((Ascii (false, true, true, true, false,
+                 true, false, false)), (String ((Ascii (true, true, false,
+                 false, true, true, true, false)), (String ((Ascii (true,
+                 false, false, false, true, true, true, false)), (String
+                 ((Ascii (false, false, true, true, false, true, true,
+                 false)), (String ((Ascii (false, true, true, true, false,
+                 true, false, false)), (String ((Ascii (false, true, true,
+                 false, false, true, true, false)), (String ((Ascii (true,
+                 false, false, false, true, true, false, false)), (String
+                 ((Ascii (true, false, false, false, true, true, false,
+                 false)), (String ((Ascii (true, true, true, true, true,
+                 false, true, false)), (String ((Ascii (true, true, false,
+                 false, false, true, true, false)), (String ((Ascii (false,
+                 false, true, true, false, true, true, false)), (String
+                 ((Ascii (true, false, false, false, false, true, true,
+                 false)), (String ((Ascii (true, true, false, false, true,
+                 true, true, false)), (String ((Ascii (true, true, false,
+                 false, true, true, true, false)),
+                 EmptyString))))))))))))))))))))))))))))))))))))
+            then Some
+                   (vB
+                     (f11_class (dec_db (a O args)) (getS (a (S O) args))
+                       (dec_kw (a (S (S O)) args))))
+            else if eqb1 cmd (String ((Ascii (true, true, false, false, true,
+                      true, true, false)), (String ((Ascii (true, false,
+                      false, false, true, true, true, false)), (String
+                      ((Ascii (false, false, true, true, false, true, true,
+                      false)), (String ((Ascii (false, true, true, true,
+                      false, true, false, false)), (String ((Ascii (true,
+                      true, false, false, true, true, true, false)), (String
+                      ((Ascii (true, true, false, false, false, true, true,
+                      false)), (String ((Ascii (false, false, false, true,
+                      false, true, true, false)), (String ((Ascii (true,
+                      false, true, false, false, true, true, false)), (String
+                      ((Ascii (true, false, true, true, false, true, true,
+                      false)), (String ((Ascii (true, false, false, false,
+                      false, true, true, false)),
+                      EmptyString))))))))))))))))))))
+                 then Some (VL ((VL
+                        (map (fun c -> VL ((VS (fst c)) :: ((VS
+                          (snd c)) :: []))) col_src)) :: ((VZ
+                        max_sql_values_src) :: ((VZ sql_limit_src) :: []))))
+                 else if eqb1 cmd (String ((Ascii (true, true, false, false,
+                           true, true, true, false)), (String ((Ascii (false,
+                           false, false, false, true, true, true, false)),
+                           (String ((Ascii (true, false, true, false, false,
+                           true, true, false)), (String ((Ascii (true, true,
+                           false, false, false, true, true, false)), (String
+                           ((Ascii (false, true, true, true, false, true,
+                           false, false)), (String ((Ascii (true, true,
+                           false, false, true, true, true, false)), (String
+                           ((Ascii (true, false, false, false, true, true,
+                           true, false)), (String ((Ascii (false, false,
+                           true, true, false, true, true, false)), (String
+                           ((Ascii (false, true, true, true, false, true,
+                           false, false)), (String ((Ascii (false, true,
+                           true, false, false, true, true, false)), (String
+                           ((Ascii (true, false, false, false, true, true,
+                           false, false)), (String ((Ascii (false, false,
+                           false, false, true, true, false, false)), (String
+                           ((Ascii (true, true, true, true, true, false,
+                           true, false)), (String ((Ascii (true, true, false,
+                           false, false, true, true, false)), (String ((Ascii
+                           (false, false, true, true, false, true, true,
+                           false)), (String ((Ascii (true, false, false,
+                           false, false, true, true, false)), (String ((Ascii
+                           (true, true, false, false, true, true, true,
+                           false)), (String ((Ascii (true, true, false,
+                           false, true, true, true, false)),
+                           EmptyString))))))))))))))))))))))))))))))))))))
+                      then Some (vB (f10_class (dec_kw (a O args))))
+                      else None
 
 (** val vresS : string res -> v **)
 
@@ -5064,7 +10359,7 @@ let vresS = function
 
 (** val run_scores : string -> v list -> v option **)
 
-let run_scores cmd a =
+let run_scores cmd a0 =
   if eqb1 cmd (String ((Ascii (true, true, false, false, false, true, true,
        false)), (String ((Ascii (true, false, false, false, false, true,
        true, false)), (String ((Ascii (false, false, false, false, true,
@@ -5073,8 +10368,8 @@ let run_scores cmd a =
        true, true, false)), EmptyString))))))))))
   then Some
          (vresS
-           (capri (getQ (nth O a (VZ Z0))) (getQ (nth (S O) a (VZ Z0)))
-             (getQ (nth (S (S O)) a (VZ Z0)))))
+           (capri (getQ (nth O a0 (VZ Z0))) (getQ (nth (S O) a0 (VZ Z0)))
+             (getQ (nth (S (S O)) a0 (VZ Z0)))))
   else if eqb1 cmd (String ((Ascii (true, true, false, false, false, true,
             true, false)), (String ((Ascii (true, false, false, false, false,
             true, true, false)), (String ((Ascii (false, false, false, false,
@@ -5088,10 +10383,10 @@ let run_scores cmd a =
             false)), EmptyString))))))))))))))))))
        then Some
               (vresS
-                (capri_src (getQ (nth O a (VZ Z0)))
-                  (getQ (nth (S O) a (VZ Z0)))
-                  (getQ (nth (S (S O)) a (VZ Z0)))
-                  (getS (nth (S (S (S O))) a (VZ Z0)))))
+                (capri_src (getQ (nth O a0 (VZ Z0)))
+                  (getQ (nth (S O) a0 (VZ Z0)))
+                  (getQ (nth (S (S O)) a0 (VZ Z0)))
+                  (getS (nth (S (S (S O))) a0 (VZ Z0)))))
        else if eqb1 cmd (String ((Ascii (true, true, false, false, true,
                  true, true, false)), (String ((Ascii (false, false, false,
                  false, true, true, true, false)), (String ((Ascii (true,
@@ -5109,9 +10404,9 @@ let run_scores cmd a =
             then Some
                    (vOk (VS
                      (class_name
-                       (capri_spec (getQ (nth O a (VZ Z0)))
-                         (getQ (nth (S O) a (VZ Z0)))
-                         (getQ (nth (S (S O)) a (VZ Z0)))))))
+                       (capri_spec (getQ (nth O a0 (VZ Z0)))
+                         (getQ (nth (S O) a0 (VZ Z0)))
+                         (getQ (nth (S (S O)) a0 (VZ Z0)))))))
             else if eqb1 cmd (String ((Ascii (false, false, true, false,
                       false, true, true, false)), (String ((Ascii (true,
                       true, true, true, false, true, true, false)), (String
@@ -5122,11 +10417,11 @@ let run_scores cmd a =
                       EmptyString))))))))))
                  then Some
                         (vQ
-                          (dockq (getQ (nth O a (VZ Z0)))
-                            (getQ (nth (S O) a (VZ Z0)))
-                            (getQ (nth (S (S O)) a (VZ Z0)))
-                            (getQ (nth (S (S (S O))) a (VZ Z0)))
-                            (getQ (nth (S (S (S (S O)))) a (VZ Z0)))))
+                          (dockq (getQ (nth O a0 (VZ Z0)))
+                            (getQ (nth (S O) a0 (VZ Z0)))
+                            (getQ (nth (S (S O)) a0 (VZ Z0)))
+                            (getQ (nth (S (S (S O))) a0 (VZ Z0)))
+                            (getQ (nth (S (S (S (S O)))) a0 (VZ Z0)))))
                  else if eqb1 cmd (String ((Ascii (false, false, true, false,
                            false, true, true, false)), (String ((Ascii (true,
                            true, true, true, false, true, true, false)),
@@ -5144,11 +10439,11 @@ let run_scores cmd a =
                       then Some
                              (vQ
                                (qred
-                                 (dockq_raw_src (getQ (nth O a (VZ Z0)))
-                                   (getQ (nth (S O) a (VZ Z0)))
-                                   (getQ (nth (S (S O)) a (VZ Z0)))
-                                   (getQ (nth (S (S (S O))) a (VZ Z0)))
-                                   (getQ (nth (S (S (S (S O)))) a (VZ Z0))))))
+                                 (dockq_raw_src (getQ (nth O a0 (VZ Z0)))
+                                   (getQ (nth (S O) a0 (VZ Z0)))
+                                   (getQ (nth (S (S O)) a0 (VZ Z0)))
+                                   (getQ (nth (S (S (S O))) a0 (VZ Z0)))
+                                   (getQ (nth (S (S (S (S O)))) a0 (VZ Z0))))))
                       else if eqb1 cmd (String ((Ascii (true, true, false,
                                 false, true, true, true, false)), (String
                                 ((Ascii (false, false, false, false, true,
@@ -5170,12 +10465,13 @@ let run_scores cmd a =
                            then Some
                                   (vQ
                                     (round_dec (S (S (S (S (S (S O))))))
-                                      (dockq_formula (getQ (nth O a (VZ Z0)))
-                                        (getQ (nth (S O) a (VZ Z0)))
-                                        (getQ (nth (S (S O)) a (VZ Z0)))
-                                        (getQ (nth (S (S (S O))) a (VZ Z0)))
+                                      (dockq_formula
+                                        (getQ (nth O a0 (VZ Z0)))
+                                        (getQ (nth (S O) a0 (VZ Z0)))
+                                        (getQ (nth (S (S O)) a0 (VZ Z0)))
+                                        (getQ (nth (S (S (S O))) a0 (VZ Z0)))
                                         (getQ
-                                          (nth (S (S (S (S O)))) a (VZ Z0))))))
+                                          (nth (S (S (S (S O)))) a0 (VZ Z0))))))
                            else if eqb1 cmd (String ((Ascii (false, false,
                                      true, false, false, true, true, false)),
                                      (String ((Ascii (true, true, true, true,
@@ -5248,30 +10544,34 @@ let run = function
                        (match run_superpose cmd args with
                         | Some r -> r
                         | None ->
-                          vErr (String ((Ascii (true, false, true, false,
-                            true, true, true, false)), (String ((Ascii
-                            (false, true, true, true, false, true, true,
-                            false)), (String ((Ascii (true, true, false,
-                            true, false, true, true, false)), (String ((Ascii
-                            (false, true, true, true, false, true, true,
-                            false)), (String ((Ascii (true, true, true, true,
-                            false, true, true, false)), (String ((Ascii
-                            (true, true, true, false, true, true, true,
-                            false)), (String ((Ascii (false, true, true,
-                            true, false, true, true, false)), (String ((Ascii
-                            (true, false, true, true, false, true, false,
-                            false)), (String ((Ascii (true, true, false,
-                            false, false, true, true, false)), (String
-                            ((Ascii (true, true, true, true, false, true,
-                            true, false)), (String ((Ascii (true, false,
-                            true, true, false, true, true, false)), (String
-                            ((Ascii (true, false, true, true, false, true,
-                            true, false)), (String ((Ascii (true, false,
-                            false, false, false, true, true, false)), (String
-                            ((Ascii (false, true, true, true, false, true,
-                            true, false)), (String ((Ascii (false, false,
-                            true, false, false, true, true, false)),
-                            EmptyString))))))))))))))))))))))))))))))))))))
+                          (match run_sql cmd args with
+                           | Some r -> r
+                           | None ->
+                             vErr (String ((Ascii (true, false, true, false,
+                               true, true, true, false)), (String ((Ascii
+                               (false, true, true, true, false, true, true,
+                               false)), (String ((Ascii (true, true, false,
+                               true, false, true, true, false)), (String
+                               ((Ascii (false, true, true, true, false, true,
+                               true, false)), (String ((Ascii (true, true,
+                               true, true, false, true, true, false)),
+                               (String ((Ascii (true, true, true, false,
+                               true, true, true, false)), (String ((Ascii
+                               (false, true, true, true, false, true, true,
+                               false)), (String ((Ascii (true, false, true,
+                               true, false, true, false, false)), (String
+                               ((Ascii (true, true, false, false, false,
+                               true, true, false)), (String ((Ascii (true,
+                               true, true, true, false, true, true, false)),
+                               (String ((Ascii (true, false, true, true,
+                               false, true, true, false)), (String ((Ascii
+                               (true, false, true, true, false, true, true,
+                               false)), (String ((Ascii (true, false, false,
+                               false, false, true, true, false)), (String
+                               ((Ascii (false, true, true, true, false, true,
+                               true, false)), (String ((Ascii (false, false,
+                               true, false, false, true, true, false)),
+                               EmptyString)))))))))))))))))))))))))))))))))))))
       | _ ->
         vErr (String ((Ascii (false, true, false, false, false, true, true,
           false)), (String ((Ascii (true, false, false, false, false, true,
